@@ -18,1220 +18,1371 @@ Definition terms_full (ts : list tok) (t : pt) : string :=
   show_toks (Some ts) ++ nl ++ show_pt (Some t) ++ nl ++ show_pt (parse ts).
 Eval vm_compute in ("<<<M16>>>" ++ check (runes_of_ascii "
 ")).
-Eval vm_compute in ("<<<M48>>>" ++ check (runes_of_ascii "
-")).
-Eval vm_compute in ("<<<T48>>>" ++ terms [mkTok 0 "<EOF>" 2 0 false] (mkPacket (mkPtok 0 "<EOF>" 2 0 0) None [])).
-Eval vm_compute in ("<<<M80>>>" ++ check (runes_of_ascii "packet stringy
-{  @calculatedFrom(""a	b""
-)uint8x,}
-// @lengthOf(
-// @lengthOf(
-root packet  i8i8
-{ @lengthOf( options1
-) @tag( 0 )
-    repeat
-metadata _x `" ++ [233]%N ++ runes_of_ascii "`	, repeat
-i8i8`
-` // a // b
-,
-repeat  char[ //x
-3 ]o , // " ++ [128512]%N ++ runes_of_ascii " emoji
-@calculatedFrom(""a	b""
-) repeat
-    u16 x `doc`
-,string_
-`tab	here`  , @calculatedFrom(
-    """ ++ [233]%N ++ runes_of_ascii "t" ++ [233]%N ++ runes_of_ascii """)@tag(	4294967296)
-repeat Logon stringy , } root
-    packet
-    tag { }")).
-Eval vm_compute in ("<<<M112>>>" ++ check (runes_of_ascii "packet  o {  } // " ++ [128512]%N ++ runes_of_ascii " emoji")).
-Eval vm_compute in ("<<<M144>>>" ++ check (runes_of_ascii "options
-{ MetaDataX=""\n""
-    /// triple
-    stringy = 4294967296 ; Packet=
-    false	; As = ""a\\"" /// triple
-; stringy = ' ';} options {
-}
-    MetaData roots {
-stringy MetaDataX
-    , }")).
-Eval vm_compute in ("<<<M176>>>" ++ check (runes_of_ascii "packet
-body { // @lengthOf(
-}")).
-Eval vm_compute in ("<<<M208>>>" ++ check (runes_of_ascii "packet _x{
-    u ,@lengthOf( len)
-    match f32a as
-    Pad{""packet"": metadata,
-""CRC32"":x_y_z[ ""abc"" , ""{,}"" ] : Logon , }
-    // c
-    , zchar[ 7  ]	a1  ,
-    @tag( 65535 ) @tag(
-0123456789
-    )
-    //x
-    @lengthOf(
-asx ) repeat
-i16 // @lengthOf(
-tag `{ , }` // `tick` ""quote"" 'q'
-,
-    @leftPad	(
-'\x00' ) match i64_ as x { 0 :crc , [
-//	t
-// trailing space 
-""// no comment"" ] : uint8x ,
-    42
-// a // b
-// trailing space 
-:  string_	, 007 : trueish , [10 ]// " ++ [128512]%N ++ runes_of_ascii " emoji
-: rootA
-""" ++ [28040; 24687]%N ++ runes_of_ascii """
-    : // trailing space 
-len , } //
-, @rightPad (
-'\x00' // trailing space 
-) @tag(
-    //
-    00 ) @calculatedFrom( """ ++ [233]%N ++ runes_of_ascii "t" ++ [233]%N ++ runes_of_ascii """ ) // c
-char[]float
-@calculatedFrom(	""\n"" ),repeat f32 trueish `crlf
-line` ,} // @lengthOf(")).
-Eval vm_compute in ("<<<M240>>>" ++ check (runes_of_ascii "MetaData/// triple
-float {	f64
-    // trailing space 
-    u8x
-`
-` ,	}")).
-Eval vm_compute in ("<<<M272>>>" ++ check (runes_of_ascii "root packet pack { match MetaDataX as Packet { 7: trueish , /// triple
-""" ++ [233]%N ++ runes_of_ascii "t" ++ [233]%N ++ runes_of_ascii """: MetaDataX
-,4294967296
-:msg_type  65535 : metadata ,3: x_y_z 42 :
-//
-/// triple
-_x// trailing space 
-,}	, } packet x_y_z
-    {repeat crc	metadata,match A as u8x  { [""it's"" ,""\" ++ [233]%N ++ runes_of_ascii """ ,
-0123456789  , ""1"" ,""abc""
-,""// no comment"", 4294967296 ]
-: pack ,007 : tag , } , } packet
-// c
-//x
-repeatCount  { @lengthOf(stringy )
-uint8 f32a , }options
-{
-BodyLength
-    =  '\x00' ; body
-    = ' ' ; } packet
-    charz { repeat Z9_ rootA `two words` , //
-@calculatedFrom( ""a\\""  ) f32a @lengthOf( msg_type
-    )	`say ""hi""` ,int8 As , string	stringy
-@lengthOf(options1 )
-`crlf
-line`,	i8 i8i8
-, f32a options1,
-@leftPad(
-    '\x00' )
-u
-    @calculatedFrom( """ ++ [128512]%N ++ runes_of_ascii """
-) ,
-@calculatedFrom(
-""\" ++ [233]%N ++ runes_of_ascii """ ) @tag(  00 ) @tag(
-0)
-int64 trueish@calculatedFrom(""`tick`"" // trailing space 
-)
-, @leftPad (
-' ' )
-    zchar@lengthOf( Z9_ )
-,} // " ++ [27880; 37322]%N)).
-Eval vm_compute in ("<<<T272>>>" ++ terms [mkTok 34 "root" 1 0 false; mkTok 35 "packet" 1 5 false; mkTok 42 "pack" 1 12 false; mkTok 2 "{" 1 17 false; mkTok 38 "match" 1 19 false; mkTok 42 "MetaDataX" 1 25 false; mkTok 17 "as" 1 35 false; mkTok 42 "Packet" 1 38 false; mkTok 2 "{" 1 45 false; mkTok 30 "7" 1 47 false; mkTok 39 ":" 1 48 false; mkTok 42 "trueish" 1 50 false; mkTok 40 "," 1 58 false; mkTok 44 "/// triple" 1 60 true; mkTok 31 (string_of_bytes [34; 195; 169; 116; 195; 169; 34]%N) 2 0 false; mkTok 39 ":" 2 5 false; mkTok 42 "MetaDataX" 2 7 false; mkTok 40 "," 3 0 false; mkTok 30 "4294967296" 3 1 false; mkTok 39 ":" 4 0 false; mkTok 42 "msg_type" 4 1 false; mkTok 30 "65535" 4 11 false; mkTok 39 ":" 4 17 false; mkTok 42 "metadata" 4 19 false; mkTok 40 "," 4 28 false; mkTok 30 "3" 4 29 false; mkTok 39 ":" 4 30 false; mkTok 42 "x_y_z" 4 32 false; mkTok 30 "42" 4 38 false; mkTok 39 ":" 4 41 false; mkTok 44 "//" 5 0 true; mkTok 44 "/// triple" 6 0 true; mkTok 42 "_x" 7 0 false; mkTok 44 "// trailing space " 7 2 true; mkTok 40 "," 8 0 false; mkTok 3 "}" 8 1 false; mkTok 40 "," 8 3 false; mkTok 3 "}" 8 5 false; mkTok 35 "packet" 8 7 false; mkTok 42 "x_y_z" 8 14 false; mkTok 2 "{" 9 4 false; mkTok 36 "repeat" 9 5 false; mkTok 42 "crc" 9 12 false; mkTok 42 "metadata" 9 16 false; mkTok 40 "," 9 24 false; mkTok 38 "match" 9 25 false; mkTok 42 "A" 9 31 false; mkTok 17 "as" 9 33 false; mkTok 42 "u8x" 9 36 false; mkTok 2 "{" 9 41 false; mkTok 18 "[" 9 43 false; mkTok 31 """it's""" 9 44 false; mkTok 40 "," 9 51 false; mkTok 31 (string_of_bytes [34; 92; 195; 169; 34]%N) 9 52 false; mkTok 40 "," 9 57 false; mkTok 30 "0123456789" 10 0 false; mkTok 40 "," 10 12 false; mkTok 31 """1""" 10 14 false; mkTok 40 "," 10 18 false; mkTok 31 """abc""" 10 19 false; mkTok 40 "," 11 0 false; mkTok 31 """// no comment""" 11 1 false; mkTok 40 "," 11 16 false; mkTok 30 "4294967296" 11 18 false; mkTok 13 "]" 11 29 false; mkTok 39 ":" 12 0 false; mkTok 42 "pack" 12 2 false; mkTok 40 "," 12 7 false; mkTok 30 "007" 12 8 false; mkTok 39 ":" 12 12 false; mkTok 42 "tag" 12 14 false; mkTok 40 "," 12 18 false; mkTok 3 "}" 12 20 false; mkTok 40 "," 12 22 false; mkTok 3 "}" 12 24 false; mkTok 35 "packet" 12 26 false; mkTok 44 "// c" 13 0 true; mkTok 44 "//x" 14 0 true; mkTok 42 "repeatCount" 15 0 false; mkTok 2 "{" 15 13 false; mkTok 7 "@lengthOf(" 15 15 false; mkTok 42 "stringy" 15 25 false; mkTok 6 ")" 15 33 false; mkTok 20 "uint8" 16 0 false; mkTok 42 "f32a" 16 6 false; mkTok 40 "," 16 11 false; mkTok 3 "}" 16 13 false; mkTok 1 "options" 16 14 false; mkTok 2 "{" 17 0 false; mkTok 42 "BodyLength" 18 0 false; mkTok 4 "=" 19 4 false; mkTok 33 "'\x00'" 19 7 false; mkTok 41 ";" 19 14 false; mkTok 42 "body" 19 16 false; mkTok 4 "=" 20 4 false; mkTok 33 "' '" 20 6 false; mkTok 41 ";" 20 10 false; mkTok 3 "}" 20 12 false; mkTok 35 "packet" 20 14 false; mkTok 42 "charz" 21 4 false; mkTok 2 "{" 21 10 false; mkTok 36 "repeat" 21 12 false; mkTok 42 "Z9_" 21 19 false; mkTok 42 "rootA" 21 23 false; mkTok 43 "`two words`" 21 29 false; mkTok 40 "," 21 41 false; mkTok 44 "//" 21 43 true; mkTok 5 "@calculatedFrom(" 22 0 false; mkTok 31 """a\\""" 22 17 false; mkTok 6 ")" 22 24 false; mkTok 42 "f32a" 22 26 false; mkTok 7 "@lengthOf(" 22 31 false; mkTok 42 "msg_type" 22 42 false; mkTok 6 ")" 23 4 false; mkTok 43 "`say ""hi""`" 23 6 false; mkTok 40 "," 23 17 false; mkTok 24 "int8" 23 18 false; mkTok 42 "As" 23 23 false; mkTok 40 "," 23 26 false; mkTok 15 "string" 23 28 false; mkTok 42 "stringy" 23 35 false; mkTok 7 "@lengthOf(" 24 0 false; mkTok 42 "options1" 24 10 false; mkTok 6 ")" 24 19 false; mkTok 43 (string_of_bytes [96; 99; 114; 108; 102; 13; 10; 108; 105; 110; 101; 96]%N) 25 0 false; mkTok 40 "," 26 5 false; mkTok 24 "i8" 26 7 false; mkTok 42 "i8i8" 26 10 false; mkTok 40 "," 27 0 false; mkTok 42 "f32a" 27 2 false; mkTok 42 "options1" 27 7 false; mkTok 40 "," 27 15 false; mkTok 32 "@leftPad" 28 0 false; mkTok 8 "(" 28 8 false; mkTok 33 "'\x00'" 29 4 false; mkTok 6 ")" 29 11 false; mkTok 42 "u" 30 0 false; mkTok 5 "@calculatedFrom(" 31 4 false; mkTok 31 (string_of_bytes [34; 240; 159; 152; 128; 34]%N) 31 21 false; mkTok 6 ")" 32 0 false; mkTok 40 "," 32 2 false; mkTok 5 "@calculatedFrom(" 33 0 false; mkTok 31 (string_of_bytes [34; 92; 195; 169; 34]%N) 34 0 false; mkTok 6 ")" 34 5 false; mkTok 9 "@tag(" 34 7 false; mkTok 30 "00" 34 14 false; mkTok 6 ")" 34 17 false; mkTok 9 "@tag(" 34 19 false; mkTok 30 "0" 35 0 false; mkTok 6 ")" 35 1 false; mkTok 27 "int64" 36 0 false; mkTok 42 "trueish" 36 6 false; mkTok 5 "@calculatedFrom(" 36 13 false; mkTok 31 """`tick`""" 36 29 false; mkTok 44 "// trailing space " 36 38 true; mkTok 6 ")" 37 0 false; mkTok 40 "," 38 0 false; mkTok 32 "@leftPad" 38 2 false; mkTok 8 "(" 38 11 false; mkTok 33 "' '" 39 0 false; mkTok 6 ")" 39 4 false; mkTok 42 "zchar" 40 4 false; mkTok 7 "@lengthOf(" 40 9 false; mkTok 42 "Z9_" 40 20 false; mkTok 6 ")" 40 24 false; mkTok 40 "," 41 0 false; mkTok 3 "}" 41 1 false; mkTok 44 (string_of_bytes [47; 47; 32; 230; 179; 168; 233; 135; 138]%N) 41 3 true; mkTok 0 "<EOF>" 41 8 false] (mkPacket (mkPtok 34 "root" 1 0 0) (Some (mkPtok 3 "}" 41 1 166)) [(DPacket (mkPacketDef (mkSpan (mkPtok 34 "root" 1 0 0) (mkPtok 3 "}" 8 5 37)) (Some (mkPtok 34 "root" 1 0 0)) (mkPtok 35 "packet" 1 5 1) (mkPtok 42 "pack" 1 12 2) (mkPtok 2 "{" 1 17 3) [(mkFieldWithAttr (mkSpan (mkPtok 38 "match" 1 19 4) (mkPtok 40 "," 8 3 36)) [] (MatchField (mkSpan (mkPtok 38 "match" 1 19 4) (mkPtok 40 "," 8 3 36)) (mkMatchFieldDecl (mkSpan (mkPtok 38 "match" 1 19 4) (mkPtok 3 "}" 8 1 35)) (mkPtok 38 "match" 1 19 4) (mkPtok 42 "MetaDataX" 1 25 5) (mkPtok 17 "as" 1 35 6) (mkPtok 42 "Packet" 1 38 7) (mkPtok 2 "{" 1 45 8) [(mkMatchPair (mkSpan (mkPtok 30 "7" 1 47 9) (mkPtok 40 "," 1 58 12)) (MKDigits (mkPtok 30 "7" 1 47 9)) (mkPtok 39 ":" 1 48 10) (mkPtok 42 "trueish" 1 50 11) (Some (mkPtok 40 "," 1 58 12))); (mkMatchPair (mkSpan (mkPtok 31 (string_of_bytes [34; 195; 169; 116; 195; 169; 34]%N) 2 0 14) (mkPtok 40 "," 3 0 17)) (MKString (mkPtok 31 (string_of_bytes [34; 195; 169; 116; 195; 169; 34]%N) 2 0 14)) (mkPtok 39 ":" 2 5 15) (mkPtok 42 "MetaDataX" 2 7 16) (Some (mkPtok 40 "," 3 0 17))); (mkMatchPair (mkSpan (mkPtok 30 "4294967296" 3 1 18) (mkPtok 42 "msg_type" 4 1 20)) (MKDigits (mkPtok 30 "4294967296" 3 1 18)) (mkPtok 39 ":" 4 0 19) (mkPtok 42 "msg_type" 4 1 20) None); (mkMatchPair (mkSpan (mkPtok 30 "65535" 4 11 21) (mkPtok 40 "," 4 28 24)) (MKDigits (mkPtok 30 "65535" 4 11 21)) (mkPtok 39 ":" 4 17 22) (mkPtok 42 "metadata" 4 19 23) (Some (mkPtok 40 "," 4 28 24))); (mkMatchPair (mkSpan (mkPtok 30 "3" 4 29 25) (mkPtok 42 "x_y_z" 4 32 27)) (MKDigits (mkPtok 30 "3" 4 29 25)) (mkPtok 39 ":" 4 30 26) (mkPtok 42 "x_y_z" 4 32 27) None); (mkMatchPair (mkSpan (mkPtok 30 "42" 4 38 28) (mkPtok 40 "," 8 0 34)) (MKDigits (mkPtok 30 "42" 4 38 28)) (mkPtok 39 ":" 4 41 29) (mkPtok 42 "_x" 7 0 32) (Some (mkPtok 40 "," 8 0 34)))] (mkPtok 3 "}" 8 1 35)) (mkPtok 40 "," 8 3 36)))] (mkPtok 3 "}" 8 5 37))); (DPacket (mkPacketDef (mkSpan (mkPtok 35 "packet" 8 7 38) (mkPtok 3 "}" 12 24 74)) None (mkPtok 35 "packet" 8 7 38) (mkPtok 42 "x_y_z" 8 14 39) (mkPtok 2 "{" 9 4 40) [(mkFieldWithAttr (mkSpan (mkPtok 36 "repeat" 9 5 41) (mkPtok 40 "," 9 24 44)) [] (ObjectField (mkSpan (mkPtok 36 "repeat" 9 5 41) (mkPtok 40 "," 9 24 44)) (Some (mkPtok 36 "repeat" 9 5 41)) (mkPtok 42 "crc" 9 12 42) (Some (mkPtok 42 "metadata" 9 16 43)) None (mkPtok 40 "," 9 24 44))); (mkFieldWithAttr (mkSpan (mkPtok 38 "match" 9 25 45) (mkPtok 40 "," 12 22 73)) [] (MatchField (mkSpan (mkPtok 38 "match" 9 25 45) (mkPtok 40 "," 12 22 73)) (mkMatchFieldDecl (mkSpan (mkPtok 38 "match" 9 25 45) (mkPtok 3 "}" 12 20 72)) (mkPtok 38 "match" 9 25 45) (mkPtok 42 "A" 9 31 46) (mkPtok 17 "as" 9 33 47) (mkPtok 42 "u8x" 9 36 48) (mkPtok 2 "{" 9 41 49) [(mkMatchPair (mkSpan (mkPtok 18 "[" 9 43 50) (mkPtok 40 "," 12 7 67)) (MKList (mkKeyList (mkSpan (mkPtok 18 "[" 9 43 50) (mkPtok 13 "]" 11 29 64)) (mkPtok 18 "[" 9 43 50) (mkPtok 31 """it's""" 9 44 51) [((mkPtok 40 "," 9 51 52), (mkPtok 31 (string_of_bytes [34; 92; 195; 169; 34]%N) 9 52 53)); ((mkPtok 40 "," 9 57 54), (mkPtok 30 "0123456789" 10 0 55)); ((mkPtok 40 "," 10 12 56), (mkPtok 31 """1""" 10 14 57)); ((mkPtok 40 "," 10 18 58), (mkPtok 31 """abc""" 10 19 59)); ((mkPtok 40 "," 11 0 60), (mkPtok 31 """// no comment""" 11 1 61)); ((mkPtok 40 "," 11 16 62), (mkPtok 30 "4294967296" 11 18 63))] (mkPtok 13 "]" 11 29 64))) (mkPtok 39 ":" 12 0 65) (mkPtok 42 "pack" 12 2 66) (Some (mkPtok 40 "," 12 7 67))); (mkMatchPair (mkSpan (mkPtok 30 "007" 12 8 68) (mkPtok 40 "," 12 18 71)) (MKDigits (mkPtok 30 "007" 12 8 68)) (mkPtok 39 ":" 12 12 69) (mkPtok 42 "tag" 12 14 70) (Some (mkPtok 40 "," 12 18 71)))] (mkPtok 3 "}" 12 20 72)) (mkPtok 40 "," 12 22 73)))] (mkPtok 3 "}" 12 24 74))); (DPacket (mkPacketDef (mkSpan (mkPtok 35 "packet" 12 26 75) (mkPtok 3 "}" 16 13 86)) None (mkPtok 35 "packet" 12 26 75) (mkPtok 42 "repeatCount" 15 0 78) (mkPtok 2 "{" 15 13 79) [(mkFieldWithAttr (mkSpan (mkPtok 7 "@lengthOf(" 15 15 80) (mkPtok 40 "," 16 11 85)) [(FALengthOf (mkSpan (mkPtok 7 "@lengthOf(" 15 15 80) (mkPtok 6 ")" 15 33 82)) (mkLengthOf (mkSpan (mkPtok 7 "@lengthOf(" 15 15 80) (mkPtok 6 ")" 15 33 82)) (mkPtok 7 "@lengthOf(" 15 15 80) (mkPtok 42 "stringy" 15 25 81) (mkPtok 6 ")" 15 33 82)))] (MetaField (mkSpan (mkPtok 20 "uint8" 16 0 83) (mkPtok 40 "," 16 11 85)) None (mkMetaDecl (mkSpan (mkPtok 20 "uint8" 16 0 83) (mkPtok 40 "," 16 11 85)) (TyBasic (mkSpan (mkPtok 20 "uint8" 16 0 83) (mkPtok 20 "uint8" 16 0 83)) (mkBasicType (mkSpan (mkPtok 20 "uint8" 16 0 83) (mkPtok 20 "uint8" 16 0 83)) (mkPtok 20 "uint8" 16 0 83))) (mkPtok 42 "f32a" 16 6 84) None (mkPtok 40 "," 16 11 85))))] (mkPtok 3 "}" 16 13 86))); (DOption (mkOptionDef (mkSpan (mkPtok 1 "options" 16 14 87) (mkPtok 3 "}" 20 12 97)) (mkPtok 1 "options" 16 14 87) (mkPtok 2 "{" 17 0 88) [(mkOptionDecl (mkSpan (mkPtok 42 "BodyLength" 18 0 89) (mkPtok 41 ";" 19 14 92)) (mkPtok 42 "BodyLength" 18 0 89) (mkPtok 4 "=" 19 4 90) (VPaddingChar (mkSpan (mkPtok 33 "'\x00'" 19 7 91) (mkPtok 33 "'\x00'" 19 7 91)) (mkPtok 33 "'\x00'" 19 7 91)) (Some (mkPtok 41 ";" 19 14 92))); (mkOptionDecl (mkSpan (mkPtok 42 "body" 19 16 93) (mkPtok 41 ";" 20 10 96)) (mkPtok 42 "body" 19 16 93) (mkPtok 4 "=" 20 4 94) (VPaddingChar (mkSpan (mkPtok 33 "' '" 20 6 95) (mkPtok 33 "' '" 20 6 95)) (mkPtok 33 "' '" 20 6 95)) (Some (mkPtok 41 ";" 20 10 96)))] (mkPtok 3 "}" 20 12 97))); (DPacket (mkPacketDef (mkSpan (mkPtok 35 "packet" 20 14 98) (mkPtok 3 "}" 41 1 166)) None (mkPtok 35 "packet" 20 14 98) (mkPtok 42 "charz" 21 4 99) (mkPtok 2 "{" 21 10 100) [(mkFieldWithAttr (mkSpan (mkPtok 36 "repeat" 21 12 101) (mkPtok 40 "," 21 41 105)) [] (ObjectField (mkSpan (mkPtok 36 "repeat" 21 12 101) (mkPtok 40 "," 21 41 105)) (Some (mkPtok 36 "repeat" 21 12 101)) (mkPtok 42 "Z9_" 21 19 102) (Some (mkPtok 42 "rootA" 21 23 103)) (Some (mkPtok 43 "`two words`" 21 29 104)) (mkPtok 40 "," 21 41 105))); (mkFieldWithAttr (mkSpan (mkPtok 5 "@calculatedFrom(" 22 0 107) (mkPtok 40 "," 23 17 115)) [(FACalculatedFrom (mkSpan (mkPtok 5 "@calculatedFrom(" 22 0 107) (mkPtok 6 ")" 22 24 109)) (mkCalculatedFrom (mkSpan (mkPtok 5 "@calculatedFrom(" 22 0 107) (mkPtok 6 ")" 22 24 109)) (mkPtok 5 "@calculatedFrom(" 22 0 107) (mkPtok 31 """a\\""" 22 17 108) (mkPtok 6 ")" 22 24 109)))] (LengthField (mkSpan (mkPtok 42 "f32a" 22 26 110) (mkPtok 40 "," 23 17 115)) (mkLengthFieldDecl (mkSpan (mkPtok 42 "f32a" 22 26 110) (mkPtok 40 "," 23 17 115)) None (mkPtok 42 "f32a" 22 26 110) (mkLengthOf (mkSpan (mkPtok 7 "@lengthOf(" 22 31 111) (mkPtok 6 ")" 23 4 113)) (mkPtok 7 "@lengthOf(" 22 31 111) (mkPtok 42 "msg_type" 22 42 112) (mkPtok 6 ")" 23 4 113)) (Some (mkPtok 43 "`say ""hi""`" 23 6 114)) (mkPtok 40 "," 23 17 115)))); (mkFieldWithAttr (mkSpan (mkPtok 24 "int8" 23 18 116) (mkPtok 40 "," 23 26 118)) [] (MetaField (mkSpan (mkPtok 24 "int8" 23 18 116) (mkPtok 40 "," 23 26 118)) None (mkMetaDecl (mkSpan (mkPtok 24 "int8" 23 18 116) (mkPtok 40 "," 23 26 118)) (TyBasic (mkSpan (mkPtok 24 "int8" 23 18 116) (mkPtok 24 "int8" 23 18 116)) (mkBasicType (mkSpan (mkPtok 24 "int8" 23 18 116) (mkPtok 24 "int8" 23 18 116)) (mkPtok 24 "int8" 23 18 116))) (mkPtok 42 "As" 23 23 117) None (mkPtok 40 "," 23 26 118)))); (mkFieldWithAttr (mkSpan (mkPtok 15 "string" 23 28 119) (mkPtok 40 "," 26 5 125)) [] (LengthField (mkSpan (mkPtok 15 "string" 23 28 119) (mkPtok 40 "," 26 5 125)) (mkLengthFieldDecl (mkSpan (mkPtok 15 "string" 23 28 119) (mkPtok 40 "," 26 5 125)) (Some (TyDynamic (mkSpan (mkPtok 15 "string" 23 28 119) (mkPtok 15 "string" 23 28 119)) (mkDynamicString (mkSpan (mkPtok 15 "string" 23 28 119) (mkPtok 15 "string" 23 28 119)) (mkPtok 15 "string" 23 28 119)))) (mkPtok 42 "stringy" 23 35 120) (mkLengthOf (mkSpan (mkPtok 7 "@lengthOf(" 24 0 121) (mkPtok 6 ")" 24 19 123)) (mkPtok 7 "@lengthOf(" 24 0 121) (mkPtok 42 "options1" 24 10 122) (mkPtok 6 ")" 24 19 123)) (Some (mkPtok 43 (string_of_bytes [96; 99; 114; 108; 102; 13; 10; 108; 105; 110; 101; 96]%N) 25 0 124)) (mkPtok 40 "," 26 5 125)))); (mkFieldWithAttr (mkSpan (mkPtok 24 "i8" 26 7 126) (mkPtok 40 "," 27 0 128)) [] (MetaField (mkSpan (mkPtok 24 "i8" 26 7 126) (mkPtok 40 "," 27 0 128)) None (mkMetaDecl (mkSpan (mkPtok 24 "i8" 26 7 126) (mkPtok 40 "," 27 0 128)) (TyBasic (mkSpan (mkPtok 24 "i8" 26 7 126) (mkPtok 24 "i8" 26 7 126)) (mkBasicType (mkSpan (mkPtok 24 "i8" 26 7 126) (mkPtok 24 "i8" 26 7 126)) (mkPtok 24 "i8" 26 7 126))) (mkPtok 42 "i8i8" 26 10 127) None (mkPtok 40 "," 27 0 128)))); (mkFieldWithAttr (mkSpan (mkPtok 42 "f32a" 27 2 129) (mkPtok 40 "," 27 15 131)) [] (ObjectField (mkSpan (mkPtok 42 "f32a" 27 2 129) (mkPtok 40 "," 27 15 131)) None (mkPtok 42 "f32a" 27 2 129) (Some (mkPtok 42 "options1" 27 7 130)) None (mkPtok 40 "," 27 15 131))); (mkFieldWithAttr (mkSpan (mkPtok 32 "@leftPad" 28 0 132) (mkPtok 40 "," 32 2 140)) [(FAPadding (mkSpan (mkPtok 32 "@leftPad" 28 0 132) (mkPtok 6 ")" 29 11 135)) (mkPaddingAttr (mkSpan (mkPtok 32 "@leftPad" 28 0 132) (mkPtok 6 ")" 29 11 135)) (mkPtok 32 "@leftPad" 28 0 132) (mkPtok 8 "(" 28 8 133) (Some (mkPtok 33 "'\x00'" 29 4 134)) (mkPtok 6 ")" 29 11 135)))] (CheckSumField (mkSpan (mkPtok 42 "u" 30 0 136) (mkPtok 40 "," 32 2 140)) (mkChecksumFieldDecl (mkSpan (mkPtok 42 "u" 30 0 136) (mkPtok 40 "," 32 2 140)) None (mkPtok 42 "u" 30 0 136) (mkCalculatedFrom (mkSpan (mkPtok 5 "@calculatedFrom(" 31 4 137) (mkPtok 6 ")" 32 0 139)) (mkPtok 5 "@calculatedFrom(" 31 4 137) (mkPtok 31 (string_of_bytes [34; 240; 159; 152; 128; 34]%N) 31 21 138) (mkPtok 6 ")" 32 0 139)) None (mkPtok 40 "," 32 2 140)))); (mkFieldWithAttr (mkSpan (mkPtok 5 "@calculatedFrom(" 33 0 141) (mkPtok 40 "," 38 0 156)) [(FACalculatedFrom (mkSpan (mkPtok 5 "@calculatedFrom(" 33 0 141) (mkPtok 6 ")" 34 5 143)) (mkCalculatedFrom (mkSpan (mkPtok 5 "@calculatedFrom(" 33 0 141) (mkPtok 6 ")" 34 5 143)) (mkPtok 5 "@calculatedFrom(" 33 0 141) (mkPtok 31 (string_of_bytes [34; 92; 195; 169; 34]%N) 34 0 142) (mkPtok 6 ")" 34 5 143))); (FATag (mkSpan (mkPtok 9 "@tag(" 34 7 144) (mkPtok 6 ")" 34 17 146)) (mkTagAttr (mkSpan (mkPtok 9 "@tag(" 34 7 144) (mkPtok 6 ")" 34 17 146)) (mkPtok 9 "@tag(" 34 7 144) (mkPtok 30 "00" 34 14 145) (mkPtok 6 ")" 34 17 146))); (FATag (mkSpan (mkPtok 9 "@tag(" 34 19 147) (mkPtok 6 ")" 35 1 149)) (mkTagAttr (mkSpan (mkPtok 9 "@tag(" 34 19 147) (mkPtok 6 ")" 35 1 149)) (mkPtok 9 "@tag(" 34 19 147) (mkPtok 30 "0" 35 0 148) (mkPtok 6 ")" 35 1 149)))] (CheckSumField (mkSpan (mkPtok 27 "int64" 36 0 150) (mkPtok 40 "," 38 0 156)) (mkChecksumFieldDecl (mkSpan (mkPtok 27 "int64" 36 0 150) (mkPtok 40 "," 38 0 156)) (Some (TyBasic (mkSpan (mkPtok 27 "int64" 36 0 150) (mkPtok 27 "int64" 36 0 150)) (mkBasicType (mkSpan (mkPtok 27 "int64" 36 0 150) (mkPtok 27 "int64" 36 0 150)) (mkPtok 27 "int64" 36 0 150)))) (mkPtok 42 "trueish" 36 6 151) (mkCalculatedFrom (mkSpan (mkPtok 5 "@calculatedFrom(" 36 13 152) (mkPtok 6 ")" 37 0 155)) (mkPtok 5 "@calculatedFrom(" 36 13 152) (mkPtok 31 """`tick`""" 36 29 153) (mkPtok 6 ")" 37 0 155)) None (mkPtok 40 "," 38 0 156)))); (mkFieldWithAttr (mkSpan (mkPtok 32 "@leftPad" 38 2 157) (mkPtok 40 "," 41 0 165)) [(FAPadding (mkSpan (mkPtok 32 "@leftPad" 38 2 157) (mkPtok 6 ")" 39 4 160)) (mkPaddingAttr (mkSpan (mkPtok 32 "@leftPad" 38 2 157) (mkPtok 6 ")" 39 4 160)) (mkPtok 32 "@leftPad" 38 2 157) (mkPtok 8 "(" 38 11 158) (Some (mkPtok 33 "' '" 39 0 159)) (mkPtok 6 ")" 39 4 160)))] (LengthField (mkSpan (mkPtok 42 "zchar" 40 4 161) (mkPtok 40 "," 41 0 165)) (mkLengthFieldDecl (mkSpan (mkPtok 42 "zchar" 40 4 161) (mkPtok 40 "," 41 0 165)) None (mkPtok 42 "zchar" 40 4 161) (mkLengthOf (mkSpan (mkPtok 7 "@lengthOf(" 40 9 162) (mkPtok 6 ")" 40 24 164)) (mkPtok 7 "@lengthOf(" 40 9 162) (mkPtok 42 "Z9_" 40 20 163) (mkPtok 6 ")" 40 24 164)) None (mkPtok 40 "," 41 0 165))))] (mkPtok 3 "}" 41 1 166)))])).
-Eval vm_compute in ("<<<M304>>>" ++ check (runes_of_ascii "packet i8i8
-{ zchar[	10 ]a1 ,	}packet x_y_z {
-//
-// c
-} options{	matchKey
-= false// " ++ [128512]%N ++ runes_of_ascii " emoji
-;
-Foo=
-i32 ; MetaDataX  = 007 pack =
-""" ++ [28040; 24687]%N ++ runes_of_ascii """
-// a // b
-// c
-; }  packet leftPad  {} root packet// a // b
-stringy{/// triple
-rootA Pad ,	falsey @calculatedFrom( ""it's"") `two words` , u8x float
-, int64
-u8x, } //x")).
-Eval vm_compute in ("<<<M336>>>" ++ check (runes_of_ascii "MetaData // " ++ [128512]%N ++ runes_of_ascii " emoji
-Header { // trailing space 
-u64 falsey ,
-}")).
-Eval vm_compute in ("<<<M368>>>" ++ check (runes_of_ascii "packet
-matchKey
-    {	zchar[ 3
-    ]
-// `tick` ""quote"" 'q'
-// packet A { u8 x, }
-A,msg_type
-`a\` , MetaDataX As  , @lengthOf(
-    Z9_ )repeat
-    f32 _x ,
-    @lengthOf(Pad ) uint32 //	t
-Logon
-    , // a // b
-@tag( 4294967296 ) T	`doc` ,
-len  ,
-body { repeat
-    o { match i8i8 as	body{ 65535
-:lengthOf,
-[ ""\n"" ] : i64_ 3
-: asx , [
-""packet""
-,
-    /// triple
-    007	,
-""{,}""  , ""// no comment""
-] : repeatCount ,[ ""// no comment"",
-    7
-    ,	""\" ++ [233]%N ++ runes_of_ascii """, 0123456789 //
-, ""a\""b"" ] : roots
-} ,
-match repeatCount as As
-{ """"
-    /// triple
-    : //	t
-o ,
-    }
-, } , zchar[ 0 ]BodyLength `` ,
-    lengthOf,}, i16 Z9_ , } packet
-    tag { @tag(
-    // `tick` ""quote"" 'q'
-    1 ) repeat float i8i8`" ++ [28040; 24687; 31867; 22411]%N ++ runes_of_ascii "` // `tick` ""quote"" 'q'
-,  @rightPad ( )@lengthOf( _x) @rightPad ( // c
-'0'
-)
-Packet, Foo /// triple
-@lengthOf(
-    u128
-) `doc` ,
-@tag( 007 ) // packet A { u8 x, }
-string repeatCount , o {match leftPad as lengthOf {
-[
-    0123456789  ,
-""1"" ] :
-    x_y_z  , [ """ ++ [128512]%N ++ runes_of_ascii """] : i8i8
-, [// @lengthOf(
-""a\""b"" , ""a	b"" ]
-: Foo , [ ""\" ++ [233]%N ++ runes_of_ascii """ ] : Pad,
-    [ ""a	b"" , 42
-//
-//	t
-, """ ++ [233]%N ++ runes_of_ascii "t" ++ [233]%N ++ runes_of_ascii """ ,	3 ,	""" ++ [28040; 24687]%N ++ runes_of_ascii """,
-    00 ,
-7 ]  : packetx ,
-42
-    //x
-    : falsey,}
-,},}packet body
-{ }")).
-Eval vm_compute in ("<<<M400>>>" ++ check (runes_of_ascii "
-options{}")).
-Eval vm_compute in ("<<<M432>>>" ++ check (runes_of_ascii "// a // b
-packet// a // b
-o
-{ body
-// trailing space 
-// `tick` ""quote"" 'q'
-{ repeat string Z9_ ,
-    match roots as A
-{ [""" ++ [28040; 24687]%N ++ runes_of_ascii """,0
-,00
-    ,
-0 ,	00 ,
-65535 ]
-:
-// c
-//x
-T } , }
-    , @calculatedFrom( ""\" ++ [233]%N ++ runes_of_ascii """  ) repeat asx{uint8  x_y_z
-,
-}
-,  f64  Header
-`line1
-line2` ,}options {
-    f32a	=
-    // c
-    7  ; packetx = 0123456789 u8x = """"
-    ;
-    } // a // b
-root packet stringy { Foo @calculatedFrom(  ""abc""
-    )
-    `
-`, @lengthOf( pack) repeat
-    u8x{ f32
-    zchar ,
-    //x
-    uint32 Z9_`tab	here`	,	leftPad {
-msg_type @lengthOf(BodyLength )
-,
-repeat int8 T, string_ uint8x, match trueish as A{
-[
-""a	b"" ,
-""a\\""
-] : // packet A { u8 x, }
-trueish
-, [ ""a\\"",42,
-""it's""
-    ,
-00, """ ++ [128512]%N ++ runes_of_ascii """] :  msg_type , ""a\\""
-    : Z9_
-/// triple
-/// triple
-, ""it's"" : // `tick` ""quote"" 'q'
-T , ""\" ++ [233]%N ++ runes_of_ascii """ : As [4294967296, ""x y""
-, 3 //
-, ""abc"", // packet A { u8 x, }
-""1""
-, """ ++ [233]%N ++ runes_of_ascii "t" ++ [233]%N ++ runes_of_ascii """
-    , 42	, ""\n""
-    ]
-: matchKey
-,
-}, }
-, }
-, }
-")).
-Eval vm_compute in ("<<<M464>>>" ++ check (runes_of_ascii "packet // a // b
-int{ } // a // b")).
-Eval vm_compute in ("<<<M496>>>" ++ check (runes_of_ascii "options
-{ metadata = char[
-4294967296
-    ] ;}  packet f32a
-{
-    match Z9_ as repeatCount
-    { 3 : crc
-,""{,}"" :pack , }, char[]
-calculatedFrom
-    @lengthOf( // @lengthOf(
-MetaDataX	)
-, @calculatedFrom( ""`tick`""
-    )// " ++ [128512]%N ++ runes_of_ascii " emoji
-x_y_z
-    // " ++ [27880; 37322]%N ++ runes_of_ascii "
-    , i8 leftPad ,  i8 uint8x @calculatedFrom(
-""packet"" ) // trailing space 
-`// not a comment`,
-@calculatedFrom(""""  ) @tag( 007)	char[ 10
-    ] T
-    @calculatedFrom(
-"""" //
-) ,u8x {zchar
-    @lengthOf( // packet A { u8 x, }
-u )
-    `{ , }`
-    // c
-    , },
-    float`say ""hi""`
-    ,i64 packetx,@lengthOf(BodyLength ) string  calculatedFrom , } packet
-MetaDataX // " ++ [27880; 37322]%N ++ runes_of_ascii "
-{ @calculatedFrom( ""{,}"" )
-match/// triple
-metadata as //
-_x
-    { ""1""	: // c
-uint8x  ,""{,}"" :
-falsey } ,} packet // " ++ [27880; 37322]%N ++ runes_of_ascii "
-Logon {  o @lengthOf( i8i8 )  , @rightPad ( '0'
-)
-    int64
-msg_type , char calculatedFrom
-, @tag( 255 )i8i8  @calculatedFrom( ""x y"" )
-    ,i8i8 // @lengthOf(
-@calculatedFrom( ""\" ++ [233]%N ++ runes_of_ascii """
-    )	, @tag( 0123456789
-    ) lengthOf ,@lengthOf( // `tick` ""quote"" 'q'
-o ) @tag(
-10 )
-    match options1 as u{ ""1"" :
-Pad  , // c
-""\" ++ [233]%N ++ runes_of_ascii """:metadata , // @lengthOf(
-} , @tag( // " ++ [128512]%N ++ runes_of_ascii " emoji
-1) @tag(
-65535 ) @lengthOf( Packet ) repeat T , @tag( 4294967296 )
-match x_y_z as uint8x {
-""{,}"":uint8x
-    7 : metadata, 7: i64_ [""" ++ [233]%N ++ runes_of_ascii "t" ++ [233]%N ++ runes_of_ascii """ ,""CRC32"" , // trailing space 
-""packet"" , 00
-    ,65535 , ""x y""	, // " ++ [27880; 37322]%N ++ runes_of_ascii "
-""packet"" //x
-]	:metadata , // packet A { u8 x, }
-""packet"" :
-    uint8x ,	} , repeat
-    x ,	}")).
-Eval vm_compute in ("<<<T496>>>" ++ terms [mkTok 1 "options" 1 0 false; mkTok 2 "{" 2 0 false; mkTok 42 "metadata" 2 2 false; mkTok 4 "=" 2 11 false; mkTok 12 "char[" 2 13 false; mkTok 30 "4294967296" 3 0 false; mkTok 13 "]" 4 4 false; mkTok 41 ";" 4 6 false; mkTok 3 "}" 4 7 false; mkTok 35 "packet" 4 10 false; mkTok 42 "f32a" 4 17 false; mkTok 2 "{" 5 0 false; mkTok 38 "match" 6 4 false; mkTok 42 "Z9_" 6 10 false; mkTok 17 "as" 6 14 false; mkTok 42 "repeatCount" 6 17 false; mkTok 2 "{" 7 4 false; mkTok 30 "3" 7 6 false; mkTok 39 ":" 7 8 false; mkTok 42 "crc" 7 10 false; mkTok 40 "," 8 0 false; mkTok 31 """{,}""" 8 1 false; mkTok 39 ":" 8 7 false; mkTok 42 "pack" 8 8 false; mkTok 40 "," 8 13 false; mkTok 3 "}" 8 15 false; mkTok 40 "," 8 16 false; mkTok 16 "char[]" 8 18 false; mkTok 42 "calculatedFrom" 9 0 false; mkTok 7 "@lengthOf(" 10 4 false; mkTok 44 "// @lengthOf(" 10 15 true; mkTok 42 "MetaDataX" 11 0 false; mkTok 6 ")" 11 10 false; mkTok 40 "," 12 0 false; mkTok 5 "@calculatedFrom(" 12 2 false; mkTok 31 """`tick`""" 12 19 false; mkTok 6 ")" 13 4 false; mkTok 44 (string_of_bytes [47; 47; 32; 240; 159; 152; 128; 32; 101; 109; 111; 106; 105]%N) 13 5 true; mkTok 42 "x_y_z" 14 0 false; mkTok 44 (string_of_bytes [47; 47; 32; 230; 179; 168; 233; 135; 138]%N) 15 4 true; mkTok 40 "," 16 4 false; mkTok 24 "i8" 16 6 false; mkTok 42 "leftPad" 16 9 false; mkTok 40 "," 16 17 false; mkTok 24 "i8" 16 20 false; mkTok 42 "uint8x" 16 23 false; mkTok 5 "@calculatedFrom(" 16 30 false; mkTok 31 """packet""" 17 0 false; mkTok 6 ")" 17 9 false; mkTok 44 "// trailing space " 17 11 true; mkTok 43 "`// not a comment`" 18 0 false; mkTok 40 "," 18 18 false; mkTok 5 "@calculatedFrom(" 19 0 false; mkTok 31 """""" 19 16 false; mkTok 6 ")" 19 20 false; mkTok 9 "@tag(" 19 22 false; mkTok 30 "007" 19 28 false; mkTok 6 ")" 19 31 false; mkTok 12 "char[" 19 33 false; mkTok 30 "10" 19 39 false; mkTok 13 "]" 20 4 false; mkTok 42 "T" 20 6 false; mkTok 5 "@calculatedFrom(" 21 4 false; mkTok 31 """""" 22 0 false; mkTok 44 "//" 22 3 true; mkTok 6 ")" 23 0 false; mkTok 40 "," 23 2 false; mkTok 42 "u8x" 23 3 false; mkTok 2 "{" 23 7 false; mkTok 42 "zchar" 23 8 false; mkTok 7 "@lengthOf(" 24 4 false; mkTok 44 "// packet A { u8 x, }" 24 15 true; mkTok 42 "u" 25 0 false; mkTok 6 ")" 25 2 false; mkTok 43 "`{ , }`" 26 4 false; mkTok 44 "// c" 27 4 true; mkTok 40 "," 28 4 false; mkTok 3 "}" 28 6 false; mkTok 40 "," 28 7 false; mkTok 42 "float" 29 4 false; mkTok 43 "`say ""hi""`" 29 9 false; mkTok 40 "," 30 4 false; mkTok 27 "i64" 30 5 false; mkTok 42 "packetx" 30 9 false; mkTok 40 "," 30 16 false; mkTok 7 "@lengthOf(" 30 17 false; mkTok 42 "BodyLength" 30 27 false; mkTok 6 ")" 30 38 false; mkTok 15 "string" 30 40 false; mkTok 42 "calculatedFrom" 30 48 false; mkTok 40 "," 30 63 false; mkTok 3 "}" 30 65 false; mkTok 35 "packet" 30 67 false; mkTok 42 "MetaDataX" 31 0 false; mkTok 44 (string_of_bytes [47; 47; 32; 230; 179; 168; 233; 135; 138]%N) 31 10 true; mkTok 2 "{" 32 0 false; mkTok 5 "@calculatedFrom(" 32 2 false; mkTok 31 """{,}""" 32 19 false; mkTok 6 ")" 32 25 false; mkTok 38 "match" 33 0 false; mkTok 44 "/// triple" 33 5 true; mkTok 42 "metadata" 34 0 false; mkTok 17 "as" 34 9 false; mkTok 44 "//" 34 12 true; mkTok 42 "_x" 35 0 false; mkTok 2 "{" 36 4 false; mkTok 31 """1""" 36 6 false; mkTok 39 ":" 36 10 false; mkTok 44 "// c" 36 12 true; mkTok 42 "uint8x" 37 0 false; mkTok 40 "," 37 8 false; mkTok 31 """{,}""" 37 9 false; mkTok 39 ":" 37 15 false; mkTok 42 "falsey" 38 0 false; mkTok 3 "}" 38 7 false; mkTok 40 "," 38 9 false; mkTok 3 "}" 38 10 false; mkTok 35 "packet" 38 12 false; mkTok 44 (string_of_bytes [47; 47; 32; 230; 179; 168; 233; 135; 138]%N) 38 19 true; mkTok 42 "Logon" 39 0 false; mkTok 2 "{" 39 6 false; mkTok 42 "o" 39 9 false; mkTok 7 "@lengthOf(" 39 11 false; mkTok 42 "i8i8" 39 22 false; mkTok 6 ")" 39 27 false; mkTok 40 "," 39 30 false; mkTok 32 "@rightPad" 39 32 false; mkTok 8 "(" 39 42 false; mkTok 33 "'0'" 39 44 false; mkTok 6 ")" 40 0 false; mkTok 27 "int64" 41 4 false; mkTok 42 "msg_type" 42 0 false; mkTok 40 "," 42 9 false; mkTok 19 "char" 42 11 false; mkTok 42 "calculatedFrom" 42 16 false; mkTok 40 "," 43 0 false; mkTok 9 "@tag(" 43 2 false; mkTok 30 "255" 43 8 false; mkTok 6 ")" 43 12 false; mkTok 42 "i8i8" 43 13 false; mkTok 5 "@calculatedFrom(" 43 19 false; mkTok 31 """x y""" 43 36 false; mkTok 6 ")" 43 42 false; mkTok 40 "," 44 4 false; mkTok 42 "i8i8" 44 5 false; mkTok 44 "// @lengthOf(" 44 10 true; mkTok 5 "@calculatedFrom(" 45 0 false; mkTok 31 (string_of_bytes [34; 92; 195; 169; 34]%N) 45 17 false; mkTok 6 ")" 46 4 false; mkTok 40 "," 46 6 false; mkTok 9 "@tag(" 46 8 false; mkTok 30 "0123456789" 46 14 false; mkTok 6 ")" 47 4 false; mkTok 42 "lengthOf" 47 6 false; mkTok 40 "," 47 15 false; mkTok 7 "@lengthOf(" 47 16 false; mkTok 44 "// `tick` ""quote"" 'q'" 47 27 true; mkTok 42 "o" 48 0 false; mkTok 6 ")" 48 2 false; mkTok 9 "@tag(" 48 4 false; mkTok 30 "10" 49 0 false; mkTok 6 ")" 49 3 false; mkTok 38 "match" 50 4 false; mkTok 42 "options1" 50 10 false; mkTok 17 "as" 50 19 false; mkTok 42 "u" 50 22 false; mkTok 2 "{" 50 23 false; mkTok 31 """1""" 50 25 false; mkTok 39 ":" 50 29 false; mkTok 42 "Pad" 51 0 false; mkTok 40 "," 51 5 false; mkTok 44 "// c" 51 7 true; mkTok 31 (string_of_bytes [34; 92; 195; 169; 34]%N) 52 0 false; mkTok 39 ":" 52 4 false; mkTok 42 "metadata" 52 5 false; mkTok 40 "," 52 14 false; mkTok 44 "// @lengthOf(" 52 16 true; mkTok 3 "}" 53 0 false; mkTok 40 "," 53 2 false; mkTok 9 "@tag(" 53 4 false; mkTok 44 (string_of_bytes [47; 47; 32; 240; 159; 152; 128; 32; 101; 109; 111; 106; 105]%N) 53 10 true; mkTok 30 "1" 54 0 false; mkTok 6 ")" 54 1 false; mkTok 9 "@tag(" 54 3 false; mkTok 30 "65535" 55 0 false; mkTok 6 ")" 55 6 false; mkTok 7 "@lengthOf(" 55 8 false; mkTok 42 "Packet" 55 19 false; mkTok 6 ")" 55 26 false; mkTok 36 "repeat" 55 28 false; mkTok 42 "T" 55 35 false; mkTok 40 "," 55 37 false; mkTok 9 "@tag(" 55 39 false; mkTok 30 "4294967296" 55 45 false; mkTok 6 ")" 55 56 false; mkTok 38 "match" 56 0 false; mkTok 42 "x_y_z" 56 6 false; mkTok 17 "as" 56 12 false; mkTok 42 "uint8x" 56 15 false; mkTok 2 "{" 56 22 false; mkTok 31 """{,}""" 57 0 false; mkTok 39 ":" 57 5 false; mkTok 42 "uint8x" 57 6 false; mkTok 30 "7" 58 4 false; mkTok 39 ":" 58 6 false; mkTok 42 "metadata" 58 8 false; mkTok 40 "," 58 16 false; mkTok 30 "7" 58 18 false; mkTok 39 ":" 58 19 false; mkTok 42 "i64_" 58 21 false; mkTok 18 "[" 58 26 false; mkTok 31 (string_of_bytes [34; 195; 169; 116; 195; 169; 34]%N) 58 27 false; mkTok 40 "," 58 33 false; mkTok 31 """CRC32""" 58 34 false; mkTok 40 "," 58 42 false; mkTok 44 "// trailing space " 58 44 true; mkTok 31 """packet""" 59 0 false; mkTok 40 "," 59 9 false; mkTok 30 "00" 59 11 false; mkTok 40 "," 60 4 false; mkTok 30 "65535" 60 5 false; mkTok 40 "," 60 11 false; mkTok 31 """x y""" 60 13 false; mkTok 40 "," 60 19 false; mkTok 44 (string_of_bytes [47; 47; 32; 230; 179; 168; 233; 135; 138]%N) 60 21 true; mkTok 31 """packet""" 61 0 false; mkTok 44 "//x" 61 9 true; mkTok 13 "]" 62 0 false; mkTok 39 ":" 62 2 false; mkTok 42 "metadata" 62 3 false; mkTok 40 "," 62 12 false; mkTok 44 "// packet A { u8 x, }" 62 14 true; mkTok 31 """packet""" 63 0 false; mkTok 39 ":" 63 9 false; mkTok 42 "uint8x" 64 4 false; mkTok 40 "," 64 11 false; mkTok 3 "}" 64 13 false; mkTok 40 "," 64 15 false; mkTok 36 "repeat" 64 17 false; mkTok 42 "x" 65 4 false; mkTok 40 "," 65 6 false; mkTok 3 "}" 65 8 false; mkTok 0 "<EOF>" 65 9 false] (mkPacket (mkPtok 1 "options" 1 0 0) (Some (mkPtok 3 "}" 65 8 241)) [(DOption (mkOptionDef (mkSpan (mkPtok 1 "options" 1 0 0) (mkPtok 3 "}" 4 7 8)) (mkPtok 1 "options" 1 0 0) (mkPtok 2 "{" 2 0 1) [(mkOptionDecl (mkSpan (mkPtok 42 "metadata" 2 2 2) (mkPtok 41 ";" 4 6 7)) (mkPtok 42 "metadata" 2 2 2) (mkPtok 4 "=" 2 11 3) (VType (mkSpan (mkPtok 12 "char[" 2 13 4) (mkPtok 13 "]" 4 4 6)) (TyFixed (mkSpan (mkPtok 12 "char[" 2 13 4) (mkPtok 13 "]" 4 4 6)) (mkFixedString (mkSpan (mkPtok 12 "char[" 2 13 4) (mkPtok 13 "]" 4 4 6)) (mkPtok 12 "char[" 2 13 4) (mkPtok 30 "4294967296" 3 0 5) (mkPtok 13 "]" 4 4 6)))) (Some (mkPtok 41 ";" 4 6 7)))] (mkPtok 3 "}" 4 7 8))); (DPacket (mkPacketDef (mkSpan (mkPtok 35 "packet" 4 10 9) (mkPtok 3 "}" 30 65 91)) None (mkPtok 35 "packet" 4 10 9) (mkPtok 42 "f32a" 4 17 10) (mkPtok 2 "{" 5 0 11) [(mkFieldWithAttr (mkSpan (mkPtok 38 "match" 6 4 12) (mkPtok 40 "," 8 16 26)) [] (MatchField (mkSpan (mkPtok 38 "match" 6 4 12) (mkPtok 40 "," 8 16 26)) (mkMatchFieldDecl (mkSpan (mkPtok 38 "match" 6 4 12) (mkPtok 3 "}" 8 15 25)) (mkPtok 38 "match" 6 4 12) (mkPtok 42 "Z9_" 6 10 13) (mkPtok 17 "as" 6 14 14) (mkPtok 42 "repeatCount" 6 17 15) (mkPtok 2 "{" 7 4 16) [(mkMatchPair (mkSpan (mkPtok 30 "3" 7 6 17) (mkPtok 40 "," 8 0 20)) (MKDigits (mkPtok 30 "3" 7 6 17)) (mkPtok 39 ":" 7 8 18) (mkPtok 42 "crc" 7 10 19) (Some (mkPtok 40 "," 8 0 20))); (mkMatchPair (mkSpan (mkPtok 31 """{,}""" 8 1 21) (mkPtok 40 "," 8 13 24)) (MKString (mkPtok 31 """{,}""" 8 1 21)) (mkPtok 39 ":" 8 7 22) (mkPtok 42 "pack" 8 8 23) (Some (mkPtok 40 "," 8 13 24)))] (mkPtok 3 "}" 8 15 25)) (mkPtok 40 "," 8 16 26))); (mkFieldWithAttr (mkSpan (mkPtok 16 "char[]" 8 18 27) (mkPtok 40 "," 12 0 33)) [] (LengthField (mkSpan (mkPtok 16 "char[]" 8 18 27) (mkPtok 40 "," 12 0 33)) (mkLengthFieldDecl (mkSpan (mkPtok 16 "char[]" 8 18 27) (mkPtok 40 "," 12 0 33)) (Some (TyDynamic (mkSpan (mkPtok 16 "char[]" 8 18 27) (mkPtok 16 "char[]" 8 18 27)) (mkDynamicString (mkSpan (mkPtok 16 "char[]" 8 18 27) (mkPtok 16 "char[]" 8 18 27)) (mkPtok 16 "char[]" 8 18 27)))) (mkPtok 42 "calculatedFrom" 9 0 28) (mkLengthOf (mkSpan (mkPtok 7 "@lengthOf(" 10 4 29) (mkPtok 6 ")" 11 10 32)) (mkPtok 7 "@lengthOf(" 10 4 29) (mkPtok 42 "MetaDataX" 11 0 31) (mkPtok 6 ")" 11 10 32)) None (mkPtok 40 "," 12 0 33)))); (mkFieldWithAttr (mkSpan (mkPtok 5 "@calculatedFrom(" 12 2 34) (mkPtok 40 "," 16 4 40)) [(FACalculatedFrom (mkSpan (mkPtok 5 "@calculatedFrom(" 12 2 34) (mkPtok 6 ")" 13 4 36)) (mkCalculatedFrom (mkSpan (mkPtok 5 "@calculatedFrom(" 12 2 34) (mkPtok 6 ")" 13 4 36)) (mkPtok 5 "@calculatedFrom(" 12 2 34) (mkPtok 31 """`tick`""" 12 19 35) (mkPtok 6 ")" 13 4 36)))] (ObjectField (mkSpan (mkPtok 42 "x_y_z" 14 0 38) (mkPtok 40 "," 16 4 40)) None (mkPtok 42 "x_y_z" 14 0 38) None None (mkPtok 40 "," 16 4 40))); (mkFieldWithAttr (mkSpan (mkPtok 24 "i8" 16 6 41) (mkPtok 40 "," 16 17 43)) [] (MetaField (mkSpan (mkPtok 24 "i8" 16 6 41) (mkPtok 40 "," 16 17 43)) None (mkMetaDecl (mkSpan (mkPtok 24 "i8" 16 6 41) (mkPtok 40 "," 16 17 43)) (TyBasic (mkSpan (mkPtok 24 "i8" 16 6 41) (mkPtok 24 "i8" 16 6 41)) (mkBasicType (mkSpan (mkPtok 24 "i8" 16 6 41) (mkPtok 24 "i8" 16 6 41)) (mkPtok 24 "i8" 16 6 41))) (mkPtok 42 "leftPad" 16 9 42) None (mkPtok 40 "," 16 17 43)))); (mkFieldWithAttr (mkSpan (mkPtok 24 "i8" 16 20 44) (mkPtok 40 "," 18 18 51)) [] (CheckSumField (mkSpan (mkPtok 24 "i8" 16 20 44) (mkPtok 40 "," 18 18 51)) (mkChecksumFieldDecl (mkSpan (mkPtok 24 "i8" 16 20 44) (mkPtok 40 "," 18 18 51)) (Some (TyBasic (mkSpan (mkPtok 24 "i8" 16 20 44) (mkPtok 24 "i8" 16 20 44)) (mkBasicType (mkSpan (mkPtok 24 "i8" 16 20 44) (mkPtok 24 "i8" 16 20 44)) (mkPtok 24 "i8" 16 20 44)))) (mkPtok 42 "uint8x" 16 23 45) (mkCalculatedFrom (mkSpan (mkPtok 5 "@calculatedFrom(" 16 30 46) (mkPtok 6 ")" 17 9 48)) (mkPtok 5 "@calculatedFrom(" 16 30 46) (mkPtok 31 """packet""" 17 0 47) (mkPtok 6 ")" 17 9 48)) (Some (mkPtok 43 "`// not a comment`" 18 0 50)) (mkPtok 40 "," 18 18 51)))); (mkFieldWithAttr (mkSpan (mkPtok 5 "@calculatedFrom(" 19 0 52) (mkPtok 40 "," 23 2 66)) [(FACalculatedFrom (mkSpan (mkPtok 5 "@calculatedFrom(" 19 0 52) (mkPtok 6 ")" 19 20 54)) (mkCalculatedFrom (mkSpan (mkPtok 5 "@calculatedFrom(" 19 0 52) (mkPtok 6 ")" 19 20 54)) (mkPtok 5 "@calculatedFrom(" 19 0 52) (mkPtok 31 """""" 19 16 53) (mkPtok 6 ")" 19 20 54))); (FATag (mkSpan (mkPtok 9 "@tag(" 19 22 55) (mkPtok 6 ")" 19 31 57)) (mkTagAttr (mkSpan (mkPtok 9 "@tag(" 19 22 55) (mkPtok 6 ")" 19 31 57)) (mkPtok 9 "@tag(" 19 22 55) (mkPtok 30 "007" 19 28 56) (mkPtok 6 ")" 19 31 57)))] (CheckSumField (mkSpan (mkPtok 12 "char[" 19 33 58) (mkPtok 40 "," 23 2 66)) (mkChecksumFieldDecl (mkSpan (mkPtok 12 "char[" 19 33 58) (mkPtok 40 "," 23 2 66)) (Some (TyFixed (mkSpan (mkPtok 12 "char[" 19 33 58) (mkPtok 13 "]" 20 4 60)) (mkFixedString (mkSpan (mkPtok 12 "char[" 19 33 58) (mkPtok 13 "]" 20 4 60)) (mkPtok 12 "char[" 19 33 58) (mkPtok 30 "10" 19 39 59) (mkPtok 13 "]" 20 4 60)))) (mkPtok 42 "T" 20 6 61) (mkCalculatedFrom (mkSpan (mkPtok 5 "@calculatedFrom(" 21 4 62) (mkPtok 6 ")" 23 0 65)) (mkPtok 5 "@calculatedFrom(" 21 4 62) (mkPtok 31 """""" 22 0 63) (mkPtok 6 ")" 23 0 65)) None (mkPtok 40 "," 23 2 66)))); (mkFieldWithAttr (mkSpan (mkPtok 42 "u8x" 23 3 67) (mkPtok 40 "," 28 7 78)) [] (InerObjectField (mkSpan (mkPtok 42 "u8x" 23 3 67) (mkPtok 40 "," 28 7 78)) None (InerObjectDecl (mkSpan (mkPtok 42 "u8x" 23 3 67) (mkPtok 3 "}" 28 6 77)) (mkPtok 42 "u8x" 23 3 67) (mkPtok 2 "{" 23 7 68) [(LengthField (mkSpan (mkPtok 42 "zchar" 23 8 69) (mkPtok 40 "," 28 4 76)) (mkLengthFieldDecl (mkSpan (mkPtok 42 "zchar" 23 8 69) (mkPtok 40 "," 28 4 76)) None (mkPtok 42 "zchar" 23 8 69) (mkLengthOf (mkSpan (mkPtok 7 "@lengthOf(" 24 4 70) (mkPtok 6 ")" 25 2 73)) (mkPtok 7 "@lengthOf(" 24 4 70) (mkPtok 42 "u" 25 0 72) (mkPtok 6 ")" 25 2 73)) (Some (mkPtok 43 "`{ , }`" 26 4 74)) (mkPtok 40 "," 28 4 76)))] (mkPtok 3 "}" 28 6 77)) (mkPtok 40 "," 28 7 78))); (mkFieldWithAttr (mkSpan (mkPtok 42 "float" 29 4 79) (mkPtok 40 "," 30 4 81)) [] (ObjectField (mkSpan (mkPtok 42 "float" 29 4 79) (mkPtok 40 "," 30 4 81)) None (mkPtok 42 "float" 29 4 79) None (Some (mkPtok 43 "`say ""hi""`" 29 9 80)) (mkPtok 40 "," 30 4 81))); (mkFieldWithAttr (mkSpan (mkPtok 27 "i64" 30 5 82) (mkPtok 40 "," 30 16 84)) [] (MetaField (mkSpan (mkPtok 27 "i64" 30 5 82) (mkPtok 40 "," 30 16 84)) None (mkMetaDecl (mkSpan (mkPtok 27 "i64" 30 5 82) (mkPtok 40 "," 30 16 84)) (TyBasic (mkSpan (mkPtok 27 "i64" 30 5 82) (mkPtok 27 "i64" 30 5 82)) (mkBasicType (mkSpan (mkPtok 27 "i64" 30 5 82) (mkPtok 27 "i64" 30 5 82)) (mkPtok 27 "i64" 30 5 82))) (mkPtok 42 "packetx" 30 9 83) None (mkPtok 40 "," 30 16 84)))); (mkFieldWithAttr (mkSpan (mkPtok 7 "@lengthOf(" 30 17 85) (mkPtok 40 "," 30 63 90)) [(FALengthOf (mkSpan (mkPtok 7 "@lengthOf(" 30 17 85) (mkPtok 6 ")" 30 38 87)) (mkLengthOf (mkSpan (mkPtok 7 "@lengthOf(" 30 17 85) (mkPtok 6 ")" 30 38 87)) (mkPtok 7 "@lengthOf(" 30 17 85) (mkPtok 42 "BodyLength" 30 27 86) (mkPtok 6 ")" 30 38 87)))] (MetaField (mkSpan (mkPtok 15 "string" 30 40 88) (mkPtok 40 "," 30 63 90)) None (mkMetaDecl (mkSpan (mkPtok 15 "string" 30 40 88) (mkPtok 40 "," 30 63 90)) (TyDynamic (mkSpan (mkPtok 15 "string" 30 40 88) (mkPtok 15 "string" 30 40 88)) (mkDynamicString (mkSpan (mkPtok 15 "string" 30 40 88) (mkPtok 15 "string" 30 40 88)) (mkPtok 15 "string" 30 40 88))) (mkPtok 42 "calculatedFrom" 30 48 89) None (mkPtok 40 "," 30 63 90))))] (mkPtok 3 "}" 30 65 91))); (DPacket (mkPacketDef (mkSpan (mkPtok 35 "packet" 30 67 92) (mkPtok 3 "}" 38 10 116)) None (mkPtok 35 "packet" 30 67 92) (mkPtok 42 "MetaDataX" 31 0 93) (mkPtok 2 "{" 32 0 95) [(mkFieldWithAttr (mkSpan (mkPtok 5 "@calculatedFrom(" 32 2 96) (mkPtok 40 "," 38 9 115)) [(FACalculatedFrom (mkSpan (mkPtok 5 "@calculatedFrom(" 32 2 96) (mkPtok 6 ")" 32 25 98)) (mkCalculatedFrom (mkSpan (mkPtok 5 "@calculatedFrom(" 32 2 96) (mkPtok 6 ")" 32 25 98)) (mkPtok 5 "@calculatedFrom(" 32 2 96) (mkPtok 31 """{,}""" 32 19 97) (mkPtok 6 ")" 32 25 98)))] (MatchField (mkSpan (mkPtok 38 "match" 33 0 99) (mkPtok 40 "," 38 9 115)) (mkMatchFieldDecl (mkSpan (mkPtok 38 "match" 33 0 99) (mkPtok 3 "}" 38 7 114)) (mkPtok 38 "match" 33 0 99) (mkPtok 42 "metadata" 34 0 101) (mkPtok 17 "as" 34 9 102) (mkPtok 42 "_x" 35 0 104) (mkPtok 2 "{" 36 4 105) [(mkMatchPair (mkSpan (mkPtok 31 """1""" 36 6 106) (mkPtok 40 "," 37 8 110)) (MKString (mkPtok 31 """1""" 36 6 106)) (mkPtok 39 ":" 36 10 107) (mkPtok 42 "uint8x" 37 0 109) (Some (mkPtok 40 "," 37 8 110))); (mkMatchPair (mkSpan (mkPtok 31 """{,}""" 37 9 111) (mkPtok 42 "falsey" 38 0 113)) (MKString (mkPtok 31 """{,}""" 37 9 111)) (mkPtok 39 ":" 37 15 112) (mkPtok 42 "falsey" 38 0 113) None)] (mkPtok 3 "}" 38 7 114)) (mkPtok 40 "," 38 9 115)))] (mkPtok 3 "}" 38 10 116))); (DPacket (mkPacketDef (mkSpan (mkPtok 35 "packet" 38 12 117) (mkPtok 3 "}" 65 8 241)) None (mkPtok 35 "packet" 38 12 117) (mkPtok 42 "Logon" 39 0 119) (mkPtok 2 "{" 39 6 120) [(mkFieldWithAttr (mkSpan (mkPtok 42 "o" 39 9 121) (mkPtok 40 "," 39 30 125)) [] (LengthField (mkSpan (mkPtok 42 "o" 39 9 121) (mkPtok 40 "," 39 30 125)) (mkLengthFieldDecl (mkSpan (mkPtok 42 "o" 39 9 121) (mkPtok 40 "," 39 30 125)) None (mkPtok 42 "o" 39 9 121) (mkLengthOf (mkSpan (mkPtok 7 "@lengthOf(" 39 11 122) (mkPtok 6 ")" 39 27 124)) (mkPtok 7 "@lengthOf(" 39 11 122) (mkPtok 42 "i8i8" 39 22 123) (mkPtok 6 ")" 39 27 124)) None (mkPtok 40 "," 39 30 125)))); (mkFieldWithAttr (mkSpan (mkPtok 32 "@rightPad" 39 32 126) (mkPtok 40 "," 42 9 132)) [(FAPadding (mkSpan (mkPtok 32 "@rightPad" 39 32 126) (mkPtok 6 ")" 40 0 129)) (mkPaddingAttr (mkSpan (mkPtok 32 "@rightPad" 39 32 126) (mkPtok 6 ")" 40 0 129)) (mkPtok 32 "@rightPad" 39 32 126) (mkPtok 8 "(" 39 42 127) (Some (mkPtok 33 "'0'" 39 44 128)) (mkPtok 6 ")" 40 0 129)))] (MetaField (mkSpan (mkPtok 27 "int64" 41 4 130) (mkPtok 40 "," 42 9 132)) None (mkMetaDecl (mkSpan (mkPtok 27 "int64" 41 4 130) (mkPtok 40 "," 42 9 132)) (TyBasic (mkSpan (mkPtok 27 "int64" 41 4 130) (mkPtok 27 "int64" 41 4 130)) (mkBasicType (mkSpan (mkPtok 27 "int64" 41 4 130) (mkPtok 27 "int64" 41 4 130)) (mkPtok 27 "int64" 41 4 130))) (mkPtok 42 "msg_type" 42 0 131) None (mkPtok 40 "," 42 9 132)))); (mkFieldWithAttr (mkSpan (mkPtok 19 "char" 42 11 133) (mkPtok 40 "," 43 0 135)) [] (MetaField (mkSpan (mkPtok 19 "char" 42 11 133) (mkPtok 40 "," 43 0 135)) None (mkMetaDecl (mkSpan (mkPtok 19 "char" 42 11 133) (mkPtok 40 "," 43 0 135)) (TyBasic (mkSpan (mkPtok 19 "char" 42 11 133) (mkPtok 19 "char" 42 11 133)) (mkBasicType (mkSpan (mkPtok 19 "char" 42 11 133) (mkPtok 19 "char" 42 11 133)) (mkPtok 19 "char" 42 11 133))) (mkPtok 42 "calculatedFrom" 42 16 134) None (mkPtok 40 "," 43 0 135)))); (mkFieldWithAttr (mkSpan (mkPtok 9 "@tag(" 43 2 136) (mkPtok 40 "," 44 4 143)) [(FATag (mkSpan (mkPtok 9 "@tag(" 43 2 136) (mkPtok 6 ")" 43 12 138)) (mkTagAttr (mkSpan (mkPtok 9 "@tag(" 43 2 136) (mkPtok 6 ")" 43 12 138)) (mkPtok 9 "@tag(" 43 2 136) (mkPtok 30 "255" 43 8 137) (mkPtok 6 ")" 43 12 138)))] (CheckSumField (mkSpan (mkPtok 42 "i8i8" 43 13 139) (mkPtok 40 "," 44 4 143)) (mkChecksumFieldDecl (mkSpan (mkPtok 42 "i8i8" 43 13 139) (mkPtok 40 "," 44 4 143)) None (mkPtok 42 "i8i8" 43 13 139) (mkCalculatedFrom (mkSpan (mkPtok 5 "@calculatedFrom(" 43 19 140) (mkPtok 6 ")" 43 42 142)) (mkPtok 5 "@calculatedFrom(" 43 19 140) (mkPtok 31 """x y""" 43 36 141) (mkPtok 6 ")" 43 42 142)) None (mkPtok 40 "," 44 4 143)))); (mkFieldWithAttr (mkSpan (mkPtok 42 "i8i8" 44 5 144) (mkPtok 40 "," 46 6 149)) [] (CheckSumField (mkSpan (mkPtok 42 "i8i8" 44 5 144) (mkPtok 40 "," 46 6 149)) (mkChecksumFieldDecl (mkSpan (mkPtok 42 "i8i8" 44 5 144) (mkPtok 40 "," 46 6 149)) None (mkPtok 42 "i8i8" 44 5 144) (mkCalculatedFrom (mkSpan (mkPtok 5 "@calculatedFrom(" 45 0 146) (mkPtok 6 ")" 46 4 148)) (mkPtok 5 "@calculatedFrom(" 45 0 146) (mkPtok 31 (string_of_bytes [34; 92; 195; 169; 34]%N) 45 17 147) (mkPtok 6 ")" 46 4 148)) None (mkPtok 40 "," 46 6 149)))); (mkFieldWithAttr (mkSpan (mkPtok 9 "@tag(" 46 8 150) (mkPtok 40 "," 47 15 154)) [(FATag (mkSpan (mkPtok 9 "@tag(" 46 8 150) (mkPtok 6 ")" 47 4 152)) (mkTagAttr (mkSpan (mkPtok 9 "@tag(" 46 8 150) (mkPtok 6 ")" 47 4 152)) (mkPtok 9 "@tag(" 46 8 150) (mkPtok 30 "0123456789" 46 14 151) (mkPtok 6 ")" 47 4 152)))] (ObjectField (mkSpan (mkPtok 42 "lengthOf" 47 6 153) (mkPtok 40 "," 47 15 154)) None (mkPtok 42 "lengthOf" 47 6 153) None None (mkPtok 40 "," 47 15 154))); (mkFieldWithAttr (mkSpan (mkPtok 7 "@lengthOf(" 47 16 155) (mkPtok 40 "," 53 2 178)) [(FALengthOf (mkSpan (mkPtok 7 "@lengthOf(" 47 16 155) (mkPtok 6 ")" 48 2 158)) (mkLengthOf (mkSpan (mkPtok 7 "@lengthOf(" 47 16 155) (mkPtok 6 ")" 48 2 158)) (mkPtok 7 "@lengthOf(" 47 16 155) (mkPtok 42 "o" 48 0 157) (mkPtok 6 ")" 48 2 158))); (FATag (mkSpan (mkPtok 9 "@tag(" 48 4 159) (mkPtok 6 ")" 49 3 161)) (mkTagAttr (mkSpan (mkPtok 9 "@tag(" 48 4 159) (mkPtok 6 ")" 49 3 161)) (mkPtok 9 "@tag(" 48 4 159) (mkPtok 30 "10" 49 0 160) (mkPtok 6 ")" 49 3 161)))] (MatchField (mkSpan (mkPtok 38 "match" 50 4 162) (mkPtok 40 "," 53 2 178)) (mkMatchFieldDecl (mkSpan (mkPtok 38 "match" 50 4 162) (mkPtok 3 "}" 53 0 177)) (mkPtok 38 "match" 50 4 162) (mkPtok 42 "options1" 50 10 163) (mkPtok 17 "as" 50 19 164) (mkPtok 42 "u" 50 22 165) (mkPtok 2 "{" 50 23 166) [(mkMatchPair (mkSpan (mkPtok 31 """1""" 50 25 167) (mkPtok 40 "," 51 5 170)) (MKString (mkPtok 31 """1""" 50 25 167)) (mkPtok 39 ":" 50 29 168) (mkPtok 42 "Pad" 51 0 169) (Some (mkPtok 40 "," 51 5 170))); (mkMatchPair (mkSpan (mkPtok 31 (string_of_bytes [34; 92; 195; 169; 34]%N) 52 0 172) (mkPtok 40 "," 52 14 175)) (MKString (mkPtok 31 (string_of_bytes [34; 92; 195; 169; 34]%N) 52 0 172)) (mkPtok 39 ":" 52 4 173) (mkPtok 42 "metadata" 52 5 174) (Some (mkPtok 40 "," 52 14 175)))] (mkPtok 3 "}" 53 0 177)) (mkPtok 40 "," 53 2 178))); (mkFieldWithAttr (mkSpan (mkPtok 9 "@tag(" 53 4 179) (mkPtok 40 "," 55 37 191)) [(FATag (mkSpan (mkPtok 9 "@tag(" 53 4 179) (mkPtok 6 ")" 54 1 182)) (mkTagAttr (mkSpan (mkPtok 9 "@tag(" 53 4 179) (mkPtok 6 ")" 54 1 182)) (mkPtok 9 "@tag(" 53 4 179) (mkPtok 30 "1" 54 0 181) (mkPtok 6 ")" 54 1 182))); (FATag (mkSpan (mkPtok 9 "@tag(" 54 3 183) (mkPtok 6 ")" 55 6 185)) (mkTagAttr (mkSpan (mkPtok 9 "@tag(" 54 3 183) (mkPtok 6 ")" 55 6 185)) (mkPtok 9 "@tag(" 54 3 183) (mkPtok 30 "65535" 55 0 184) (mkPtok 6 ")" 55 6 185))); (FALengthOf (mkSpan (mkPtok 7 "@lengthOf(" 55 8 186) (mkPtok 6 ")" 55 26 188)) (mkLengthOf (mkSpan (mkPtok 7 "@lengthOf(" 55 8 186) (mkPtok 6 ")" 55 26 188)) (mkPtok 7 "@lengthOf(" 55 8 186) (mkPtok 42 "Packet" 55 19 187) (mkPtok 6 ")" 55 26 188)))] (ObjectField (mkSpan (mkPtok 36 "repeat" 55 28 189) (mkPtok 40 "," 55 37 191)) (Some (mkPtok 36 "repeat" 55 28 189)) (mkPtok 42 "T" 55 35 190) None None (mkPtok 40 "," 55 37 191))); (mkFieldWithAttr (mkSpan (mkPtok 9 "@tag(" 55 39 192) (mkPtok 40 "," 64 15 237)) [(FATag (mkSpan (mkPtok 9 "@tag(" 55 39 192) (mkPtok 6 ")" 55 56 194)) (mkTagAttr (mkSpan (mkPtok 9 "@tag(" 55 39 192) (mkPtok 6 ")" 55 56 194)) (mkPtok 9 "@tag(" 55 39 192) (mkPtok 30 "4294967296" 55 45 193) (mkPtok 6 ")" 55 56 194)))] (MatchField (mkSpan (mkPtok 38 "match" 56 0 195) (mkPtok 40 "," 64 15 237)) (mkMatchFieldDecl (mkSpan (mkPtok 38 "match" 56 0 195) (mkPtok 3 "}" 64 13 236)) (mkPtok 38 "match" 56 0 195) (mkPtok 42 "x_y_z" 56 6 196) (mkPtok 17 "as" 56 12 197) (mkPtok 42 "uint8x" 56 15 198) (mkPtok 2 "{" 56 22 199) [(mkMatchPair (mkSpan (mkPtok 31 """{,}""" 57 0 200) (mkPtok 42 "uint8x" 57 6 202)) (MKString (mkPtok 31 """{,}""" 57 0 200)) (mkPtok 39 ":" 57 5 201) (mkPtok 42 "uint8x" 57 6 202) None); (mkMatchPair (mkSpan (mkPtok 30 "7" 58 4 203) (mkPtok 40 "," 58 16 206)) (MKDigits (mkPtok 30 "7" 58 4 203)) (mkPtok 39 ":" 58 6 204) (mkPtok 42 "metadata" 58 8 205) (Some (mkPtok 40 "," 58 16 206))); (mkMatchPair (mkSpan (mkPtok 30 "7" 58 18 207) (mkPtok 42 "i64_" 58 21 209)) (MKDigits (mkPtok 30 "7" 58 18 207)) (mkPtok 39 ":" 58 19 208) (mkPtok 42 "i64_" 58 21 209) None); (mkMatchPair (mkSpan (mkPtok 18 "[" 58 26 210) (mkPtok 40 "," 62 12 230)) (MKList (mkKeyList (mkSpan (mkPtok 18 "[" 58 26 210) (mkPtok 13 "]" 62 0 227)) (mkPtok 18 "[" 58 26 210) (mkPtok 31 (string_of_bytes [34; 195; 169; 116; 195; 169; 34]%N) 58 27 211) [((mkPtok 40 "," 58 33 212), (mkPtok 31 """CRC32""" 58 34 213)); ((mkPtok 40 "," 58 42 214), (mkPtok 31 """packet""" 59 0 216)); ((mkPtok 40 "," 59 9 217), (mkPtok 30 "00" 59 11 218)); ((mkPtok 40 "," 60 4 219), (mkPtok 30 "65535" 60 5 220)); ((mkPtok 40 "," 60 11 221), (mkPtok 31 """x y""" 60 13 222)); ((mkPtok 40 "," 60 19 223), (mkPtok 31 """packet""" 61 0 225))] (mkPtok 13 "]" 62 0 227))) (mkPtok 39 ":" 62 2 228) (mkPtok 42 "metadata" 62 3 229) (Some (mkPtok 40 "," 62 12 230))); (mkMatchPair (mkSpan (mkPtok 31 """packet""" 63 0 232) (mkPtok 40 "," 64 11 235)) (MKString (mkPtok 31 """packet""" 63 0 232)) (mkPtok 39 ":" 63 9 233) (mkPtok 42 "uint8x" 64 4 234) (Some (mkPtok 40 "," 64 11 235)))] (mkPtok 3 "}" 64 13 236)) (mkPtok 40 "," 64 15 237))); (mkFieldWithAttr (mkSpan (mkPtok 36 "repeat" 64 17 238) (mkPtok 40 "," 65 6 240)) [] (ObjectField (mkSpan (mkPtok 36 "repeat" 64 17 238) (mkPtok 40 "," 65 6 240)) (Some (mkPtok 36 "repeat" 64 17 238)) (mkPtok 42 "x" 65 4 239) None None (mkPtok 40 "," 65 6 240)))] (mkPtok 3 "}" 65 8 241)))])).
-Eval vm_compute in ("<<<M528>>>" ++ check (runes_of_ascii "
-options { repeatCount = ""a	b"" ;As = ' '
-    ;
-    len= true ;string_ = int16 ; }
-")).
-Eval vm_compute in ("<<<M560>>>" ++ check (runes_of_ascii "root packet repeatCount{ T {
-char[ 255 ] T
-// c
-// packet A { u8 x, }
-`a\`,zchar[ 00// trailing space 
-]Foo	@lengthOf( repeatCount
-    )// " ++ [128512]%N ++ runes_of_ascii " emoji
-, Foo x_y_z
-, packetx @calculatedFrom( ""packet""
-    )// " ++ [27880; 37322]%N ++ runes_of_ascii "
-,
-}
-    , }
-")).
-Eval vm_compute in ("<<<M592>>>" ++ check (runes_of_ascii "MetaData repeatCount { char[ 4294967296 ]
-BodyLength `it's` , } packet Header { zchar[255] chars `line1
-line2` ,BodyLength
-    // " ++ [128512]%N ++ runes_of_ascii " emoji
-    tag// a // b
-,	} options { body // packet A { u8 x, }
-=""" ++ [28040; 24687]%N ++ runes_of_ascii """// @lengthOf(
-}
-    // `tick` ""quote"" 'q'
-    packet f32a { char metadata `// not a comment` , } /// triple")).
-Eval vm_compute in ("<<<M624>>>" ++ check (runes_of_ascii "options {Packet =
-    255 ; f32a
-    = '0'
-T= '0' }")).
-Eval vm_compute in ("<<<M656>>>" ++ check (runes_of_ascii "root
-//	t
-// @lengthOf(
-packet int //x
-{ @rightPad ( '0' ) match Packet as x_y_z
-{ 3 //	t
-:zchar // a // b
-, ""1""
-:
-x //
-, 42 : a1	, [ """ ++ [233]%N ++ runes_of_ascii "t" ++ [233]%N ++ runes_of_ascii """ ]:	matchKey
-    ,42: x_y_z
-[ ""a\""b"",
-    7	, // packet A { u8 x, }
-""it's"" ,
-    // c
-    007	, ""a\""b"" ] :
-    Foo
-    ,
-    },} // c
-MetaData Foo { u32 chars//	t
-`it's` //
-,u32
-    falsey
-, Header
-trueish
-,
-    tag As, } options { asx=u16
-    ; }
-packet
-    options1
-{repeat char[255  ] charz , }options { }")).
-Eval vm_compute in ("<<<M688>>>" ++ check (runes_of_ascii "
-packet metadata {
-// trailing space 
-// trailing space 
-@calculatedFrom(// `tick` ""quote"" 'q'
-""CRC32"" )
-stringy As ,
-    }
-")).
-Eval vm_compute in ("<<<M720>>>" ++ check (runes_of_ascii "root packet  Foo	{
-repeat
-Packet { match i64_ as f32a{ ""1"" : Z9_, } ,
-match
-    // " ++ [128512]%N ++ runes_of_ascii " emoji
-    options1  as stringy{
-[
-1
-] :Foo	1 : x_y_z
-    // trailing space 
-    ,
-// packet A { u8 x, }
-// packet A { u8 x, }
-[ 7 , 42
-,
-""1""  , """ ++ [233]%N ++ runes_of_ascii "t" ++ [233]%N ++ runes_of_ascii """ ,
-""\" ++ [233]%N ++ runes_of_ascii """
-, """ ++ [128512]%N ++ runes_of_ascii """ , ""{,}"" ] // packet A { u8 x, }
-: float,
-0123456789 : x ,	} , }
-, @lengthOf(// `tick` ""quote"" 'q'
-u // " ++ [128512]%N ++ runes_of_ascii " emoji
-) char[] // " ++ [128512]%N ++ runes_of_ascii " emoji
-MetaDataX ,@tag( 4294967296
-) u128 , @calculatedFrom( """ ++ [128512]%N ++ runes_of_ascii """ )@tag( 4294967296 ) MetaDataX
-    // @lengthOf(
-    @calculatedFrom( """ ++ [128512]%N ++ runes_of_ascii """
-) `tab	here` ,
-    } packet BodyLength
-    {
-    char[ 0]u128	``// packet A { u8 x, }
-, i64_
-    ,
-    repeat//
-matchKey{
-    char[]
-x  `u8 x,`
-, u128 f32a `u8 x,`
-, char[	42 ]  calculatedFrom ,packetx @calculatedFrom(// packet A { u8 x, }
-""" ++ [128512]%N ++ runes_of_ascii """ ) `a\`  , } , @lengthOf( Foo ) @rightPad
-(
-    // trailing space 
-    '0'  ) int64	o
-// trailing space 
-// `tick` ""quote"" 'q'
-@lengthOf( float	) , }
-    MetaData
-// a // b
-// `tick` ""quote"" 'q'
-_x
-// @lengthOf(
-// " ++ [27880; 37322]%N ++ runes_of_ascii "
-{
-u16 x_y_z ,
-    //x
-    zchar[ 42 ] falsey , }")).
-Eval vm_compute in ("<<<T720>>>" ++ terms [mkTok 34 "root" 1 0 false; mkTok 35 "packet" 1 5 false; mkTok 42 "Foo" 1 13 false; mkTok 2 "{" 1 17 false; mkTok 36 "repeat" 2 0 false; mkTok 42 "Packet" 3 0 false; mkTok 2 "{" 3 7 false; mkTok 38 "match" 3 9 false; mkTok 42 "i64_" 3 15 false; mkTok 17 "as" 3 20 false; mkTok 42 "f32a" 3 23 false; mkTok 2 "{" 3 27 false; mkTok 31 """1""" 3 29 false; mkTok 39 ":" 3 33 false; mkTok 42 "Z9_" 3 35 false; mkTok 40 "," 3 38 false; mkTok 3 "}" 3 40 false; mkTok 40 "," 3 42 false; mkTok 38 "match" 4 0 false; mkTok 44 (string_of_bytes [47; 47; 32; 240; 159; 152; 128; 32; 101; 109; 111; 106; 105]%N) 5 4 true; mkTok 42 "options1" 6 4 false; mkTok 17 "as" 6 14 false; mkTok 42 "stringy" 6 17 false; mkTok 2 "{" 6 24 false; mkTok 18 "[" 7 0 false; mkTok 30 "1" 8 0 false; mkTok 13 "]" 9 0 false; mkTok 39 ":" 9 2 false; mkTok 42 "Foo" 9 3 false; mkTok 30 "1" 9 7 false; mkTok 39 ":" 9 9 false; mkTok 42 "x_y_z" 9 11 false; mkTok 44 "// trailing space " 10 4 true; mkTok 40 "," 11 4 false; mkTok 44 "// packet A { u8 x, }" 12 0 true; mkTok 44 "// packet A { u8 x, }" 13 0 true; mkTok 18 "[" 14 0 false; mkTok 30 "7" 14 2 false; mkTok 40 "," 14 4 false; mkTok 30 "42" 14 6 false; mkTok 40 "," 15 0 false; mkTok 31 """1""" 16 0 false; mkTok 40 "," 16 5 false; mkTok 31 (string_of_bytes [34; 195; 169; 116; 195; 169; 34]%N) 16 7 false; mkTok 40 "," 16 13 false; mkTok 31 (string_of_bytes [34; 92; 195; 169; 34]%N) 17 0 false; mkTok 40 "," 18 0 false; mkTok 31 (string_of_bytes [34; 240; 159; 152; 128; 34]%N) 18 2 false; mkTok 40 "," 18 6 false; mkTok 31 """{,}""" 18 8 false; mkTok 13 "]" 18 14 false; mkTok 44 "// packet A { u8 x, }" 18 16 true; mkTok 39 ":" 19 0 false; mkTok 42 "float" 19 2 false; mkTok 40 "," 19 7 false; mkTok 30 "0123456789" 20 0 false; mkTok 39 ":" 20 11 false; mkTok 42 "x" 20 13 false; mkTok 40 "," 20 15 false; mkTok 3 "}" 20 17 false; mkTok 40 "," 20 19 false; mkTok 3 "}" 20 21 false; mkTok 40 "," 21 0 false; mkTok 7 "@lengthOf(" 21 2 false; mkTok 44 "// `tick` ""quote"" 'q'" 21 12 true; mkTok 42 "u" 22 0 false; mkTok 44 (string_of_bytes [47; 47; 32; 240; 159; 152; 128; 32; 101; 109; 111; 106; 105]%N) 22 2 true; mkTok 6 ")" 23 0 false; mkTok 16 "char[]" 23 2 false; mkTok 44 (string_of_bytes [47; 47; 32; 240; 159; 152; 128; 32; 101; 109; 111; 106; 105]%N) 23 9 true; mkTok 42 "MetaDataX" 24 0 false; mkTok 40 "," 24 10 false; mkTok 9 "@tag(" 24 11 false; mkTok 30 "4294967296" 24 17 false; mkTok 6 ")" 25 0 false; mkTok 42 "u128" 25 2 false; mkTok 40 "," 25 7 false; mkTok 5 "@calculatedFrom(" 25 9 false; mkTok 31 (string_of_bytes [34; 240; 159; 152; 128; 34]%N) 25 26 false; mkTok 6 ")" 25 30 false; mkTok 9 "@tag(" 25 31 false; mkTok 30 "4294967296" 25 37 false; mkTok 6 ")" 25 48 false; mkTok 42 "MetaDataX" 25 50 false; mkTok 44 "// @lengthOf(" 26 4 true; mkTok 5 "@calculatedFrom(" 27 4 false; mkTok 31 (string_of_bytes [34; 240; 159; 152; 128; 34]%N) 27 21 false; mkTok 6 ")" 28 0 false; mkTok 43 (string_of_bytes [96; 116; 97; 98; 9; 104; 101; 114; 101; 96]%N) 28 2 false; mkTok 40 "," 28 13 false; mkTok 3 "}" 29 4 false; mkTok 35 "packet" 29 6 false; mkTok 42 "BodyLength" 29 13 false; mkTok 2 "{" 30 4 false; mkTok 12 "char[" 31 4 false; mkTok 30 "0" 31 10 false; mkTok 13 "]" 31 11 false; mkTok 42 "u128" 31 12 false; mkTok 43 "``" 31 17 false; mkTok 44 "// packet A { u8 x, }" 31 19 true; mkTok 40 "," 32 0 false; mkTok 42 "i64_" 32 2 false; mkTok 40 "," 33 4 false; mkTok 36 "repeat" 34 4 false; mkTok 44 "//" 34 10 true; mkTok 42 "matchKey" 35 0 false; mkTok 2 "{" 35 8 false; mkTok 16 "char[]" 36 4 false; mkTok 42 "x" 37 0 false; mkTok 43 "`u8 x,`" 37 3 false; mkTok 40 "," 38 0 false; mkTok 42 "u128" 38 2 false; mkTok 42 "f32a" 38 7 false; mkTok 43 "`u8 x,`" 38 12 false; mkTok 40 "," 39 0 false; mkTok 12 "char[" 39 2 false; mkTok 30 "42" 39 8 false; mkTok 13 "]" 39 11 false; mkTok 42 "calculatedFrom" 39 14 false; mkTok 40 "," 39 29 false; mkTok 42 "packetx" 39 30 false; mkTok 5 "@calculatedFrom(" 39 38 false; mkTok 44 "// packet A { u8 x, }" 39 54 true; mkTok 31 (string_of_bytes [34; 240; 159; 152; 128; 34]%N) 40 0 false; mkTok 6 ")" 40 4 false; mkTok 43 "`a\`" 40 6 false; mkTok 40 "," 40 12 false; mkTok 3 "}" 40 14 false; mkTok 40 "," 40 16 false; mkTok 7 "@lengthOf(" 40 18 false; mkTok 42 "Foo" 40 29 false; mkTok 6 ")" 40 33 false; mkTok 32 "@rightPad" 40 35 false; mkTok 8 "(" 41 0 false; mkTok 44 "// trailing space " 42 4 true; mkTok 33 "'0'" 43 4 false; mkTok 6 ")" 43 9 false; mkTok 27 "int64" 43 11 false; mkTok 42 "o" 43 17 false; mkTok 44 "// trailing space " 44 0 true; mkTok 44 "// `tick` ""quote"" 'q'" 45 0 true; mkTok 7 "@lengthOf(" 46 0 false; mkTok 42 "float" 46 11 false; mkTok 6 ")" 46 17 false; mkTok 40 "," 46 19 false; mkTok 3 "}" 46 21 false; mkTok 37 "MetaData" 47 4 false; mkTok 44 "// a // b" 48 0 true; mkTok 44 "// `tick` ""quote"" 'q'" 49 0 true; mkTok 42 "_x" 50 0 false; mkTok 44 "// @lengthOf(" 51 0 true; mkTok 44 (string_of_bytes [47; 47; 32; 230; 179; 168; 233; 135; 138]%N) 52 0 true; mkTok 2 "{" 53 0 false; mkTok 21 "u16" 54 0 false; mkTok 42 "x_y_z" 54 4 false; mkTok 40 "," 54 10 false; mkTok 44 "//x" 55 4 true; mkTok 14 "zchar[" 56 4 false; mkTok 30 "42" 56 11 false; mkTok 13 "]" 56 14 false; mkTok 42 "falsey" 56 16 false; mkTok 40 "," 56 23 false; mkTok 3 "}" 56 25 false; mkTok 0 "<EOF>" 56 26 false] (mkPacket (mkPtok 34 "root" 1 0 0) (Some (mkPtok 3 "}" 56 25 162)) [(DPacket (mkPacketDef (mkSpan (mkPtok 34 "root" 1 0 0) (mkPtok 3 "}" 29 4 90)) (Some (mkPtok 34 "root" 1 0 0)) (mkPtok 35 "packet" 1 5 1) (mkPtok 42 "Foo" 1 13 2) (mkPtok 2 "{" 1 17 3) [(mkFieldWithAttr (mkSpan (mkPtok 36 "repeat" 2 0 4) (mkPtok 40 "," 21 0 62)) [] (InerObjectField (mkSpan (mkPtok 36 "repeat" 2 0 4) (mkPtok 40 "," 21 0 62)) (Some (mkPtok 36 "repeat" 2 0 4)) (InerObjectDecl (mkSpan (mkPtok 42 "Packet" 3 0 5) (mkPtok 3 "}" 20 21 61)) (mkPtok 42 "Packet" 3 0 5) (mkPtok 2 "{" 3 7 6) [(MatchField (mkSpan (mkPtok 38 "match" 3 9 7) (mkPtok 40 "," 3 42 17)) (mkMatchFieldDecl (mkSpan (mkPtok 38 "match" 3 9 7) (mkPtok 3 "}" 3 40 16)) (mkPtok 38 "match" 3 9 7) (mkPtok 42 "i64_" 3 15 8) (mkPtok 17 "as" 3 20 9) (mkPtok 42 "f32a" 3 23 10) (mkPtok 2 "{" 3 27 11) [(mkMatchPair (mkSpan (mkPtok 31 """1""" 3 29 12) (mkPtok 40 "," 3 38 15)) (MKString (mkPtok 31 """1""" 3 29 12)) (mkPtok 39 ":" 3 33 13) (mkPtok 42 "Z9_" 3 35 14) (Some (mkPtok 40 "," 3 38 15)))] (mkPtok 3 "}" 3 40 16)) (mkPtok 40 "," 3 42 17)); (MatchField (mkSpan (mkPtok 38 "match" 4 0 18) (mkPtok 40 "," 20 19 60)) (mkMatchFieldDecl (mkSpan (mkPtok 38 "match" 4 0 18) (mkPtok 3 "}" 20 17 59)) (mkPtok 38 "match" 4 0 18) (mkPtok 42 "options1" 6 4 20) (mkPtok 17 "as" 6 14 21) (mkPtok 42 "stringy" 6 17 22) (mkPtok 2 "{" 6 24 23) [(mkMatchPair (mkSpan (mkPtok 18 "[" 7 0 24) (mkPtok 42 "Foo" 9 3 28)) (MKList (mkKeyList (mkSpan (mkPtok 18 "[" 7 0 24) (mkPtok 13 "]" 9 0 26)) (mkPtok 18 "[" 7 0 24) (mkPtok 30 "1" 8 0 25) [] (mkPtok 13 "]" 9 0 26))) (mkPtok 39 ":" 9 2 27) (mkPtok 42 "Foo" 9 3 28) None); (mkMatchPair (mkSpan (mkPtok 30 "1" 9 7 29) (mkPtok 40 "," 11 4 33)) (MKDigits (mkPtok 30 "1" 9 7 29)) (mkPtok 39 ":" 9 9 30) (mkPtok 42 "x_y_z" 9 11 31) (Some (mkPtok 40 "," 11 4 33))); (mkMatchPair (mkSpan (mkPtok 18 "[" 14 0 36) (mkPtok 40 "," 19 7 54)) (MKList (mkKeyList (mkSpan (mkPtok 18 "[" 14 0 36) (mkPtok 13 "]" 18 14 50)) (mkPtok 18 "[" 14 0 36) (mkPtok 30 "7" 14 2 37) [((mkPtok 40 "," 14 4 38), (mkPtok 30 "42" 14 6 39)); ((mkPtok 40 "," 15 0 40), (mkPtok 31 """1""" 16 0 41)); ((mkPtok 40 "," 16 5 42), (mkPtok 31 (string_of_bytes [34; 195; 169; 116; 195; 169; 34]%N) 16 7 43)); ((mkPtok 40 "," 16 13 44), (mkPtok 31 (string_of_bytes [34; 92; 195; 169; 34]%N) 17 0 45)); ((mkPtok 40 "," 18 0 46), (mkPtok 31 (string_of_bytes [34; 240; 159; 152; 128; 34]%N) 18 2 47)); ((mkPtok 40 "," 18 6 48), (mkPtok 31 """{,}""" 18 8 49))] (mkPtok 13 "]" 18 14 50))) (mkPtok 39 ":" 19 0 52) (mkPtok 42 "float" 19 2 53) (Some (mkPtok 40 "," 19 7 54))); (mkMatchPair (mkSpan (mkPtok 30 "0123456789" 20 0 55) (mkPtok 40 "," 20 15 58)) (MKDigits (mkPtok 30 "0123456789" 20 0 55)) (mkPtok 39 ":" 20 11 56) (mkPtok 42 "x" 20 13 57) (Some (mkPtok 40 "," 20 15 58)))] (mkPtok 3 "}" 20 17 59)) (mkPtok 40 "," 20 19 60))] (mkPtok 3 "}" 20 21 61)) (mkPtok 40 "," 21 0 62))); (mkFieldWithAttr (mkSpan (mkPtok 7 "@lengthOf(" 21 2 63) (mkPtok 40 "," 24 10 71)) [(FALengthOf (mkSpan (mkPtok 7 "@lengthOf(" 21 2 63) (mkPtok 6 ")" 23 0 67)) (mkLengthOf (mkSpan (mkPtok 7 "@lengthOf(" 21 2 63) (mkPtok 6 ")" 23 0 67)) (mkPtok 7 "@lengthOf(" 21 2 63) (mkPtok 42 "u" 22 0 65) (mkPtok 6 ")" 23 0 67)))] (MetaField (mkSpan (mkPtok 16 "char[]" 23 2 68) (mkPtok 40 "," 24 10 71)) None (mkMetaDecl (mkSpan (mkPtok 16 "char[]" 23 2 68) (mkPtok 40 "," 24 10 71)) (TyDynamic (mkSpan (mkPtok 16 "char[]" 23 2 68) (mkPtok 16 "char[]" 23 2 68)) (mkDynamicString (mkSpan (mkPtok 16 "char[]" 23 2 68) (mkPtok 16 "char[]" 23 2 68)) (mkPtok 16 "char[]" 23 2 68))) (mkPtok 42 "MetaDataX" 24 0 70) None (mkPtok 40 "," 24 10 71)))); (mkFieldWithAttr (mkSpan (mkPtok 9 "@tag(" 24 11 72) (mkPtok 40 "," 25 7 76)) [(FATag (mkSpan (mkPtok 9 "@tag(" 24 11 72) (mkPtok 6 ")" 25 0 74)) (mkTagAttr (mkSpan (mkPtok 9 "@tag(" 24 11 72) (mkPtok 6 ")" 25 0 74)) (mkPtok 9 "@tag(" 24 11 72) (mkPtok 30 "4294967296" 24 17 73) (mkPtok 6 ")" 25 0 74)))] (ObjectField (mkSpan (mkPtok 42 "u128" 25 2 75) (mkPtok 40 "," 25 7 76)) None (mkPtok 42 "u128" 25 2 75) None None (mkPtok 40 "," 25 7 76))); (mkFieldWithAttr (mkSpan (mkPtok 5 "@calculatedFrom(" 25 9 77) (mkPtok 40 "," 28 13 89)) [(FACalculatedFrom (mkSpan (mkPtok 5 "@calculatedFrom(" 25 9 77) (mkPtok 6 ")" 25 30 79)) (mkCalculatedFrom (mkSpan (mkPtok 5 "@calculatedFrom(" 25 9 77) (mkPtok 6 ")" 25 30 79)) (mkPtok 5 "@calculatedFrom(" 25 9 77) (mkPtok 31 (string_of_bytes [34; 240; 159; 152; 128; 34]%N) 25 26 78) (mkPtok 6 ")" 25 30 79))); (FATag (mkSpan (mkPtok 9 "@tag(" 25 31 80) (mkPtok 6 ")" 25 48 82)) (mkTagAttr (mkSpan (mkPtok 9 "@tag(" 25 31 80) (mkPtok 6 ")" 25 48 82)) (mkPtok 9 "@tag(" 25 31 80) (mkPtok 30 "4294967296" 25 37 81) (mkPtok 6 ")" 25 48 82)))] (CheckSumField (mkSpan (mkPtok 42 "MetaDataX" 25 50 83) (mkPtok 40 "," 28 13 89)) (mkChecksumFieldDecl (mkSpan (mkPtok 42 "MetaDataX" 25 50 83) (mkPtok 40 "," 28 13 89)) None (mkPtok 42 "MetaDataX" 25 50 83) (mkCalculatedFrom (mkSpan (mkPtok 5 "@calculatedFrom(" 27 4 85) (mkPtok 6 ")" 28 0 87)) (mkPtok 5 "@calculatedFrom(" 27 4 85) (mkPtok 31 (string_of_bytes [34; 240; 159; 152; 128; 34]%N) 27 21 86) (mkPtok 6 ")" 28 0 87)) (Some (mkPtok 43 (string_of_bytes [96; 116; 97; 98; 9; 104; 101; 114; 101; 96]%N) 28 2 88)) (mkPtok 40 "," 28 13 89))))] (mkPtok 3 "}" 29 4 90))); (DPacket (mkPacketDef (mkSpan (mkPtok 35 "packet" 29 6 91) (mkPtok 3 "}" 46 21 145)) None (mkPtok 35 "packet" 29 6 91) (mkPtok 42 "BodyLength" 29 13 92) (mkPtok 2 "{" 30 4 93) [(mkFieldWithAttr (mkSpan (mkPtok 12 "char[" 31 4 94) (mkPtok 40 "," 32 0 100)) [] (MetaField (mkSpan (mkPtok 12 "char[" 31 4 94) (mkPtok 40 "," 32 0 100)) None (mkMetaDecl (mkSpan (mkPtok 12 "char[" 31 4 94) (mkPtok 40 "," 32 0 100)) (TyFixed (mkSpan (mkPtok 12 "char[" 31 4 94) (mkPtok 13 "]" 31 11 96)) (mkFixedString (mkSpan (mkPtok 12 "char[" 31 4 94) (mkPtok 13 "]" 31 11 96)) (mkPtok 12 "char[" 31 4 94) (mkPtok 30 "0" 31 10 95) (mkPtok 13 "]" 31 11 96))) (mkPtok 42 "u128" 31 12 97) (Some (mkPtok 43 "``" 31 17 98)) (mkPtok 40 "," 32 0 100)))); (mkFieldWithAttr (mkSpan (mkPtok 42 "i64_" 32 2 101) (mkPtok 40 "," 33 4 102)) [] (ObjectField (mkSpan (mkPtok 42 "i64_" 32 2 101) (mkPtok 40 "," 33 4 102)) None (mkPtok 42 "i64_" 32 2 101) None None (mkPtok 40 "," 33 4 102))); (mkFieldWithAttr (mkSpan (mkPtok 36 "repeat" 34 4 103) (mkPtok 40 "," 40 16 128)) [] (InerObjectField (mkSpan (mkPtok 36 "repeat" 34 4 103) (mkPtok 40 "," 40 16 128)) (Some (mkPtok 36 "repeat" 34 4 103)) (InerObjectDecl (mkSpan (mkPtok 42 "matchKey" 35 0 105) (mkPtok 3 "}" 40 14 127)) (mkPtok 42 "matchKey" 35 0 105) (mkPtok 2 "{" 35 8 106) [(MetaField (mkSpan (mkPtok 16 "char[]" 36 4 107) (mkPtok 40 "," 38 0 110)) None (mkMetaDecl (mkSpan (mkPtok 16 "char[]" 36 4 107) (mkPtok 40 "," 38 0 110)) (TyDynamic (mkSpan (mkPtok 16 "char[]" 36 4 107) (mkPtok 16 "char[]" 36 4 107)) (mkDynamicString (mkSpan (mkPtok 16 "char[]" 36 4 107) (mkPtok 16 "char[]" 36 4 107)) (mkPtok 16 "char[]" 36 4 107))) (mkPtok 42 "x" 37 0 108) (Some (mkPtok 43 "`u8 x,`" 37 3 109)) (mkPtok 40 "," 38 0 110))); (ObjectField (mkSpan (mkPtok 42 "u128" 38 2 111) (mkPtok 40 "," 39 0 114)) None (mkPtok 42 "u128" 38 2 111) (Some (mkPtok 42 "f32a" 38 7 112)) (Some (mkPtok 43 "`u8 x,`" 38 12 113)) (mkPtok 40 "," 39 0 114)); (MetaField (mkSpan (mkPtok 12 "char[" 39 2 115) (mkPtok 40 "," 39 29 119)) None (mkMetaDecl (mkSpan (mkPtok 12 "char[" 39 2 115) (mkPtok 40 "," 39 29 119)) (TyFixed (mkSpan (mkPtok 12 "char[" 39 2 115) (mkPtok 13 "]" 39 11 117)) (mkFixedString (mkSpan (mkPtok 12 "char[" 39 2 115) (mkPtok 13 "]" 39 11 117)) (mkPtok 12 "char[" 39 2 115) (mkPtok 30 "42" 39 8 116) (mkPtok 13 "]" 39 11 117))) (mkPtok 42 "calculatedFrom" 39 14 118) None (mkPtok 40 "," 39 29 119))); (CheckSumField (mkSpan (mkPtok 42 "packetx" 39 30 120) (mkPtok 40 "," 40 12 126)) (mkChecksumFieldDecl (mkSpan (mkPtok 42 "packetx" 39 30 120) (mkPtok 40 "," 40 12 126)) None (mkPtok 42 "packetx" 39 30 120) (mkCalculatedFrom (mkSpan (mkPtok 5 "@calculatedFrom(" 39 38 121) (mkPtok 6 ")" 40 4 124)) (mkPtok 5 "@calculatedFrom(" 39 38 121) (mkPtok 31 (string_of_bytes [34; 240; 159; 152; 128; 34]%N) 40 0 123) (mkPtok 6 ")" 40 4 124)) (Some (mkPtok 43 "`a\`" 40 6 125)) (mkPtok 40 "," 40 12 126)))] (mkPtok 3 "}" 40 14 127)) (mkPtok 40 "," 40 16 128))); (mkFieldWithAttr (mkSpan (mkPtok 7 "@lengthOf(" 40 18 129) (mkPtok 40 "," 46 19 144)) [(FALengthOf (mkSpan (mkPtok 7 "@lengthOf(" 40 18 129) (mkPtok 6 ")" 40 33 131)) (mkLengthOf (mkSpan (mkPtok 7 "@lengthOf(" 40 18 129) (mkPtok 6 ")" 40 33 131)) (mkPtok 7 "@lengthOf(" 40 18 129) (mkPtok 42 "Foo" 40 29 130) (mkPtok 6 ")" 40 33 131))); (FAPadding (mkSpan (mkPtok 32 "@rightPad" 40 35 132) (mkPtok 6 ")" 43 9 136)) (mkPaddingAttr (mkSpan (mkPtok 32 "@rightPad" 40 35 132) (mkPtok 6 ")" 43 9 136)) (mkPtok 32 "@rightPad" 40 35 132) (mkPtok 8 "(" 41 0 133) (Some (mkPtok 33 "'0'" 43 4 135)) (mkPtok 6 ")" 43 9 136)))] (LengthField (mkSpan (mkPtok 27 "int64" 43 11 137) (mkPtok 40 "," 46 19 144)) (mkLengthFieldDecl (mkSpan (mkPtok 27 "int64" 43 11 137) (mkPtok 40 "," 46 19 144)) (Some (TyBasic (mkSpan (mkPtok 27 "int64" 43 11 137) (mkPtok 27 "int64" 43 11 137)) (mkBasicType (mkSpan (mkPtok 27 "int64" 43 11 137) (mkPtok 27 "int64" 43 11 137)) (mkPtok 27 "int64" 43 11 137)))) (mkPtok 42 "o" 43 17 138) (mkLengthOf (mkSpan (mkPtok 7 "@lengthOf(" 46 0 141) (mkPtok 6 ")" 46 17 143)) (mkPtok 7 "@lengthOf(" 46 0 141) (mkPtok 42 "float" 46 11 142) (mkPtok 6 ")" 46 17 143)) None (mkPtok 40 "," 46 19 144))))] (mkPtok 3 "}" 46 21 145))); (DMeta (mkMetaDef (mkSpan (mkPtok 37 "MetaData" 47 4 146) (mkPtok 3 "}" 56 25 162)) (mkPtok 37 "MetaData" 47 4 146) (mkPtok 42 "_x" 50 0 149) (mkPtok 2 "{" 53 0 152) [(MIDecl (mkMetaDecl (mkSpan (mkPtok 21 "u16" 54 0 153) (mkPtok 40 "," 54 10 155)) (TyBasic (mkSpan (mkPtok 21 "u16" 54 0 153) (mkPtok 21 "u16" 54 0 153)) (mkBasicType (mkSpan (mkPtok 21 "u16" 54 0 153) (mkPtok 21 "u16" 54 0 153)) (mkPtok 21 "u16" 54 0 153))) (mkPtok 42 "x_y_z" 54 4 154) None (mkPtok 40 "," 54 10 155))); (MIDecl (mkMetaDecl (mkSpan (mkPtok 14 "zchar[" 56 4 157) (mkPtok 40 "," 56 23 161)) (TyFixed (mkSpan (mkPtok 14 "zchar[" 56 4 157) (mkPtok 13 "]" 56 14 159)) (mkFixedString (mkSpan (mkPtok 14 "zchar[" 56 4 157) (mkPtok 13 "]" 56 14 159)) (mkPtok 14 "zchar[" 56 4 157) (mkPtok 30 "42" 56 11 158) (mkPtok 13 "]" 56 14 159))) (mkPtok 42 "falsey" 56 16 160) None (mkPtok 40 "," 56 23 161)))] (mkPtok 3 "}" 56 25 162)))])).
-Eval vm_compute in ("<<<M752>>>" ++ check (runes_of_ascii "
-packet
-matchKey { @calculatedFrom( """ ++ [28040; 24687]%N ++ runes_of_ascii """
-) @lengthOf(
-lengthOf ) @calculatedFrom( """ ++ [28040; 24687]%N ++ runes_of_ascii """
-) match
-    /// triple
-    trueish as options1// trailing space 
-{ 42
-:matchKey,} , // " ++ [128512]%N ++ runes_of_ascii " emoji
-i64
-// trailing space 
-//x
-u8x , }MetaData float
-    { options1 u8x// " ++ [27880; 37322]%N ++ runes_of_ascii "
-, options1
-//
-//
-x	, string u `it's` , pack Header `u8 x,` ,
-char[] i64_ , } options{ } packet o  { } //
-MetaData
-    //	t
-    MetaDataX
-{  }
-")).
-Eval vm_compute in ("<<<M784>>>" ++ check (runes_of_ascii "options {
-    } packet x {	MetaDataX @lengthOf( _x // @lengthOf(
-),
-    // " ++ [128512]%N ++ runes_of_ascii " emoji
-    }
-root
-    packet metadata{ string float``
-,char[ 65535 ]  T `it's`, @lengthOf( msg_type) @tag(42 )
-match Header as
-    chars  { [
-10,
-    7
-]:
-a1 ,
-    [//x
-""1""
-// c
-//
-] : u128 4294967296
-    : options1 , } , // trailing space 
-int	@calculatedFrom( ""`tick`""
-    ) ,
-    MetaDataX
-// `tick` ""quote"" 'q'
-// c
-packetx , zchar[ 10] o, @tag( 007)
-    u128 Pad , @calculatedFrom( ""{,}""
-    //	t
-    )
-    // `tick` ""quote"" 'q'
-    match options1 as BodyLength{ [00	, 255 , ""x y""
-]	:
-A ""a\\"" :T ,[ 7	,
-    42 ,65535, ""a\""b""
-, 7
-    , 007 , //	t
-""`tick`""  , 0 ]: matchKey ""CRC32""
-    // c
-    :	falsey ,
-} , }
-")).
-Eval vm_compute in ("<<<M816>>>" ++ check (runes_of_ascii "// trailing space 
-packet x_y_z { @tag( 255 )char[] float ,
-}")).
-Eval vm_compute in ("<<<M848>>>" ++ check (runes_of_ascii "packet
-    roots { @calculatedFrom(
-    ""1"")
-repeat char f32a , zchar[
-// " ++ [128512]%N ++ runes_of_ascii " emoji
-// `tick` ""quote"" 'q'
-42
-/// triple
-// " ++ [128512]%N ++ runes_of_ascii " emoji
-] options1
-`
-` ,
-/// triple
-// " ++ [27880; 37322]%N ++ runes_of_ascii "
-@calculatedFrom( """ ++ [233]%N ++ runes_of_ascii "t" ++ [233]%N ++ runes_of_ascii """ ) float64 uint8x `say ""hi""`  , packetx
-    //	t
-    @lengthOf( BodyLength	)  `a\`  ,	@calculatedFrom( ""\" ++ [233]%N ++ runes_of_ascii """ ) chars u8x	`{ , }`
-, match _x as len {
-    42 : crc, 4294967296 // packet A { u8 x, }
-: uint8x ,  10 : BodyLength,
-    } //
-,@tag(0 )
-    // @lengthOf(
-    char[ 7] // trailing space 
-metadata,
-    /// triple
-    @tag( 4294967296
-)
-    match BodyLength
-as  chars { ""`tick`"":
-x_y_z
-    , 42
-    //x
-    : x_y_z ,0123456789: x },
-char[
-7 ] rootA`" ++ [28040; 24687; 31867; 22411]%N ++ runes_of_ascii "` ,}
-    packet string_ { @calculatedFrom(
-    """ ++ [128512]%N ++ runes_of_ascii """)@lengthOf( f32a
-    // packet A { u8 x, }
-    ) @lengthOf( Pad ) repeat
-    //	t
-    pack i64_
-`line1
-line2`,	}
-")).
-Eval vm_compute in ("<<<M880>>>" ++ check (runes_of_ascii "
-")).
-Eval vm_compute in ("<<<M912>>>" ++ check (runes_of_ascii "options {
-_x
-    =	""`tick`"";
-    body = 65535 packetx=int8
-; metadata =0123456789
-    ; }
-packet matchKey {
-@tag(
-//	t
-// c
-4294967296 ) match leftPad
-as T  { ""a\""b"" //
-:metadata // " ++ [128512]%N ++ runes_of_ascii " emoji
-, [ 42 , 007 , 0 ,
-00  ,
-// trailing space 
-// @lengthOf(
-7 ,	""a\\""
-,
-// c
-//	t
-""1"" ]
-    :metadata
-,
-[	"""" , ""a	b"" ,
-""CRC32""
-, 255 ,
-    ""a	b"" ]
-    : // c
-asx
-3 :
-_x , 65535 // @lengthOf(
-: _x , ""\n"" :
-Logon ,} ,
-    } options { }")).
-Eval vm_compute in ("<<<M944>>>" ++ check (runes_of_ascii "MetaData chars
-    {
-pack
-// " ++ [27880; 37322]%N ++ runes_of_ascii "
-/// triple
-calculatedFrom , }options { } // trailing space ")).
-Eval vm_compute in ("<<<T944>>>" ++ terms [mkTok 37 "MetaData" 1 0 false; mkTok 42 "chars" 1 9 false; mkTok 2 "{" 2 4 false; mkTok 42 "pack" 3 0 false; mkTok 44 (string_of_bytes [47; 47; 32; 230; 179; 168; 233; 135; 138]%N) 4 0 true; mkTok 44 "/// triple" 5 0 true; mkTok 42 "calculatedFrom" 6 0 false; mkTok 40 "," 6 15 false; mkTok 3 "}" 6 17 false; mkTok 1 "options" 6 18 false; mkTok 2 "{" 6 26 false; mkTok 3 "}" 6 28 false; mkTok 44 "// trailing space " 6 30 true; mkTok 0 "<EOF>" 6 48 false] (mkPacket (mkPtok 37 "MetaData" 1 0 0) (Some (mkPtok 3 "}" 6 28 11)) [(DMeta (mkMetaDef (mkSpan (mkPtok 37 "MetaData" 1 0 0) (mkPtok 3 "}" 6 17 8)) (mkPtok 37 "MetaData" 1 0 0) (mkPtok 42 "chars" 1 9 1) (mkPtok 2 "{" 2 4 2) [(MIRef (mkRefMetaDecl (mkSpan (mkPtok 42 "pack" 3 0 3) (mkPtok 40 "," 6 15 7)) (mkPtok 42 "pack" 3 0 3) (mkPtok 42 "calculatedFrom" 6 0 6) None (mkPtok 40 "," 6 15 7)))] (mkPtok 3 "}" 6 17 8))); (DOption (mkOptionDef (mkSpan (mkPtok 1 "options" 6 18 9) (mkPtok 3 "}" 6 28 11)) (mkPtok 1 "options" 6 18 9) (mkPtok 2 "{" 6 26 10) [] (mkPtok 3 "}" 6 28 11)))])).
-Eval vm_compute in ("<<<M976>>>" ++ check (runes_of_ascii "
-root
-packet
-    u
-{ @tag(
-    4294967296	) // packet A { u8 x, }
-@rightPad( '0' ) @tag(
-    7 ) repeat x , char[ // packet A { u8 x, }
-42	]
-charz
-    @lengthOf(Z9_) `line1
-line2`,zchar[ 65535 ] // `tick` ""quote"" 'q'
-crc @lengthOf( string_// a // b
-),
-    char[ 65535
-]// trailing space 
-trueish `crlf
-line` ,repeat x_y_z leftPad `" ++ [233]%N ++ runes_of_ascii "` ,T
-@calculatedFrom(
-""\n"")
-,  A ,
-char[]  crc @lengthOf( matchKey ) , repeat
-// @lengthOf(
-/// triple
-rootA // @lengthOf(
-`tab	here` , @rightPad
-//
-//	t
-( ' ' ) match roots as charz {
-""{,}""	: len ,
-    """" :
-Z9_ ,// trailing space 
-""abc""
-    : roots
-    ,
-} ,} packet _x {	@leftPad(// a // b
-'\x00' )
-    match tag	as u8x { """ ++ [128512]%N ++ runes_of_ascii """ : asx // packet A { u8 x, }
-, 4294967296
-:
-// a // b
-// `tick` ""quote"" 'q'
-u,
-    [
-""" ++ [28040; 24687]%N ++ runes_of_ascii """ , 7 , 7 ,
-    ""{,}"" , ""a	b"" //x
-]// `tick` ""quote"" 'q'
-:
-metadata
-    ,} ,
-match
-uint8x	as // a // b
-x_y_z // c
-{	[ 3 //x
-, 42
-    , // @lengthOf(
-""\" ++ [233]%N ++ runes_of_ascii """ ,""\" ++ [233]%N ++ runes_of_ascii """,
-""a	b"",007 ,42// packet A { u8 x, }
-, ""{,}"" // c
-]
-: u128
-    // trailing space 
-    , //	t
-""a\\""
-    : Foo
-,} ,i16 metadata,@leftPad ( ' '	)  u8 Logon
-// c
-// @lengthOf(
-`// not a comment` , Pad {
-zchar[  0//x
-] int @calculatedFrom( ""it's"" ) , } ,char[
-65535
-    // trailing space 
-    ]
-    //x
-    i8i8`crlf
-line` , string_
-, } packet x_y_z {u8 uint8x, match pack as Pad
-    { ""it's"" : asx ""`tick`"" :a1 , [  0
-    ] : // `tick` ""quote"" 'q'
-u128
-    , 42 : o
-    ,	""" ++ [128512]%N ++ runes_of_ascii """  :	tag // " ++ [27880; 37322]%N ++ runes_of_ascii "
-,	} , repeat
-i8
-    // packet A { u8 x, }
-    MetaDataX,@lengthOf( charz ) asx @lengthOf(
-    A
-) ,  @calculatedFrom(
-""{,}"" )@lengthOf( leftPad )@rightPad (
-) stringy
-    // @lengthOf(
-    Z9_ `` ,
-calculatedFrom `" ++ [28040; 24687; 31867; 22411]%N ++ runes_of_ascii "`, }	packet // " ++ [27880; 37322]%N ++ runes_of_ascii "
-matchKey {@calculatedFrom( ""\n"" ) f32 msg_type , zchar[	10	] chars ,}
-")).
-Eval vm_compute in ("<<<M1008>>>" ++ check (runes_of_ascii "options {	o/// triple
-= '0'
-; } packet // @lengthOf(
-u128	{
-// @lengthOf(
-// `tick` ""quote"" 'q'
-@calculatedFrom(""{,}"" )
-uint16
-pack
-@calculatedFrom( """ ++ [233]%N ++ runes_of_ascii "t" ++ [233]%N ++ runes_of_ascii """)
-, }
-packet
-A { //x
-u8 chars@lengthOf( BodyLength )
-    ,
-    lengthOf @calculatedFrom(//x
-""// no comment""
-    ) , x_y_z{ string
-    Pad  `" ++ [233]%N ++ runes_of_ascii "` ,
-    // " ++ [27880; 37322]%N ++ runes_of_ascii "
-    len{ zchar[ 0123456789 ]
-T
-    ,
-    match // a // b
-u128 as	metadata  { 3 : u128 , ""\n"" :x [ """ ++ [233]%N ++ runes_of_ascii "t" ++ [233]%N ++ runes_of_ascii """,
-//
-// " ++ [27880; 37322]%N ++ runes_of_ascii "
-""packet""
-    ] : // @lengthOf(
-tag 10
-: options1 , ""abc""
-    : // trailing space 
-u ,	},} ,tag
-@calculatedFrom(
-    // packet A { u8 x, }
-    """" )
-`it's`	, } , } // " ++ [27880; 37322]%N)).
-Eval vm_compute in ("<<<M1040>>>" ++ check (@nil rune)).
-Eval vm_compute in ("<<<M1072>>>" ++ check (runes_of_ascii "// c
-packet options1 {	roots
-    // " ++ [128512]%N ++ runes_of_ascii " emoji
-    @lengthOf( zchar ) , @calculatedFrom(
-""" ++ [128512]%N ++ runes_of_ascii """
-)uint64 //
-matchKey
-, @tag(
-42 ) i64
-    // trailing space 
-    Logon@lengthOf(
-i64_  )// `tick` ""quote"" 'q'
-`doc` //x
-, @calculatedFrom(""a\""b""
-    ) A , @calculatedFrom(
-    ""it's"")repeat Pad``
-, @tag( 7 ) zchar[ 00 ]  trueish`" ++ [233]%N ++ runes_of_ascii "`, repeat options1 {
-repeatCount
-{
-Header ,
-char[
-// " ++ [128512]%N ++ runes_of_ascii " emoji
-// packet A { u8 x, }
-7 ]
-Logon
-`a\` , /// triple
-}
-,}, char[1
-] int
-`doc` , // a // b
-@calculatedFrom(""""
-)@calculatedFrom(
-    ""a	b""
-)
-@lengthOf( packetx )
-msg_type// trailing space 
-{ string calculatedFrom `{ , }`
-    // `tick` ""quote"" 'q'
-    , zchar  @calculatedFrom(""" ++ [28040; 24687]%N ++ runes_of_ascii """
-) , uint8
-// " ++ [128512]%N ++ runes_of_ascii " emoji
-// trailing space 
-o `doc` // " ++ [128512]%N ++ runes_of_ascii " emoji
-, f32a ,}  , //x
-} MetaData
-    Z9_ {
-char A//	t
-, }packet // trailing space 
-options1 {
-msg_type { chars ,	zchar[
-3 ] crc
-    `doc`, } ,
-@lengthOf( crc) @tag(10) @lengthOf(asx
-    )zchar[ 10 ]
-Header @calculatedFrom( ""a\\"" ) `u8 x,` ,
-} packet
-int
-{ string x_y_z , @calculatedFrom( ""\" ++ [233]%N ++ runes_of_ascii """)	match pack as
-    roots { 65535 :
-    options1 , // @lengthOf(
-}
-,
-    }
-")).
-Eval vm_compute in ("<<<M1104>>>" ++ check (runes_of_ascii "packet x_y_z { char stringy@calculatedFrom( """ ++ [233]%N ++ runes_of_ascii "t" ++ [233]%N ++ runes_of_ascii """ ), } /// triple")).
-Eval vm_compute in ("<<<M1136>>>" ++ check (runes_of_ascii "MetaData Logon {
-    }
-    packet trueish	{calculatedFrom@lengthOf(
-leftPad )
-    ,
-char[]chars @lengthOf(rootA) `u8 x,`
-,
-@calculatedFrom(""""
-// @lengthOf(
-// @lengthOf(
-)As @lengthOf( repeatCount) // " ++ [128512]%N ++ runes_of_ascii " emoji
-`two words`// c
-,
-asx
-`it's` // packet A { u8 x, }
-,// " ++ [27880; 37322]%N ++ runes_of_ascii "
-} packet
-MetaDataX	{repeat	u8  i8i8
-`" ++ [233]%N ++ runes_of_ascii "`
-, uint8 int @lengthOf( uint8x)  ,
-u16 T@lengthOf( body
-// packet A { u8 x, }
-/// triple
-) `" ++ [28040; 24687; 31867; 22411]%N ++ runes_of_ascii "` , zchar[ 3] trueish , @calculatedFrom( ""x y"" ) repeat zchar[ 00 ] zchar , }")).
-Eval vm_compute in ("<<<M1168>>>" ++ check (runes_of_ascii "packet i8i8 {
-@calculatedFrom( // @lengthOf(
-""it's"")@leftPad ( // " ++ [27880; 37322]%N ++ runes_of_ascii "
-'0'
-) @lengthOf(msg_type  )u8 Logon
-    `tab	here`,
-}
-")).
-Eval vm_compute in ("<<<T1168>>>" ++ terms [mkTok 35 "packet" 1 0 false; mkTok 42 "i8i8" 1 7 false; mkTok 2 "{" 1 12 false; mkTok 5 "@calculatedFrom(" 2 0 false; mkTok 44 "// @lengthOf(" 2 17 true; mkTok 31 """it's""" 3 0 false; mkTok 6 ")" 3 6 false; mkTok 32 "@leftPad" 3 7 false; mkTok 8 "(" 3 16 false; mkTok 44 (string_of_bytes [47; 47; 32; 230; 179; 168; 233; 135; 138]%N) 3 18 true; mkTok 33 "'0'" 4 0 false; mkTok 6 ")" 5 0 false; mkTok 7 "@lengthOf(" 5 2 false; mkTok 42 "msg_type" 5 12 false; mkTok 6 ")" 5 22 false; mkTok 20 "u8" 5 23 false; mkTok 42 "Logon" 5 26 false; mkTok 43 (string_of_bytes [96; 116; 97; 98; 9; 104; 101; 114; 101; 96]%N) 6 4 false; mkTok 40 "," 6 14 false; mkTok 3 "}" 7 0 false; mkTok 0 "<EOF>" 8 0 false] (mkPacket (mkPtok 35 "packet" 1 0 0) (Some (mkPtok 3 "}" 7 0 19)) [(DPacket (mkPacketDef (mkSpan (mkPtok 35 "packet" 1 0 0) (mkPtok 3 "}" 7 0 19)) None (mkPtok 35 "packet" 1 0 0) (mkPtok 42 "i8i8" 1 7 1) (mkPtok 2 "{" 1 12 2) [(mkFieldWithAttr (mkSpan (mkPtok 5 "@calculatedFrom(" 2 0 3) (mkPtok 40 "," 6 14 18)) [(FACalculatedFrom (mkSpan (mkPtok 5 "@calculatedFrom(" 2 0 3) (mkPtok 6 ")" 3 6 6)) (mkCalculatedFrom (mkSpan (mkPtok 5 "@calculatedFrom(" 2 0 3) (mkPtok 6 ")" 3 6 6)) (mkPtok 5 "@calculatedFrom(" 2 0 3) (mkPtok 31 """it's""" 3 0 5) (mkPtok 6 ")" 3 6 6))); (FAPadding (mkSpan (mkPtok 32 "@leftPad" 3 7 7) (mkPtok 6 ")" 5 0 11)) (mkPaddingAttr (mkSpan (mkPtok 32 "@leftPad" 3 7 7) (mkPtok 6 ")" 5 0 11)) (mkPtok 32 "@leftPad" 3 7 7) (mkPtok 8 "(" 3 16 8) (Some (mkPtok 33 "'0'" 4 0 10)) (mkPtok 6 ")" 5 0 11))); (FALengthOf (mkSpan (mkPtok 7 "@lengthOf(" 5 2 12) (mkPtok 6 ")" 5 22 14)) (mkLengthOf (mkSpan (mkPtok 7 "@lengthOf(" 5 2 12) (mkPtok 6 ")" 5 22 14)) (mkPtok 7 "@lengthOf(" 5 2 12) (mkPtok 42 "msg_type" 5 12 13) (mkPtok 6 ")" 5 22 14)))] (MetaField (mkSpan (mkPtok 20 "u8" 5 23 15) (mkPtok 40 "," 6 14 18)) None (mkMetaDecl (mkSpan (mkPtok 20 "u8" 5 23 15) (mkPtok 40 "," 6 14 18)) (TyBasic (mkSpan (mkPtok 20 "u8" 5 23 15) (mkPtok 20 "u8" 5 23 15)) (mkBasicType (mkSpan (mkPtok 20 "u8" 5 23 15) (mkPtok 20 "u8" 5 23 15)) (mkPtok 20 "u8" 5 23 15))) (mkPtok 42 "Logon" 5 26 16) (Some (mkPtok 43 (string_of_bytes [96; 116; 97; 98; 9; 104; 101; 114; 101; 96]%N) 6 4 17)) (mkPtok 40 "," 6 14 18))))] (mkPtok 3 "}" 7 0 19)))])).
-Eval vm_compute in ("<<<M1200>>>" ++ check (runes_of_ascii "  ")).
-Eval vm_compute in ("<<<M1232>>>" ++ check (runes_of_ascii "root packet len
-    { }
-")).
-Eval vm_compute in ("<<<M1264>>>" ++ check (runes_of_ascii "
-")).
-Eval vm_compute in ("<<<M1296>>>" ++ check (runes_of_ascii "
-MetaData u8x { msg_type
-    matchKey, }
-")).
-Eval vm_compute in ("<<<M1328>>>" ++ check (runes_of_ascii "packet leftPad { repeat string x	,float matchKey  `u8 x,` ,	repeat zchar[1 ]  u8x `doc` , @leftPad
-( ' ' ) i8i8 @lengthOf(
-rootA )// c
-,
-//	t
-// trailing space 
-int8 //
-x `doc` ,
-// c
-// @lengthOf(
-@tag( 1) @leftPad (
-'\x00' ) @lengthOf( // packet A { u8 x, }
-_x
-)
-char[] x @calculatedFrom(""""
-    )
+Eval vm_compute in ("<<<M48>>>" ++ check (runes_of_ascii "// c
+MetaData Packet { i8i8 repeatCount , calculatedFrom
+falsey `
+` // 50% %s
+, float32
+tag//
+,string Packet `line1
+line2`
     ,	}
+// c
 ")).
-Eval vm_compute in ("<<<M1360>>>" ++ check (runes_of_ascii "MetaData stringy {string
-zchar, zchar
-uint8x  , string BodyLength `{ , }`
-// @lengthOf(
-// " ++ [128512]%N ++ runes_of_ascii " emoji
-,
-    zchar[  1 ]
-crc `doc` ,	zchar[ 7
-] T//	t
-`two words`, char[] A `a\`,
-} packet
-    string_{
-repeat len `a\` ,
-zchar
-    `" ++ [233]%N ++ runes_of_ascii "` ,	}
-    MetaData
-x_y_z { stringy
-    metadata
-    , char[]Z9_
-`it's` ,}
-packet // a // b
-falsey {
-    @calculatedFrom(
-// " ++ [27880; 37322]%N ++ runes_of_ascii "
-// @lengthOf(
-""" ++ [233]%N ++ runes_of_ascii "t" ++ [233]%N ++ runes_of_ascii """
-)match Pad as u
-{0123456789
-    //	t
-    :	trueish,	} , // " ++ [128512]%N ++ runes_of_ascii " emoji
-repeat
-    char[] calculatedFrom `u8 x,`, f64
-    A ,
-    body @calculatedFrom( ""`tick`"" // `tick` ""quote"" 'q'
-) , }root
-packet roots  { zchar[ 10 ]roots
-`crlf
-line`	,
-Z9_
-{ zchar[ 7 ] leftPad`" ++ [233]%N ++ runes_of_ascii "` ,} ,
-int64 calculatedFrom `a\` , crc
-    u128 ,
-char[
-1	] A@calculatedFrom( ""{,}"") `doc`  , }
-")).
-Eval vm_compute in ("<<<M1392>>>" ++ check (runes_of_ascii "/// triple
-packet BodyLength { @calculatedFrom( ""packet"" ) //x
-char[]
-    options1 @calculatedFrom( ""\" ++ [233]%N ++ runes_of_ascii """ )
-,zchar[ 255 // " ++ [128512]%N ++ runes_of_ascii " emoji
-] metadata , }options	{ int =	'\x00'; stringy =
-false
-    T
-    // " ++ [128512]%N ++ runes_of_ascii " emoji
-    =
-    0 trueish
-    =
-    //	t
-    10
-}
-")).
-Eval vm_compute in ("<<<T1392>>>" ++ terms [mkTok 44 "/// triple" 1 0 true; mkTok 35 "packet" 2 0 false; mkTok 42 "BodyLength" 2 7 false; mkTok 2 "{" 2 18 false; mkTok 5 "@calculatedFrom(" 2 20 false; mkTok 31 """packet""" 2 37 false; mkTok 6 ")" 2 46 false; mkTok 44 "//x" 2 48 true; mkTok 16 "char[]" 3 0 false; mkTok 42 "options1" 4 4 false; mkTok 5 "@calculatedFrom(" 4 13 false; mkTok 31 (string_of_bytes [34; 92; 195; 169; 34]%N) 4 30 false; mkTok 6 ")" 4 35 false; mkTok 40 "," 5 0 false; mkTok 14 "zchar[" 5 1 false; mkTok 30 "255" 5 8 false; mkTok 44 (string_of_bytes [47; 47; 32; 240; 159; 152; 128; 32; 101; 109; 111; 106; 105]%N) 5 12 true; mkTok 13 "]" 6 0 false; mkTok 42 "metadata" 6 2 false; mkTok 40 "," 6 11 false; mkTok 3 "}" 6 13 false; mkTok 1 "options" 6 14 false; mkTok 2 "{" 6 22 false; mkTok 42 "int" 6 24 false; mkTok 4 "=" 6 28 false; mkTok 33 "'\x00'" 6 30 false; mkTok 41 ";" 6 36 false; mkTok 42 "stringy" 6 38 false; mkTok 4 "=" 6 46 false; mkTok 11 "false" 7 0 false; mkTok 42 "T" 8 4 false; mkTok 44 (string_of_bytes [47; 47; 32; 240; 159; 152; 128; 32; 101; 109; 111; 106; 105]%N) 9 4 true; mkTok 4 "=" 10 4 false; mkTok 30 "0" 11 4 false; mkTok 42 "trueish" 11 6 false; mkTok 4 "=" 12 4 false; mkTok 44 (string_of_bytes [47; 47; 9; 116]%N) 13 4 true; mkTok 30 "10" 14 4 false; mkTok 3 "}" 15 0 false; mkTok 0 "<EOF>" 16 0 false] (mkPacket (mkPtok 35 "packet" 2 0 1) (Some (mkPtok 3 "}" 15 0 38)) [(DPacket (mkPacketDef (mkSpan (mkPtok 35 "packet" 2 0 1) (mkPtok 3 "}" 6 13 20)) None (mkPtok 35 "packet" 2 0 1) (mkPtok 42 "BodyLength" 2 7 2) (mkPtok 2 "{" 2 18 3) [(mkFieldWithAttr (mkSpan (mkPtok 5 "@calculatedFrom(" 2 20 4) (mkPtok 40 "," 5 0 13)) [(FACalculatedFrom (mkSpan (mkPtok 5 "@calculatedFrom(" 2 20 4) (mkPtok 6 ")" 2 46 6)) (mkCalculatedFrom (mkSpan (mkPtok 5 "@calculatedFrom(" 2 20 4) (mkPtok 6 ")" 2 46 6)) (mkPtok 5 "@calculatedFrom(" 2 20 4) (mkPtok 31 """packet""" 2 37 5) (mkPtok 6 ")" 2 46 6)))] (CheckSumField (mkSpan (mkPtok 16 "char[]" 3 0 8) (mkPtok 40 "," 5 0 13)) (mkChecksumFieldDecl (mkSpan (mkPtok 16 "char[]" 3 0 8) (mkPtok 40 "," 5 0 13)) (Some (TyDynamic (mkSpan (mkPtok 16 "char[]" 3 0 8) (mkPtok 16 "char[]" 3 0 8)) (mkDynamicString (mkSpan (mkPtok 16 "char[]" 3 0 8) (mkPtok 16 "char[]" 3 0 8)) (mkPtok 16 "char[]" 3 0 8)))) (mkPtok 42 "options1" 4 4 9) (mkCalculatedFrom (mkSpan (mkPtok 5 "@calculatedFrom(" 4 13 10) (mkPtok 6 ")" 4 35 12)) (mkPtok 5 "@calculatedFrom(" 4 13 10) (mkPtok 31 (string_of_bytes [34; 92; 195; 169; 34]%N) 4 30 11) (mkPtok 6 ")" 4 35 12)) None (mkPtok 40 "," 5 0 13)))); (mkFieldWithAttr (mkSpan (mkPtok 14 "zchar[" 5 1 14) (mkPtok 40 "," 6 11 19)) [] (MetaField (mkSpan (mkPtok 14 "zchar[" 5 1 14) (mkPtok 40 "," 6 11 19)) None (mkMetaDecl (mkSpan (mkPtok 14 "zchar[" 5 1 14) (mkPtok 40 "," 6 11 19)) (TyFixed (mkSpan (mkPtok 14 "zchar[" 5 1 14) (mkPtok 13 "]" 6 0 17)) (mkFixedString (mkSpan (mkPtok 14 "zchar[" 5 1 14) (mkPtok 13 "]" 6 0 17)) (mkPtok 14 "zchar[" 5 1 14) (mkPtok 30 "255" 5 8 15) (mkPtok 13 "]" 6 0 17))) (mkPtok 42 "metadata" 6 2 18) None (mkPtok 40 "," 6 11 19))))] (mkPtok 3 "}" 6 13 20))); (DOption (mkOptionDef (mkSpan (mkPtok 1 "options" 6 14 21) (mkPtok 3 "}" 15 0 38)) (mkPtok 1 "options" 6 14 21) (mkPtok 2 "{" 6 22 22) [(mkOptionDecl (mkSpan (mkPtok 42 "int" 6 24 23) (mkPtok 41 ";" 6 36 26)) (mkPtok 42 "int" 6 24 23) (mkPtok 4 "=" 6 28 24) (VPaddingChar (mkSpan (mkPtok 33 "'\x00'" 6 30 25) (mkPtok 33 "'\x00'" 6 30 25)) (mkPtok 33 "'\x00'" 6 30 25)) (Some (mkPtok 41 ";" 6 36 26))); (mkOptionDecl (mkSpan (mkPtok 42 "stringy" 6 38 27) (mkPtok 11 "false" 7 0 29)) (mkPtok 42 "stringy" 6 38 27) (mkPtok 4 "=" 6 46 28) (VFalse (mkSpan (mkPtok 11 "false" 7 0 29) (mkPtok 11 "false" 7 0 29)) (mkPtok 11 "false" 7 0 29)) None); (mkOptionDecl (mkSpan (mkPtok 42 "T" 8 4 30) (mkPtok 30 "0" 11 4 33)) (mkPtok 42 "T" 8 4 30) (mkPtok 4 "=" 10 4 32) (VDigits (mkSpan (mkPtok 30 "0" 11 4 33) (mkPtok 30 "0" 11 4 33)) (mkPtok 30 "0" 11 4 33)) None); (mkOptionDecl (mkSpan (mkPtok 42 "trueish" 11 6 34) (mkPtok 30 "10" 14 4 37)) (mkPtok 42 "trueish" 11 6 34) (mkPtok 4 "=" 12 4 35) (VDigits (mkSpan (mkPtok 30 "10" 14 4 37) (mkPtok 30 "10" 14 4 37)) (mkPtok 30 "10" 14 4 37)) None)] (mkPtok 3 "}" 15 0 38)))])).
-Eval vm_compute in ("<<<M1424>>>" ++ check (runes_of_ascii "/// triple
-MetaData T {
-    string_ falsey `u8 x,`, // packet A { u8 x, }
-matchKey chars `u8 x,`, calculatedFrom
-f32a `doc` ,
-/// triple
-// trailing space 
-}")).
-Eval vm_compute in ("<<<M1456>>>" ++ check (runes_of_ascii "options {	x=
-    ""// no comment"" }	packet trueish { @lengthOf(
-_x )Header // " ++ [128512]%N ++ runes_of_ascii " emoji
+Eval vm_compute in ("<<<T48>>>" ++ terms [mkTok 44 "// c" 1 0 true; mkTok 37 "MetaData" 2 0 false; mkTok 42 "Packet" 2 9 false; mkTok 2 "{" 2 16 false; mkTok 42 "i8i8" 2 18 false; mkTok 42 "repeatCount" 2 23 false; mkTok 40 "," 2 35 false; mkTok 42 "calculatedFrom" 2 37 false; mkTok 42 "falsey" 3 0 false; mkTok 43 (string_of_bytes [96; 10; 96]%N) 3 7 false; mkTok 44 "// 50% %s" 4 2 true; mkTok 40 "," 5 0 false; mkTok 28 "float32" 5 2 false; mkTok 42 "tag" 6 0 false; mkTok 44 "//" 6 3 true; mkTok 40 "," 7 0 false; mkTok 15 "string" 7 1 false; mkTok 42 "Packet" 7 8 false; mkTok 43 (string_of_bytes [96; 108; 105; 110; 101; 49; 10; 108; 105; 110; 101; 50; 96]%N) 7 15 false; mkTok 40 "," 9 4 false; mkTok 3 "}" 9 6 false; mkTok 44 "// c" 10 0 true; mkTok 0 "<EOF>" 11 0 false] (mkPacket (mkPtok 37 "MetaData" 2 0 1) (Some (mkPtok 3 "}" 9 6 20)) [(DMeta (mkMetaDef (mkSpan (mkPtok 37 "MetaData" 2 0 1) (mkPtok 3 "}" 9 6 20)) (mkPtok 37 "MetaData" 2 0 1) (mkPtok 42 "Packet" 2 9 2) (mkPtok 2 "{" 2 16 3) [(MIRef (mkRefMetaDecl (mkSpan (mkPtok 42 "i8i8" 2 18 4) (mkPtok 40 "," 2 35 6)) (mkPtok 42 "i8i8" 2 18 4) (mkPtok 42 "repeatCount" 2 23 5) None (mkPtok 40 "," 2 35 6))); (MIRef (mkRefMetaDecl (mkSpan (mkPtok 42 "calculatedFrom" 2 37 7) (mkPtok 40 "," 5 0 11)) (mkPtok 42 "calculatedFrom" 2 37 7) (mkPtok 42 "falsey" 3 0 8) (Some (mkPtok 43 (string_of_bytes [96; 10; 96]%N) 3 7 9)) (mkPtok 40 "," 5 0 11))); (MIDecl (mkMetaDecl (mkSpan (mkPtok 28 "float32" 5 2 12) (mkPtok 40 "," 7 0 15)) (TyBasic (mkSpan (mkPtok 28 "float32" 5 2 12) (mkPtok 28 "float32" 5 2 12)) (mkBasicType (mkSpan (mkPtok 28 "float32" 5 2 12) (mkPtok 28 "float32" 5 2 12)) (mkPtok 28 "float32" 5 2 12))) (mkPtok 42 "tag" 6 0 13) None (mkPtok 40 "," 7 0 15))); (MIDecl (mkMetaDecl (mkSpan (mkPtok 15 "string" 7 1 16) (mkPtok 40 "," 9 4 19)) (TyDynamic (mkSpan (mkPtok 15 "string" 7 1 16) (mkPtok 15 "string" 7 1 16)) (mkDynamicString (mkSpan (mkPtok 15 "string" 7 1 16) (mkPtok 15 "string" 7 1 16)) (mkPtok 15 "string" 7 1 16))) (mkPtok 42 "Packet" 7 8 17) (Some (mkPtok 43 (string_of_bytes [96; 108; 105; 110; 101; 49; 10; 108; 105; 110; 101; 50; 96]%N) 7 15 18)) (mkPtok 40 "," 9 4 19)))] (mkPtok 3 "}" 9 6 20)))])).
+Eval vm_compute in ("<<<M80>>>" ++ check (runes_of_ascii "// trailing space 
+options{ x
+=	""it's"" }")).
+Eval vm_compute in ("<<<M112>>>" ++ check (runes_of_ascii "// 50% %s
+packet leftPad	{ } packet Packet
 {
-char[]
-    Pad @calculatedFrom( """ ++ [28040; 24687]%N ++ runes_of_ascii """ )  ,  float64 msg_type , }	,repeat string
-    packetx `u8 x,`, match Header
-    as  charz
-    {
-    65535: pack
-    ,} // " ++ [128512]%N ++ runes_of_ascii " emoji
-, } packet float { } root packet A { @calculatedFrom(	""x y"" )// @lengthOf(
-string
-// " ++ [128512]%N ++ runes_of_ascii " emoji
-// " ++ [128512]%N ++ runes_of_ascii " emoji
-len @lengthOf( metadata
-)
-, }")).
-Eval vm_compute in ("<<<M1488>>>" ++ check (runes_of_ascii "packet trueish { Header repeatCount
-,
-    repeat metadata //	t
-tag // packet A { u8 x, }
-, //	t
-@lengthOf( calculatedFrom	) MetaDataX @lengthOf( packetx ) // a // b
+@lengthOf(	chars  ) repeat u128 u8x`" ++ [233]%N ++ runes_of_ascii "`
 , }
 ")).
-Eval vm_compute in ("<<<M1520>>>" ++ check (runes_of_ascii "MetaData /// triple
-Foo{ float32 Foo // @lengthOf(
-,	} // " ++ [27880; 37322]%N)).
-Eval vm_compute in ("<<<M1552>>>" ++ check (runes_of_ascii "// " ++ [27880; 37322]%N ++ runes_of_ascii "
-MetaData	float
-    { char[] matchKey ,
-    char[
-//x
-//
-1 ]Pad
-// " ++ [27880; 37322]%N ++ runes_of_ascii "
-// trailing space 
-`doc` , i16
-    metadata,
-zchar[ 0 ] metadata`// not a comment`,
-metadata pack,
-}options
-{ int=""it's""; Header=65535; float  = // packet A { u8 x, }
-""abc"" chars
-= 65535}packet Packet { @tag(
-255)
-    @tag(// a // b
-4294967296
-    )
-rootA
-`two words` , }")).
-Eval vm_compute in ("<<<M1584>>>" ++ check (@nil rune)).
-Eval vm_compute in ("<<<M1616>>>" ++ check (@nil rune)).
-Eval vm_compute in ("<<<T1616>>>" ++ terms [mkTok 0 "<EOF>" 1 0 false] (mkPacket (mkPtok 0 "<EOF>" 1 0 0) None [])).
-Eval vm_compute in ("<<<M1648>>>" ++ check (runes_of_ascii "MetaData Packet { char[
-    255  ]  _x `line1
-line2`	,
-Z9_ u8x ,	} 	 ")).
-Eval vm_compute in ("<<<M1680>>>" ++ check (runes_of_ascii "options
-    { f32a
-    =
-true
-calculatedFrom
-= """ ++ [28040; 24687]%N ++ runes_of_ascii """
-    packetx	=4294967296 } MetaData	tag{
-    uint8x
-calculatedFrom , }
-")).
-Eval vm_compute in ("<<<M1712>>>" ++ check (runes_of_ascii "
-MetaData u8x
-    {	int32 Pad `tab	here`
-/// triple
-// @lengthOf(
-,uint16 stringy
-    ,Z9_
-    msg_type
-// packet A { u8 x, }
-// @lengthOf(
-, char[]  As /// triple
-,
-// " ++ [27880; 37322]%N ++ runes_of_ascii "
-//	t
-u8
-    matchKey ,}// " ++ [27880; 37322]%N ++ runes_of_ascii "
-packet repeatCount
-{ } options { }packet // c
-u
-{ // `tick` ""quote"" 'q'
-zchar[
-65535 ] len ,
-    // packet A { u8 x, }
-    }
-MetaData MetaDataX {
-char[
-    7 ]
-u8x	``
-    // " ++ [128512]%N ++ runes_of_ascii " emoji
-    , }
-// packet A { u8 x, }
-")).
-Eval vm_compute in ("<<<M1744>>>" ++ check (runes_of_ascii "packet  Pad {}
-
-")).
-Eval vm_compute in ("<<<M1776>>>" ++ check (runes_of_ascii "options
-{	Pad
-= ' ' ; }
-packet roots {char[
-255 ]
-u8x @calculatedFrom( ""`tick`"" ) ,} options
-    //x
-    { //
-i8i8
-=
-char[] }
-")).
-Eval vm_compute in ("<<<M1808>>>" ++ check (runes_of_ascii "packet Logon{ }root
-    packet
-    _x {
-match packetx as asx
-    //
-    {	0123456789:options1, } , zchar[ 10
-    ] f32a @lengthOf(
-    Z9_
-// c
-// trailing space 
-) ,uint64 A
-@calculatedFrom( """ ++ [28040; 24687]%N ++ runes_of_ascii """// packet A { u8 x, }
-) , } 	 ")).
-Eval vm_compute in ("<<<M1840>>>" ++ check (runes_of_ascii "options { u128  = true string_ = zchar[ 1 ] ; body
-    = '\x00';} options
-{ stringy // " ++ [128512]%N ++ runes_of_ascii " emoji
-= true ; // " ++ [27880; 37322]%N ++ runes_of_ascii "
-o= ""a	b"" Z9_
-    = """ ++ [233]%N ++ runes_of_ascii "t" ++ [233]%N ++ runes_of_ascii """ crc = true
-;  packetx
-    =
-uint32
-    ; }
-    options	{lengthOf
-// trailing space 
-// @lengthOf(
-=	3 ; i8i8 =int16
-    ;
-metadata =
-    4294967296 T  =""""; /// triple
-Z9_
-=//x
-255 ;
-    }")).
-Eval vm_compute in ("<<<T1840>>>" ++ terms [mkTok 1 "options" 1 0 false; mkTok 2 "{" 1 8 false; mkTok 42 "u128" 1 10 false; mkTok 4 "=" 1 16 false; mkTok 10 "true" 1 18 false; mkTok 42 "string_" 1 23 false; mkTok 4 "=" 1 31 false; mkTok 14 "zchar[" 1 33 false; mkTok 30 "1" 1 40 false; mkTok 13 "]" 1 42 false; mkTok 41 ";" 1 44 false; mkTok 42 "body" 1 46 false; mkTok 4 "=" 2 4 false; mkTok 33 "'\x00'" 2 6 false; mkTok 41 ";" 2 12 false; mkTok 3 "}" 2 13 false; mkTok 1 "options" 2 15 false; mkTok 2 "{" 3 0 false; mkTok 42 "stringy" 3 2 false; mkTok 44 (string_of_bytes [47; 47; 32; 240; 159; 152; 128; 32; 101; 109; 111; 106; 105]%N) 3 10 true; mkTok 4 "=" 4 0 false; mkTok 10 "true" 4 2 false; mkTok 41 ";" 4 7 false; mkTok 44 (string_of_bytes [47; 47; 32; 230; 179; 168; 233; 135; 138]%N) 4 9 true; mkTok 42 "o" 5 0 false; mkTok 4 "=" 5 1 false; mkTok 31 (string_of_bytes [34; 97; 9; 98; 34]%N) 5 3 false; mkTok 42 "Z9_" 5 9 false; mkTok 4 "=" 6 4 false; mkTok 31 (string_of_bytes [34; 195; 169; 116; 195; 169; 34]%N) 6 6 false; mkTok 42 "crc" 6 12 false; mkTok 4 "=" 6 16 false; mkTok 10 "true" 6 18 false; mkTok 41 ";" 7 0 false; mkTok 42 "packetx" 7 3 false; mkTok 4 "=" 8 4 false; mkTok 22 "uint32" 9 0 false; mkTok 41 ";" 10 4 false; mkTok 3 "}" 10 6 false; mkTok 1 "options" 11 4 false; mkTok 2 "{" 11 12 false; mkTok 42 "lengthOf" 11 13 false; mkTok 44 "// trailing space " 12 0 true; mkTok 44 "// @lengthOf(" 13 0 true; mkTok 4 "=" 14 0 false; mkTok 30 "3" 14 2 false; mkTok 41 ";" 14 4 false; mkTok 42 "i8i8" 14 6 false; mkTok 4 "=" 14 11 false; mkTok 25 "int16" 14 12 false; mkTok 41 ";" 15 4 false; mkTok 42 "metadata" 16 0 false; mkTok 4 "=" 16 9 false; mkTok 30 "4294967296" 17 4 false; mkTok 42 "T" 17 15 false; mkTok 4 "=" 17 18 false; mkTok 31 """""" 17 19 false; mkTok 41 ";" 17 21 false; mkTok 44 "/// triple" 17 23 true; mkTok 42 "Z9_" 18 0 false; mkTok 4 "=" 19 0 false; mkTok 44 "//x" 19 1 true; mkTok 30 "255" 20 0 false; mkTok 41 ";" 20 4 false; mkTok 3 "}" 21 4 false; mkTok 0 "<EOF>" 21 5 false] (mkPacket (mkPtok 1 "options" 1 0 0) (Some (mkPtok 3 "}" 21 4 64)) [(DOption (mkOptionDef (mkSpan (mkPtok 1 "options" 1 0 0) (mkPtok 3 "}" 2 13 15)) (mkPtok 1 "options" 1 0 0) (mkPtok 2 "{" 1 8 1) [(mkOptionDecl (mkSpan (mkPtok 42 "u128" 1 10 2) (mkPtok 10 "true" 1 18 4)) (mkPtok 42 "u128" 1 10 2) (mkPtok 4 "=" 1 16 3) (VTrue (mkSpan (mkPtok 10 "true" 1 18 4) (mkPtok 10 "true" 1 18 4)) (mkPtok 10 "true" 1 18 4)) None); (mkOptionDecl (mkSpan (mkPtok 42 "string_" 1 23 5) (mkPtok 41 ";" 1 44 10)) (mkPtok 42 "string_" 1 23 5) (mkPtok 4 "=" 1 31 6) (VType (mkSpan (mkPtok 14 "zchar[" 1 33 7) (mkPtok 13 "]" 1 42 9)) (TyFixed (mkSpan (mkPtok 14 "zchar[" 1 33 7) (mkPtok 13 "]" 1 42 9)) (mkFixedString (mkSpan (mkPtok 14 "zchar[" 1 33 7) (mkPtok 13 "]" 1 42 9)) (mkPtok 14 "zchar[" 1 33 7) (mkPtok 30 "1" 1 40 8) (mkPtok 13 "]" 1 42 9)))) (Some (mkPtok 41 ";" 1 44 10))); (mkOptionDecl (mkSpan (mkPtok 42 "body" 1 46 11) (mkPtok 41 ";" 2 12 14)) (mkPtok 42 "body" 1 46 11) (mkPtok 4 "=" 2 4 12) (VPaddingChar (mkSpan (mkPtok 33 "'\x00'" 2 6 13) (mkPtok 33 "'\x00'" 2 6 13)) (mkPtok 33 "'\x00'" 2 6 13)) (Some (mkPtok 41 ";" 2 12 14)))] (mkPtok 3 "}" 2 13 15))); (DOption (mkOptionDef (mkSpan (mkPtok 1 "options" 2 15 16) (mkPtok 3 "}" 10 6 38)) (mkPtok 1 "options" 2 15 16) (mkPtok 2 "{" 3 0 17) [(mkOptionDecl (mkSpan (mkPtok 42 "stringy" 3 2 18) (mkPtok 41 ";" 4 7 22)) (mkPtok 42 "stringy" 3 2 18) (mkPtok 4 "=" 4 0 20) (VTrue (mkSpan (mkPtok 10 "true" 4 2 21) (mkPtok 10 "true" 4 2 21)) (mkPtok 10 "true" 4 2 21)) (Some (mkPtok 41 ";" 4 7 22))); (mkOptionDecl (mkSpan (mkPtok 42 "o" 5 0 24) (mkPtok 31 (string_of_bytes [34; 97; 9; 98; 34]%N) 5 3 26)) (mkPtok 42 "o" 5 0 24) (mkPtok 4 "=" 5 1 25) (VString (mkSpan (mkPtok 31 (string_of_bytes [34; 97; 9; 98; 34]%N) 5 3 26) (mkPtok 31 (string_of_bytes [34; 97; 9; 98; 34]%N) 5 3 26)) (mkPtok 31 (string_of_bytes [34; 97; 9; 98; 34]%N) 5 3 26)) None); (mkOptionDecl (mkSpan (mkPtok 42 "Z9_" 5 9 27) (mkPtok 31 (string_of_bytes [34; 195; 169; 116; 195; 169; 34]%N) 6 6 29)) (mkPtok 42 "Z9_" 5 9 27) (mkPtok 4 "=" 6 4 28) (VString (mkSpan (mkPtok 31 (string_of_bytes [34; 195; 169; 116; 195; 169; 34]%N) 6 6 29) (mkPtok 31 (string_of_bytes [34; 195; 169; 116; 195; 169; 34]%N) 6 6 29)) (mkPtok 31 (string_of_bytes [34; 195; 169; 116; 195; 169; 34]%N) 6 6 29)) None); (mkOptionDecl (mkSpan (mkPtok 42 "crc" 6 12 30) (mkPtok 41 ";" 7 0 33)) (mkPtok 42 "crc" 6 12 30) (mkPtok 4 "=" 6 16 31) (VTrue (mkSpan (mkPtok 10 "true" 6 18 32) (mkPtok 10 "true" 6 18 32)) (mkPtok 10 "true" 6 18 32)) (Some (mkPtok 41 ";" 7 0 33))); (mkOptionDecl (mkSpan (mkPtok 42 "packetx" 7 3 34) (mkPtok 41 ";" 10 4 37)) (mkPtok 42 "packetx" 7 3 34) (mkPtok 4 "=" 8 4 35) (VType (mkSpan (mkPtok 22 "uint32" 9 0 36) (mkPtok 22 "uint32" 9 0 36)) (TyBasic (mkSpan (mkPtok 22 "uint32" 9 0 36) (mkPtok 22 "uint32" 9 0 36)) (mkBasicType (mkSpan (mkPtok 22 "uint32" 9 0 36) (mkPtok 22 "uint32" 9 0 36)) (mkPtok 22 "uint32" 9 0 36)))) (Some (mkPtok 41 ";" 10 4 37)))] (mkPtok 3 "}" 10 6 38))); (DOption (mkOptionDef (mkSpan (mkPtok 1 "options" 11 4 39) (mkPtok 3 "}" 21 4 64)) (mkPtok 1 "options" 11 4 39) (mkPtok 2 "{" 11 12 40) [(mkOptionDecl (mkSpan (mkPtok 42 "lengthOf" 11 13 41) (mkPtok 41 ";" 14 4 46)) (mkPtok 42 "lengthOf" 11 13 41) (mkPtok 4 "=" 14 0 44) (VDigits (mkSpan (mkPtok 30 "3" 14 2 45) (mkPtok 30 "3" 14 2 45)) (mkPtok 30 "3" 14 2 45)) (Some (mkPtok 41 ";" 14 4 46))); (mkOptionDecl (mkSpan (mkPtok 42 "i8i8" 14 6 47) (mkPtok 41 ";" 15 4 50)) (mkPtok 42 "i8i8" 14 6 47) (mkPtok 4 "=" 14 11 48) (VType (mkSpan (mkPtok 25 "int16" 14 12 49) (mkPtok 25 "int16" 14 12 49)) (TyBasic (mkSpan (mkPtok 25 "int16" 14 12 49) (mkPtok 25 "int16" 14 12 49)) (mkBasicType (mkSpan (mkPtok 25 "int16" 14 12 49) (mkPtok 25 "int16" 14 12 49)) (mkPtok 25 "int16" 14 12 49)))) (Some (mkPtok 41 ";" 15 4 50))); (mkOptionDecl (mkSpan (mkPtok 42 "metadata" 16 0 51) (mkPtok 30 "4294967296" 17 4 53)) (mkPtok 42 "metadata" 16 0 51) (mkPtok 4 "=" 16 9 52) (VDigits (mkSpan (mkPtok 30 "4294967296" 17 4 53) (mkPtok 30 "4294967296" 17 4 53)) (mkPtok 30 "4294967296" 17 4 53)) None); (mkOptionDecl (mkSpan (mkPtok 42 "T" 17 15 54) (mkPtok 41 ";" 17 21 57)) (mkPtok 42 "T" 17 15 54) (mkPtok 4 "=" 17 18 55) (VString (mkSpan (mkPtok 31 """""" 17 19 56) (mkPtok 31 """""" 17 19 56)) (mkPtok 31 """""" 17 19 56)) (Some (mkPtok 41 ";" 17 21 57))); (mkOptionDecl (mkSpan (mkPtok 42 "Z9_" 18 0 59) (mkPtok 41 ";" 20 4 63)) (mkPtok 42 "Z9_" 18 0 59) (mkPtok 4 "=" 19 0 60) (VDigits (mkSpan (mkPtok 30 "255" 20 0 62) (mkPtok 30 "255" 20 0 62)) (mkPtok 30 "255" 20 0 62)) (Some (mkPtok 41 ";" 20 4 63)))] (mkPtok 3 "}" 21 4 64)))])).
-Eval vm_compute in ("<<<M1872>>>" ++ check (runes_of_ascii "options{
-    //	t
-    u8x
-    =true;
-rootA = 0123456789 pack =false ;x_y_z
-= // `tick` ""quote"" 'q'
-float32 ;
-    lengthOf= 1} options { rootA = false } packet Packet {
-roots {  f64 o // a // b
-@lengthOf(
-// @lengthOf(
-// `tick` ""quote"" 'q'
-trueish) ,//	t
-falsey
-{match	stringy// " ++ [27880; 37322]%N ++ runes_of_ascii "
-as u8x
-{// " ++ [27880; 37322]%N ++ runes_of_ascii "
-4294967296
-:
-    string_,
-7
-    : lengthOf
-,  [ ""// no comment"" ,
-    007 ] :
-// " ++ [27880; 37322]%N ++ runes_of_ascii "
-// " ++ [27880; 37322]%N ++ runes_of_ascii "
-crc
-// `tick` ""quote"" 'q'
-// " ++ [128512]%N ++ runes_of_ascii " emoji
-1 :
-string_ , ""abc""
-:tag	0:
-    // " ++ [128512]%N ++ runes_of_ascii " emoji
-    Z9_  } , match calculatedFrom as float
-    { ""x y"" :
-falsey },	} ,	} // trailing space 
-,
-    //
-    repeat char[]x `it's`
-    , repeat int ,
-uint64
-crc @lengthOf( stringy ) ,
-    } // c")).
-Eval vm_compute in ("<<<M1904>>>" ++ check (runes_of_ascii "
-packet string_ {
+Eval vm_compute in ("<<<M144>>>" ++ check (runes_of_ascii "
+packet T {
+    f32a {
+a1 , }// @lengthOf(
+, zchar[ 7 ]stringy `100% of %d` // @lengthOf(
+, // `tick` ""quote"" 'q'
+}
+    options {  } packet A
+{
     @rightPad
-( ' ') u64 A, repeat
-options1
-{ match	string_ as  tag {10// a // b
-:trueish
+( )
+    @lengthOf( lengthOf// `tick` ""quote"" 'q'
+)	@tag( 1)T
+@calculatedFrom(
+    ""a\""b"" )
+`` , Header , @tag(
+// `tick` ""quote"" 'q'
+// trailing space 
+4294967296
+) options1
+    {char[] A//
+`{ , }` , match Z9_ // packet A { u8 x, }
+as rootA {
+[3, """ ++ [233]%N ++ runes_of_ascii "t" ++ [233]%N ++ runes_of_ascii """]
+    // packet A { u8 x, }
+    :Logon
+,}, options1
+Header`" ++ [233]%N ++ runes_of_ascii "`, repeat
+f64 /// triple
+MetaDataX `it's`
+,
+    },
+    // trailing space 
+    float64 BodyLength, }")).
+Eval vm_compute in ("<<<M176>>>" ++ check (runes_of_ascii "packet
+Z9_ { u32
+pack `crlf
+line` ,
+    /// triple
+    @lengthOf(len) u128 {match
+    x_y_z as  Logon  { 7 : pack ,1
+: int 4294967296// " ++ [27880; 37322]%N ++ runes_of_ascii "
+: rootA, 1 :
+f32a,
+[
+    """" , // 50% %s
+42	, ""\n"" ,
+// " ++ [128512]%N ++ runes_of_ascii " emoji
+// packet A { u8 x, }
+7
+, // c
+0 ,
+""// no comment"", 4294967296 ,
+""// no comment""
+] :
+    matchKey  ,
+},
     // " ++ [27880; 37322]%N ++ runes_of_ascii "
-    4294967296 :	BodyLength
-    , """ ++ [233]%N ++ runes_of_ascii "t" ++ [233]%N ++ runes_of_ascii """
-: falsey,}
-, } ,u8x { f32 msg_type `u8 x,`
-    //	t
-    ,
-}, falsey@lengthOf( BodyLength //x
-)
-    ``, repeat
-    packetx `line1
-line2` ,zchar	, }
-")).
-Eval vm_compute in ("<<<M1936>>>" ++ check (runes_of_ascii "options
-    { //	t
+    match float
+as trueish // a // b
+{007 : packetx, 65535	: repeatCount} , repeat
+    // @lengthOf(
+    roots lengthOf
+, repeat
+i8 string_, } ,  i64
+    leftPad @lengthOf( msg_type ) , // a // b
+@tag(
+    // c
+    7 )zchar[ 7] f32a //	t
+@calculatedFrom(""\n"" ) , string falsey ,
+    // packet A { u8 x, }
+    repeat leftPad{ match matchKey // a // b
+as	repeatCount { ""\n"" :metadata  ,""x y""
+:Logon
+// " ++ [128512]%N ++ runes_of_ascii " emoji
+// " ++ [27880; 37322]%N ++ runes_of_ascii "
+, }
+    , }
+    , /// triple
 }
 ")).
-Eval vm_compute in ("<<<M1968>>>" ++ check (runes_of_ascii "
-options
-{ crc =
-    true; }
-packet pack  { match f32a as T // `tick` ""quote"" 'q'
-{// a // b
-[ 3
-,	3  ]:pack
-    , } , @lengthOf(	T )zchar[10 ] // packet A { u8 x, }
-x
-@calculatedFrom( ""CRC32"" )`" ++ [28040; 24687; 31867; 22411]%N ++ runes_of_ascii "`
-, @rightPad (
-// c
+Eval vm_compute in ("<<<M208>>>" ++ check (runes_of_ascii "MetaData
+msg_type { options1 A, string metadata `tab	here`
+    , uint32 BodyLength ,} packet
+// trailing space 
+// a // b
+T {// packet A { u8 x, }
+}
+    packet
+    charz { roots  @lengthOf( msg_type ) // 50% %s
+`// not a comment` , int32 a1 `{ , }` ,	match leftPad as string_	{	65535 :f32a
+, }
+, } options
+{ options1 = true ; }")).
+Eval vm_compute in ("<<<M240>>>" ++ check (runes_of_ascii "packet A { repeat crc uint8x // @lengthOf(
+,
+@calculatedFrom( ""it's""
+) uint64 Logon `a\`,
+    }")).
+Eval vm_compute in ("<<<M272>>>" ++ check (runes_of_ascii "root packet uint8x
+    {
+char[]pack  @calculatedFrom( ""`tick`"" ) ,
+    }")).
+Eval vm_compute in ("<<<T272>>>" ++ terms [mkTok 34 "root" 1 0 false; mkTok 35 "packet" 1 5 false; mkTok 42 "uint8x" 1 12 false; mkTok 2 "{" 2 4 false; mkTok 16 "char[]" 3 0 false; mkTok 42 "pack" 3 6 false; mkTok 5 "@calculatedFrom(" 3 12 false; mkTok 31 """`tick`""" 3 29 false; mkTok 6 ")" 3 38 false; mkTok 40 "," 3 40 false; mkTok 3 "}" 4 4 false; mkTok 0 "<EOF>" 4 5 false] (mkPacket (mkPtok 34 "root" 1 0 0) (Some (mkPtok 3 "}" 4 4 10)) [(DPacket (mkPacketDef (mkSpan (mkPtok 34 "root" 1 0 0) (mkPtok 3 "}" 4 4 10)) (Some (mkPtok 34 "root" 1 0 0)) (mkPtok 35 "packet" 1 5 1) (mkPtok 42 "uint8x" 1 12 2) (mkPtok 2 "{" 2 4 3) [(mkFieldWithAttr (mkSpan (mkPtok 16 "char[]" 3 0 4) (mkPtok 40 "," 3 40 9)) [] (CheckSumField (mkSpan (mkPtok 16 "char[]" 3 0 4) (mkPtok 40 "," 3 40 9)) (mkChecksumFieldDecl (mkSpan (mkPtok 16 "char[]" 3 0 4) (mkPtok 40 "," 3 40 9)) (Some (TyDynamic (mkSpan (mkPtok 16 "char[]" 3 0 4) (mkPtok 16 "char[]" 3 0 4)) (mkDynamicString (mkSpan (mkPtok 16 "char[]" 3 0 4) (mkPtok 16 "char[]" 3 0 4)) (mkPtok 16 "char[]" 3 0 4)))) (mkPtok 42 "pack" 3 6 5) (mkCalculatedFrom (mkSpan (mkPtok 5 "@calculatedFrom(" 3 12 6) (mkPtok 6 ")" 3 38 8)) (mkPtok 5 "@calculatedFrom(" 3 12 6) (mkPtok 31 """`tick`""" 3 29 7) (mkPtok 6 ")" 3 38 8)) None (mkPtok 40 "," 3 40 9))))] (mkPtok 3 "}" 4 4 10)))])).
+Eval vm_compute in ("<<<M304>>>" ++ check (runes_of_ascii "packet options1 { }packet o
+    {	o Header `` , @calculatedFrom( ""\n"" ) int32 MetaDataX ,
+// @lengthOf(
+//	t
+rootA
+{match tag as	Header{	""x y"" :
+string_ ,
+00
+: roots
+4294967296: trueish // @lengthOf(
+""a\""b"" : u
+, ""a\""b"" :
+packetx ""\n"" : float
+//	t
 /// triple
-'0' )repeat //
-u8x
-u128 `it's`
+,
+} ,
+} ,	match//
+x_y_z
+as
+float { ""a	b"" :float , // trailing space 
+[ 7 // " ++ [128512]%N ++ runes_of_ascii " emoji
+,
+0123456789
+, 4294967296
+,  ""x y"" ,7, ""a\""b"" , 7 ] : Header , ""x y"":Pad ,""`tick`"":  len
+} , @calculatedFrom( ""packet""
+    )
+repeat string As , Foo { int16 trueish	, repeat
+int16
+    metadata `{ , }` , match lengthOf
+//
+// `tick` ""quote"" 'q'
+as Pad { ""\" ++ [233]%N ++ runes_of_ascii """ :metadata// a // b
+, } , Foo
+    @calculatedFrom( ""\n"" )// `tick` ""quote"" 'q'
+`crlf
+line` , // 50% %s
+},u@lengthOf(repeatCount
+) `doc`
+    , T @lengthOf( calculatedFrom ) ,} MetaData trueish{
+    }
+// " ++ [128512]%N ++ runes_of_ascii " emoji
+// packet A { u8 x, }
+options{
+    trueish	= uint8; }
+MetaData
+Pad {}
+")).
+Eval vm_compute in ("<<<M336>>>" ++ check (runes_of_ascii "packet Pad {@lengthOf(
+int  ) // c
+charz@calculatedFrom(
+    // " ++ [27880; 37322]%N ++ runes_of_ascii "
+    """" ) ,
+    }// " ++ [27880; 37322]%N ++ runes_of_ascii "
+packet
+    pack { // 50% %s
+u8
+    pack
+    , @tag( 0
+    ) @tag( 00  ) string rootA @calculatedFrom( ""CRC32"" ) , // " ++ [27880; 37322]%N ++ runes_of_ascii "
+@tag(  65535
+) stringy @calculatedFrom( ""a	b"" // a // b
+) , match  o as f32a { [0123456789 ]:Header 7
+:
+Pad
+,	[ ""a\\"", ""1"" , 65535
+    ,// trailing space 
+""\n"" , ""\n"" ,
+3 ,""CRC32"" ,	00 ] :
+    packetx,	[
+""`tick`"" , ""packet"" ,  ""x y""
+, 7 , 00 , //	t
+""x y"" , 10 ]:
+// packet A { u8 x, }
+// trailing space 
+matchKey ,
+""{,}"" : // @lengthOf(
+body
+    ""a\""b"" : tag
+} ,
+// trailing space 
+// trailing space 
+} /// triple")).
+Eval vm_compute in ("<<<M368>>>" ++ check (runes_of_ascii "packet charz
+{ }
+root packet options1 {
+    @rightPad ( '0')match
+/// triple
+// 50% %s
+len // 50% %s
+as roots { 3: lengthOf // a // b
+, ""{,}"":
+MetaDataX
+// 50% %s
+// c
+, 65535 :
+    MetaDataX } , char[4294967296
+    //x
+    ]
+u128  ,uint32 x // a // b
+,
+    //x
+    @tag(007 )  x_y_z @calculatedFrom( ""packet""
+), zchar[ 255 ] Header @calculatedFrom( ""a	b"" ),  string
+leftPad
+, Z9_
+    x_y_z
+    `two words`
+, i8
+    x_y_z
+@lengthOf(
+    // 50% %s
+    MetaDataX  ) `" ++ [28040; 24687; 31867; 22411]%N ++ runes_of_ascii "`
+// " ++ [27880; 37322]%N ++ runes_of_ascii "
+// trailing space 
+, }MetaData
+msg_type {lengthOf msg_type /// triple
+`crlf
+line` , i64
+    // a // b
+    crc // c
+, packetx zchar `100% of %d` , string falsey`line1
+line2` ,} packet options1{
+repeat string
+u128 , // trailing space 
+repeat char[
+3 ]lengthOf ,
+zchar[ 00]stringy , @lengthOf(a1 )  @lengthOf(int) @calculatedFrom( ""{,}""
+    ) match
+    // `tick` ""quote"" 'q'
+    Foo as u8x {""it's"" :	charz [ 255 ] : u128, }, string x // trailing space 
+,
+match //x
+Packet as Logon
+    { //x
+""{,}"" : roots,
+// packet A { u8 x, }
+// `tick` ""quote"" 'q'
+""abc""
+:
+//	t
+// a // b
+zchar , /// triple
+[  1,
+""" ++ [128512]%N ++ runes_of_ascii """ , ""packet"",
+"""" , """" ,  42 , """"] : Z9_ ,
+} , u64 u @lengthOf(body )
+// " ++ [128512]%N ++ runes_of_ascii " emoji
+// 50% %s
+`it's`, } options {
+    uint8x
+    =
+0123456789 ; }")).
+Eval vm_compute in ("<<<M400>>>" ++ check (runes_of_ascii "packet // a // b
+Z9_
+    { @calculatedFrom(""\" ++ [233]%N ++ runes_of_ascii """// c
+) Z9_
+, @calculatedFrom(""" ++ [233]%N ++ runes_of_ascii "t" ++ [233]%N ++ runes_of_ascii """ )
+repeat leftPad,
+// packet A { u8 x, }
+//	t
+@rightPad
+( '0' )
+    // trailing space 
+    Foo
+, //
+@tag(10	)
+    chars `line1
+line2` ,
+@leftPad
+    // " ++ [128512]%N ++ runes_of_ascii " emoji
+    ( ) repeat zchar[ 255 ] u128
+,
+@lengthOf( // c
+body
+    ) charz//	t
+{ As
+,	string // @lengthOf(
+zchar `" ++ [28040; 24687; 31867; 22411]%N ++ runes_of_ascii "` , o @calculatedFrom(""1"" ) // packet A { u8 x, }
+, repeat u32 Header	`crlf
+line` , }
     ,
+zchar[ 0123456789
+] uint8x @calculatedFrom(	""CRC32"" )
+`` ,
+u32
+    a1 ,	}")).
+Eval vm_compute in ("<<<M432>>>" ++ check (runes_of_ascii "options{ x_y_z =
+false Logon =  ""packet""; // packet A { u8 x, }
+}
+")).
+Eval vm_compute in ("<<<M464>>>" ++ check (runes_of_ascii "packet
+    u128 {} packet
+    Foo
+{packetx , }
+    packet
+    float
+    { @tag( 1 ) // " ++ [128512]%N ++ runes_of_ascii " emoji
+@lengthOf(
+Pad )
+// a // b
+// a // b
+match x_y_z as metadata
+    {
+    // a // b
+    0: u8x 42 :	len
+, ""a\\"" : Packet , [
+""a	b"" , 0123456789 ,""\n"" , 65535] :
+    asx
+    ,
+[
+0 ]
+:_x , 255 :
+    _x	, }
+,} // trailing space 
+packet pack{ @lengthOf(i64_
+)
+    repeat
+    zchar[ 1] Foo
+    , repeat
+// trailing space 
+// trailing space 
+char[] u8x
+    , }
+")).
+Eval vm_compute in ("<<<M496>>>" ++ check (runes_of_ascii "packet  string_ {@calculatedFrom(
+    """ ++ [233]%N ++ runes_of_ascii "t" ++ [233]%N ++ runes_of_ascii """
+    )asx
+@calculatedFrom( ""CRC32"" ) ,} 	 ")).
+Eval vm_compute in ("<<<T496>>>" ++ terms [mkTok 35 "packet" 1 0 false; mkTok 42 "string_" 1 8 false; mkTok 2 "{" 1 16 false; mkTok 5 "@calculatedFrom(" 1 17 false; mkTok 31 (string_of_bytes [34; 195; 169; 116; 195; 169; 34]%N) 2 4 false; mkTok 6 ")" 3 4 false; mkTok 42 "asx" 3 5 false; mkTok 5 "@calculatedFrom(" 4 0 false; mkTok 31 """CRC32""" 4 17 false; mkTok 6 ")" 4 25 false; mkTok 40 "," 4 27 false; mkTok 3 "}" 4 28 false; mkTok 0 "<EOF>" 4 32 false] (mkPacket (mkPtok 35 "packet" 1 0 0) (Some (mkPtok 3 "}" 4 28 11)) [(DPacket (mkPacketDef (mkSpan (mkPtok 35 "packet" 1 0 0) (mkPtok 3 "}" 4 28 11)) None (mkPtok 35 "packet" 1 0 0) (mkPtok 42 "string_" 1 8 1) (mkPtok 2 "{" 1 16 2) [(mkFieldWithAttr (mkSpan (mkPtok 5 "@calculatedFrom(" 1 17 3) (mkPtok 40 "," 4 27 10)) [(FACalculatedFrom (mkSpan (mkPtok 5 "@calculatedFrom(" 1 17 3) (mkPtok 6 ")" 3 4 5)) (mkCalculatedFrom (mkSpan (mkPtok 5 "@calculatedFrom(" 1 17 3) (mkPtok 6 ")" 3 4 5)) (mkPtok 5 "@calculatedFrom(" 1 17 3) (mkPtok 31 (string_of_bytes [34; 195; 169; 116; 195; 169; 34]%N) 2 4 4) (mkPtok 6 ")" 3 4 5)))] (CheckSumField (mkSpan (mkPtok 42 "asx" 3 5 6) (mkPtok 40 "," 4 27 10)) (mkChecksumFieldDecl (mkSpan (mkPtok 42 "asx" 3 5 6) (mkPtok 40 "," 4 27 10)) None (mkPtok 42 "asx" 3 5 6) (mkCalculatedFrom (mkSpan (mkPtok 5 "@calculatedFrom(" 4 0 7) (mkPtok 6 ")" 4 25 9)) (mkPtok 5 "@calculatedFrom(" 4 0 7) (mkPtok 31 """CRC32""" 4 17 8) (mkPtok 6 ")" 4 25 9)) None (mkPtok 40 "," 4 27 10))))] (mkPtok 3 "}" 4 28 11)))])).
+Eval vm_compute in ("<<<M528>>>" ++ check (runes_of_ascii "packet asx { @tag( //x
+00) _x	{	repeat rootA
+    , } , }packet u{@calculatedFrom( ""a\""b""
+)u8
+    roots
+`" ++ [233]%N ++ runes_of_ascii "`, tag{repeat
+    // " ++ [27880; 37322]%N ++ runes_of_ascii "
+    asx , // c
+}
+, @tag(	255 ) options1
+    { len	{
+// packet A { u8 x, }
+//
+Logon ,repeat leftPad ,	}
+    // packet A { u8 x, }
+    ,} , } 	 ")).
+Eval vm_compute in ("<<<M560>>>" ++ check (runes_of_ascii "//
+MetaData u8x{ f64 //x
+Z9_
+``,char[
+    3
+    ] _x ,
+    u8x matchKey ,
+char[ 1 ]
+    int
+// `tick` ""quote"" 'q'
+// packet A { u8 x, }
+`tab	here`
+,
+i32 matchKey `` , msg_type Logon
+, } root packet charz {
+    zchar
+{
+repeat MetaDataX // `tick` ""quote"" 'q'
+{
+    char[ 10
+] Pad @calculatedFrom( ""packet"" )
+    ,zchar[ 0123456789  ]
+o
+@lengthOf( rootA
+    ) ,	zchar[ 0 ]
+u128 ,u32	uint8x @calculatedFrom( ""{,}"") , }	, match	zchar
+as trueish { ""packet""
+    :
+string_ , [00
+,
+// packet A { u8 x, }
+// " ++ [27880; 37322]%N ++ runes_of_ascii "
+""1""]	: repeatCount , ""\n"" :tag ,""1""  : matchKey
+,
+}
+,} ,match string_ as BodyLength  {""" ++ [233]%N ++ runes_of_ascii "t" ++ [233]%N ++ runes_of_ascii """: A
+    , [
+    0 , 1
+,
+    """ ++ [128512]%N ++ runes_of_ascii """  , ""`tick`"" ]
+    : uint8x , """ ++ [28040; 24687]%N ++ runes_of_ascii """ : string_ ,
+}
+    // " ++ [128512]%N ++ runes_of_ascii " emoji
+    , /// triple
+@lengthOf(
+i64_  ) i8 stringy@calculatedFrom( // 50% %s
+""1"" )	, zchar[ 0 ] charz ,
+    @lengthOf( matchKey
+)repeat As leftPad ,
+    @calculatedFrom( ""\" ++ [233]%N ++ runes_of_ascii """ )	match Header as i64_ {
+7:
+stringy, ""// no comment"": _x
+, // " ++ [27880; 37322]%N ++ runes_of_ascii "
+0	: options1 , [""// no comment""  , ""packet""
+    ,""x y""
+, ""a\""b"" ,"""" ,00 ,00 ,
+7] :As, [ 007 ] : zchar
+// a // b
+//
+, } //
+,// " ++ [27880; 37322]%N ++ runes_of_ascii "
+} packet metadata //
+{  match string_ // a // b
+as x {
+// 50% %s
+//
+""1"": tag
+    [ ""1""
+    ]//x
+: metadata , }, zchar[255]
+    // a // b
+    matchKey ,
+@calculatedFrom( ""a	b""// @lengthOf(
+) u64
+As// " ++ [27880; 37322]%N ++ runes_of_ascii "
+, @rightPad(  '0' ) // a // b
+@lengthOf( metadata )
+@rightPad ('\x00' ) char[]
+T
+    @calculatedFrom( //x
+""" ++ [128512]%N ++ runes_of_ascii """ )
+    `line1
+line2` , f32 options1@lengthOf(
+MetaDataX ) ,} // trailing space ")).
+Eval vm_compute in ("<<<M592>>>" ++ check (runes_of_ascii "  packet options1 {
+@calculatedFrom( ""\n""
+) // `tick` ""quote"" 'q'
+string int @lengthOf(
+    packetx
+//
+// " ++ [128512]%N ++ runes_of_ascii " emoji
+) ,@tag( 0
+) @tag( 0123456789)@tag(10 ) match//
+len// @lengthOf(
+as
+// a // b
+// packet A { u8 x, }
+rootA { [
+    ""\" ++ [233]%N ++ runes_of_ascii """ , 1	, 3
+]:charz ,[ ""a\""b""
+]// trailing space 
+:  x, }
+,@lengthOf( i64_ ) match BodyLength // trailing space 
+as
+    //
+    roots {""\n"":
+u,
+    }
+, repeat float{options1 {
+    repeat f32 len , } ,} ,
+zchar[ 0123456789
+    ] // a // b
+chars
+, @leftPad (
+'\x00'
+) @calculatedFrom(
+    ""// no comment"" )@calculatedFrom( """") int64 rootA // packet A { u8 x, }
+, } packet len
+    { @tag( 10 // 50% %s
+) repeat float32 len,match matchKey as x_y_z
+{ ""CRC32"" : matchKey ,
+    [00
+,3
+    ] : f32a ,""x y""
+    //	t
+    :
+lengthOf 10 : MetaDataX 7 :// packet A { u8 x, }
+MetaDataX,""" ++ [233]%N ++ runes_of_ascii "t" ++ [233]%N ++ runes_of_ascii """
+    :	x_y_z } ,
+@rightPad (
+    '0'
+)
+    // packet A { u8 x, }
+    @leftPad ()
+    @tag(
+10 ) u8x @lengthOf(lengthOf), }
+packet
+As {
+char[]
+calculatedFrom , }
+    options {
+    calculatedFrom= ""a\\"" ; len =
+007 ; i64_
+= 10 ;
+}
+packet Header// trailing space 
+{ match o as matchKey{ [ 3 , """"] : T
+,""{,}"" :
+    calculatedFrom } ,repeat char[// a // b
+255 ]
+    u // packet A { u8 x, }
+,  char[]
+    Packet , // a // b
+repeat int64 packetx
+,
 @leftPad
 (
-// @lengthOf(
-// c
 '\x00' )
-f64
-    rootA
     @calculatedFrom(
-    ""\" ++ [233]%N ++ runes_of_ascii """ ) , }
+    """" )
+//x
+// @lengthOf(
+zchar {f32 zchar `
+`
+, match u128	as
+    options1 { [
+// c
+// 50% %s
+""abc""
+    // a // b
+    , 10
+,65535
+,  0, ""\n"" , """ ++ [128512]%N ++ runes_of_ascii """ , 0123456789 ] : chars ,// 50% %s
+00 :	As , ""a	b"" :// " ++ [128512]%N ++ runes_of_ascii " emoji
+packetx , //
+10  : a1 , }
+    ,	} , float64
+    calculatedFrom
+    @lengthOf(
+    packetx ) , char[
+    00 ]
+string_ `
+`
+    , uint8
+charz	@lengthOf(
+body ) // packet A { u8 x, }
+`two words`
+    // @lengthOf(
+    ,@calculatedFrom(
+    ""`tick`"" ) zchar[
+    00]crc @lengthOf( a1	)
+//x
+// c
+`line1
+line2` ,}
+")).
+Eval vm_compute in ("<<<M624>>>" ++ check (runes_of_ascii "
+packet
+options1 {
+}
+")).
+Eval vm_compute in ("<<<M656>>>" ++ check (runes_of_ascii "  packet float
+{
+    }packet	o { zchar[ 3 ]  x `doc` ,repeat
+    string_{ char[] stringy `" ++ [233]%N ++ runes_of_ascii "` , }
+    , repeat uint32 a1 ``
+, //
+int64// c
+Pad@calculatedFrom(""1"" ) ,
+    @lengthOf( crc ) repeat /// triple
+u16 packetx , msg_type
+    @lengthOf( crc) , @tag(
+3
+) i16 u128 ,	zchar[65535 ]Logon `crlf
+line`, @lengthOf(
+repeatCount )
+    @calculatedFrom( ""a\""b"" )
+    crc tag
+, }
+root packet i8i8{ repeat
+    Packet	{
+msg_type @calculatedFrom(
+    ""a\""b"" )  ,
+/// triple
+// 50% %s
+}
+,  }// c
+packet i8i8{ //	t
+i32 a1 // packet A { u8 x, }
+@calculatedFrom( ""\n""	)
+`// not a comment`
+, } root packet
+u128
+{@leftPad
+    (
+'\x00'
+)
+x_y_z
+@lengthOf(lengthOf )
+, repeat u32 calculatedFrom // packet A { u8 x, }
+,u8 _x@calculatedFrom( """ ++ [128512]%N ++ runes_of_ascii """ )  `u8 x,` , int8 Pad ,
+crc
+,
+    }
+")).
+Eval vm_compute in ("<<<M688>>>" ++ check (runes_of_ascii "packet trueish {
+    char[// a // b
+007 ] asx  @lengthOf(a1
+) `a\`, @tag(	00 ) @leftPad ( ' ' ) repeat zchar[ 7
+// " ++ [128512]%N ++ runes_of_ascii " emoji
+//
+]// 50% %s
+charz ,int64 len @calculatedFrom(	""\" ++ [233]%N ++ runes_of_ascii """ ) , u64
+f32a , /// triple
+@lengthOf(
+    Pad ) u @calculatedFrom(""packet"")
+    `line1
+line2` ,@calculatedFrom(  """ ++ [28040; 24687]%N ++ runes_of_ascii """  )
+// @lengthOf(
+//
+@lengthOf( Foo
+    ) @calculatedFrom( ""abc""
+)
+    u64 zchar
+// @lengthOf(
+// trailing space 
+,
+    match body as
+    body {
+0 :
+    charz ""packet"": charz , 0123456789 : repeatCount
+    //	t
+    , ""\" ++ [233]%N ++ runes_of_ascii """	:  Foo}
+    ,}
+packet
+    u128
+    {
+    //x
+    u8x `two words`// trailing space 
+,
+} packet options1
+    { @calculatedFrom( """"
+) repeat  Foo metadata
+, @tag(42	) f32a
+uint8x `u8 x,` , crc , @leftPad (
+    // `tick` ""quote"" 'q'
+    '\x00'
+    )
+    @lengthOf(pack //
+)
+    @calculatedFrom( """ ++ [28040; 24687]%N ++ runes_of_ascii """  )
+    // a // b
+    Pad  @lengthOf( uint8x )  ,
+repeat
+u { uint8x
+    packetx	, chars
+    @calculatedFrom( ""x y"" ) , repeat
+    Header
+{char[4294967296  ] // trailing space 
+i64_, tag {
+    string
+msg_type@calculatedFrom(
+""a\\""
+) , }, f32a o`100% of %d`
+    ,
+    } ,} // c
+, char[ 7]f32a , string charz ,
+} MetaData chars { zchar[3 //	t
+] _x, falsey u8x
+    /// triple
+    , char[ 255 ]
+    matchKey , uint32 charz
+//
+// " ++ [27880; 37322]%N ++ runes_of_ascii "
+,float32 Logon , u  MetaDataX  ,} options { Pad
+=// packet A { u8 x, }
+' ' ;  }")).
+Eval vm_compute in ("<<<M720>>>" ++ check (runes_of_ascii "MetaData  repeatCount{
+}  root
+//x
+// 50% %s
+packet
+A {@tag( // @lengthOf(
+0) @tag( 10	)
+    match metadata as
+tag {
+007 : u [ 10 , ""a\\""
+    , ""a\""b"" , 00 , 255
+    , ""it's""
+    , 3
+    ] :
+    f32a  } ,char[
+    // c
+    0123456789 ] int , }
+    packet trueish{ float { zchar[ 00]MetaDataX @lengthOf(leftPad ) `it's`,}
+// @lengthOf(
+// `tick` ""quote"" 'q'
+,
+}
+")).
+Eval vm_compute in ("<<<T720>>>" ++ terms [mkTok 37 "MetaData" 1 0 false; mkTok 42 "repeatCount" 1 10 false; mkTok 2 "{" 1 21 false; mkTok 3 "}" 2 0 false; mkTok 34 "root" 2 3 false; mkTok 44 "//x" 3 0 true; mkTok 44 "// 50% %s" 4 0 true; mkTok 35 "packet" 5 0 false; mkTok 42 "A" 6 0 false; mkTok 2 "{" 6 2 false; mkTok 9 "@tag(" 6 3 false; mkTok 44 "// @lengthOf(" 6 9 true; mkTok 30 "0" 7 0 false; mkTok 6 ")" 7 1 false; mkTok 9 "@tag(" 7 3 false; mkTok 30 "10" 7 9 false; mkTok 6 ")" 7 12 false; mkTok 38 "match" 8 4 false; mkTok 42 "metadata" 8 10 false; mkTok 17 "as" 8 19 false; mkTok 42 "tag" 9 0 false; mkTok 2 "{" 9 4 false; mkTok 30 "007" 10 0 false; mkTok 39 ":" 10 4 false; mkTok 42 "u" 10 6 false; mkTok 18 "[" 10 8 false; mkTok 30 "10" 10 10 false; mkTok 40 "," 10 13 false; mkTok 31 """a\\""" 10 15 false; mkTok 40 "," 11 4 false; mkTok 31 """a\""b""" 11 6 false; mkTok 40 "," 11 13 false; mkTok 30 "00" 11 15 false; mkTok 40 "," 11 18 false; mkTok 30 "255" 11 20 false; mkTok 40 "," 12 4 false; mkTok 31 """it's""" 12 6 false; mkTok 40 "," 13 4 false; mkTok 30 "3" 13 6 false; mkTok 13 "]" 14 4 false; mkTok 39 ":" 14 6 false; mkTok 42 "f32a" 15 4 false; mkTok 3 "}" 15 10 false; mkTok 40 "," 15 12 false; mkTok 12 "char[" 15 13 false; mkTok 44 "// c" 16 4 true; mkTok 30 "0123456789" 17 4 false; mkTok 13 "]" 17 15 false; mkTok 42 "int" 17 17 false; mkTok 40 "," 17 21 false; mkTok 3 "}" 17 23 false; mkTok 35 "packet" 18 4 false; mkTok 42 "trueish" 18 11 false; mkTok 2 "{" 18 18 false; mkTok 42 "float" 18 20 false; mkTok 2 "{" 18 26 false; mkTok 14 "zchar[" 18 28 false; mkTok 30 "00" 18 35 false; mkTok 13 "]" 18 37 false; mkTok 42 "MetaDataX" 18 38 false; mkTok 7 "@lengthOf(" 18 48 false; mkTok 42 "leftPad" 18 58 false; mkTok 6 ")" 18 66 false; mkTok 43 "`it's`" 18 68 false; mkTok 40 "," 18 74 false; mkTok 3 "}" 18 75 false; mkTok 44 "// @lengthOf(" 19 0 true; mkTok 44 "// `tick` ""quote"" 'q'" 20 0 true; mkTok 40 "," 21 0 false; mkTok 3 "}" 22 0 false; mkTok 0 "<EOF>" 23 0 false] (mkPacket (mkPtok 37 "MetaData" 1 0 0) (Some (mkPtok 3 "}" 22 0 69)) [(DMeta (mkMetaDef (mkSpan (mkPtok 37 "MetaData" 1 0 0) (mkPtok 3 "}" 2 0 3)) (mkPtok 37 "MetaData" 1 0 0) (mkPtok 42 "repeatCount" 1 10 1) (mkPtok 2 "{" 1 21 2) [] (mkPtok 3 "}" 2 0 3))); (DPacket (mkPacketDef (mkSpan (mkPtok 34 "root" 2 3 4) (mkPtok 3 "}" 17 23 50)) (Some (mkPtok 34 "root" 2 3 4)) (mkPtok 35 "packet" 5 0 7) (mkPtok 42 "A" 6 0 8) (mkPtok 2 "{" 6 2 9) [(mkFieldWithAttr (mkSpan (mkPtok 9 "@tag(" 6 3 10) (mkPtok 40 "," 15 12 43)) [(FATag (mkSpan (mkPtok 9 "@tag(" 6 3 10) (mkPtok 6 ")" 7 1 13)) (mkTagAttr (mkSpan (mkPtok 9 "@tag(" 6 3 10) (mkPtok 6 ")" 7 1 13)) (mkPtok 9 "@tag(" 6 3 10) (mkPtok 30 "0" 7 0 12) (mkPtok 6 ")" 7 1 13))); (FATag (mkSpan (mkPtok 9 "@tag(" 7 3 14) (mkPtok 6 ")" 7 12 16)) (mkTagAttr (mkSpan (mkPtok 9 "@tag(" 7 3 14) (mkPtok 6 ")" 7 12 16)) (mkPtok 9 "@tag(" 7 3 14) (mkPtok 30 "10" 7 9 15) (mkPtok 6 ")" 7 12 16)))] (MatchField (mkSpan (mkPtok 38 "match" 8 4 17) (mkPtok 40 "," 15 12 43)) (mkMatchFieldDecl (mkSpan (mkPtok 38 "match" 8 4 17) (mkPtok 3 "}" 15 10 42)) (mkPtok 38 "match" 8 4 17) (mkPtok 42 "metadata" 8 10 18) (mkPtok 17 "as" 8 19 19) (mkPtok 42 "tag" 9 0 20) (mkPtok 2 "{" 9 4 21) [(mkMatchPair (mkSpan (mkPtok 30 "007" 10 0 22) (mkPtok 42 "u" 10 6 24)) (MKDigits (mkPtok 30 "007" 10 0 22)) (mkPtok 39 ":" 10 4 23) (mkPtok 42 "u" 10 6 24) None); (mkMatchPair (mkSpan (mkPtok 18 "[" 10 8 25) (mkPtok 42 "f32a" 15 4 41)) (MKList (mkKeyList (mkSpan (mkPtok 18 "[" 10 8 25) (mkPtok 13 "]" 14 4 39)) (mkPtok 18 "[" 10 8 25) (mkPtok 30 "10" 10 10 26) [((mkPtok 40 "," 10 13 27), (mkPtok 31 """a\\""" 10 15 28)); ((mkPtok 40 "," 11 4 29), (mkPtok 31 """a\""b""" 11 6 30)); ((mkPtok 40 "," 11 13 31), (mkPtok 30 "00" 11 15 32)); ((mkPtok 40 "," 11 18 33), (mkPtok 30 "255" 11 20 34)); ((mkPtok 40 "," 12 4 35), (mkPtok 31 """it's""" 12 6 36)); ((mkPtok 40 "," 13 4 37), (mkPtok 30 "3" 13 6 38))] (mkPtok 13 "]" 14 4 39))) (mkPtok 39 ":" 14 6 40) (mkPtok 42 "f32a" 15 4 41) None)] (mkPtok 3 "}" 15 10 42)) (mkPtok 40 "," 15 12 43))); (mkFieldWithAttr (mkSpan (mkPtok 12 "char[" 15 13 44) (mkPtok 40 "," 17 21 49)) [] (MetaField (mkSpan (mkPtok 12 "char[" 15 13 44) (mkPtok 40 "," 17 21 49)) None (mkMetaDecl (mkSpan (mkPtok 12 "char[" 15 13 44) (mkPtok 40 "," 17 21 49)) (TyFixed (mkSpan (mkPtok 12 "char[" 15 13 44) (mkPtok 13 "]" 17 15 47)) (mkFixedString (mkSpan (mkPtok 12 "char[" 15 13 44) (mkPtok 13 "]" 17 15 47)) (mkPtok 12 "char[" 15 13 44) (mkPtok 30 "0123456789" 17 4 46) (mkPtok 13 "]" 17 15 47))) (mkPtok 42 "int" 17 17 48) None (mkPtok 40 "," 17 21 49))))] (mkPtok 3 "}" 17 23 50))); (DPacket (mkPacketDef (mkSpan (mkPtok 35 "packet" 18 4 51) (mkPtok 3 "}" 22 0 69)) None (mkPtok 35 "packet" 18 4 51) (mkPtok 42 "trueish" 18 11 52) (mkPtok 2 "{" 18 18 53) [(mkFieldWithAttr (mkSpan (mkPtok 42 "float" 18 20 54) (mkPtok 40 "," 21 0 68)) [] (InerObjectField (mkSpan (mkPtok 42 "float" 18 20 54) (mkPtok 40 "," 21 0 68)) None (InerObjectDecl (mkSpan (mkPtok 42 "float" 18 20 54) (mkPtok 3 "}" 18 75 65)) (mkPtok 42 "float" 18 20 54) (mkPtok 2 "{" 18 26 55) [(LengthField (mkSpan (mkPtok 14 "zchar[" 18 28 56) (mkPtok 40 "," 18 74 64)) (mkLengthFieldDecl (mkSpan (mkPtok 14 "zchar[" 18 28 56) (mkPtok 40 "," 18 74 64)) (Some (TyFixed (mkSpan (mkPtok 14 "zchar[" 18 28 56) (mkPtok 13 "]" 18 37 58)) (mkFixedString (mkSpan (mkPtok 14 "zchar[" 18 28 56) (mkPtok 13 "]" 18 37 58)) (mkPtok 14 "zchar[" 18 28 56) (mkPtok 30 "00" 18 35 57) (mkPtok 13 "]" 18 37 58)))) (mkPtok 42 "MetaDataX" 18 38 59) (mkLengthOf (mkSpan (mkPtok 7 "@lengthOf(" 18 48 60) (mkPtok 6 ")" 18 66 62)) (mkPtok 7 "@lengthOf(" 18 48 60) (mkPtok 42 "leftPad" 18 58 61) (mkPtok 6 ")" 18 66 62)) (Some (mkPtok 43 "`it's`" 18 68 63)) (mkPtok 40 "," 18 74 64)))] (mkPtok 3 "}" 18 75 65)) (mkPtok 40 "," 21 0 68)))] (mkPtok 3 "}" 22 0 69)))])).
+Eval vm_compute in ("<<<M752>>>" ++ check (runes_of_ascii "packet falsey { }
+MetaData
+Logon
+    //
+    { }  packet//	t
+x_y_z
+    {
+} packet repeatCount {
+    lengthOf
+@calculatedFrom( """ ++ [28040; 24687]%N ++ runes_of_ascii """) `u8 x,`
+, }options { Z9_= false ;
+Foo=
+float64  ; }
+// packet A { u8 x, }
+")).
+Eval vm_compute in ("<<<M784>>>" ++ check (runes_of_ascii "root packet  asx { @lengthOf( o ) @rightPad(
+'0'
+) uint32 len`it's`
+    ,	} options
+{f32a =
+string ;
+    rootA =
+""\" ++ [233]%N ++ runes_of_ascii """ crc = '\x00' ;
+} options { tag = zchar[
+0123456789
+] // packet A { u8 x, }
+; metadata=
+""CRC32"" ;	As  = """ ++ [233]%N ++ runes_of_ascii "t" ++ [233]%N ++ runes_of_ascii """ ; // c
+string_
+    = uint32 ;
+    }
+//x
+")).
+Eval vm_compute in ("<<<M816>>>" ++ check (runes_of_ascii "packet	zchar
+{} MetaData
+    T { i64
+A ,
+    // @lengthOf(
+    i32 u
+, o Packet , }
+")).
+Eval vm_compute in ("<<<M848>>>" ++ check (runes_of_ascii "
+packet crc{ charz @lengthOf( Header )
+, }")).
+Eval vm_compute in ("<<<M880>>>" ++ check (runes_of_ascii "
+")).
+Eval vm_compute in ("<<<M912>>>" ++ check (runes_of_ascii "packet x_y_z { @tag( 7 ) zchar[ 255 ]
+calculatedFrom
+    , zchar[  1
+    ]	Header
+    `u8 x,`, @lengthOf(falsey)u16 u8x,@lengthOf(
+    chars ) charz @calculatedFrom(""`tick`"" ) `" ++ [233]%N ++ runes_of_ascii "`,
+    } MetaData
+    roots{ packetx
+msg_type `" ++ [233]%N ++ runes_of_ascii "` // `tick` ""quote"" 'q'
+,
+    _x stringy
+    // trailing space 
+    ,	zchar uint8x,}")).
+Eval vm_compute in ("<<<M944>>>" ++ check (runes_of_ascii "packet string_ { i8 matchKey`
+`// 50% %s
+, //x
+}MetaData // packet A { u8 x, }
+repeatCount { char[ 007  ] uint8x `{ , }`, } packet A
+{
+    T {
+    // trailing space 
+    uint8 len @lengthOf( packetx
+    ) // c
+, tag `u8 x,`
+, float32 BodyLength , crc @calculatedFrom( // packet A { u8 x, }
+""""
+    ) ,} ,}
+")).
+Eval vm_compute in ("<<<T944>>>" ++ terms [mkTok 35 "packet" 1 0 false; mkTok 42 "string_" 1 7 false; mkTok 2 "{" 1 15 false; mkTok 24 "i8" 1 17 false; mkTok 42 "matchKey" 1 20 false; mkTok 43 (string_of_bytes [96; 10; 96]%N) 1 28 false; mkTok 44 "// 50% %s" 2 1 true; mkTok 40 "," 3 0 false; mkTok 44 "//x" 3 2 true; mkTok 3 "}" 4 0 false; mkTok 37 "MetaData" 4 1 false; mkTok 44 "// packet A { u8 x, }" 4 10 true; mkTok 42 "repeatCount" 5 0 false; mkTok 2 "{" 5 12 false; mkTok 12 "char[" 5 14 false; mkTok 30 "007" 5 20 false; mkTok 13 "]" 5 25 false; mkTok 42 "uint8x" 5 27 false; mkTok 43 "`{ , }`" 5 34 false; mkTok 40 "," 5 41 false; mkTok 3 "}" 5 43 false; mkTok 35 "packet" 5 45 false; mkTok 42 "A" 5 52 false; mkTok 2 "{" 6 0 false; mkTok 42 "T" 7 4 false; mkTok 2 "{" 7 6 false; mkTok 44 "// trailing space " 8 4 true; mkTok 20 "uint8" 9 4 false; mkTok 42 "len" 9 10 false; mkTok 7 "@lengthOf(" 9 14 false; mkTok 42 "packetx" 9 25 false; mkTok 6 ")" 10 4 false; mkTok 44 "// c" 10 6 true; mkTok 40 "," 11 0 false; mkTok 42 "tag" 11 2 false; mkTok 43 "`u8 x,`" 11 6 false; mkTok 40 "," 12 0 false; mkTok 28 "float32" 12 2 false; mkTok 42 "BodyLength" 12 10 false; mkTok 40 "," 12 21 false; mkTok 42 "crc" 12 23 false; mkTok 5 "@calculatedFrom(" 12 27 false; mkTok 44 "// packet A { u8 x, }" 12 44 true; mkTok 31 """""" 13 0 false; mkTok 6 ")" 14 4 false; mkTok 40 "," 14 6 false; mkTok 3 "}" 14 7 false; mkTok 40 "," 14 9 false; mkTok 3 "}" 14 10 false; mkTok 0 "<EOF>" 15 0 false] (mkPacket (mkPtok 35 "packet" 1 0 0) (Some (mkPtok 3 "}" 14 10 48)) [(DPacket (mkPacketDef (mkSpan (mkPtok 35 "packet" 1 0 0) (mkPtok 3 "}" 4 0 9)) None (mkPtok 35 "packet" 1 0 0) (mkPtok 42 "string_" 1 7 1) (mkPtok 2 "{" 1 15 2) [(mkFieldWithAttr (mkSpan (mkPtok 24 "i8" 1 17 3) (mkPtok 40 "," 3 0 7)) [] (MetaField (mkSpan (mkPtok 24 "i8" 1 17 3) (mkPtok 40 "," 3 0 7)) None (mkMetaDecl (mkSpan (mkPtok 24 "i8" 1 17 3) (mkPtok 40 "," 3 0 7)) (TyBasic (mkSpan (mkPtok 24 "i8" 1 17 3) (mkPtok 24 "i8" 1 17 3)) (mkBasicType (mkSpan (mkPtok 24 "i8" 1 17 3) (mkPtok 24 "i8" 1 17 3)) (mkPtok 24 "i8" 1 17 3))) (mkPtok 42 "matchKey" 1 20 4) (Some (mkPtok 43 (string_of_bytes [96; 10; 96]%N) 1 28 5)) (mkPtok 40 "," 3 0 7))))] (mkPtok 3 "}" 4 0 9))); (DMeta (mkMetaDef (mkSpan (mkPtok 37 "MetaData" 4 1 10) (mkPtok 3 "}" 5 43 20)) (mkPtok 37 "MetaData" 4 1 10) (mkPtok 42 "repeatCount" 5 0 12) (mkPtok 2 "{" 5 12 13) [(MIDecl (mkMetaDecl (mkSpan (mkPtok 12 "char[" 5 14 14) (mkPtok 40 "," 5 41 19)) (TyFixed (mkSpan (mkPtok 12 "char[" 5 14 14) (mkPtok 13 "]" 5 25 16)) (mkFixedString (mkSpan (mkPtok 12 "char[" 5 14 14) (mkPtok 13 "]" 5 25 16)) (mkPtok 12 "char[" 5 14 14) (mkPtok 30 "007" 5 20 15) (mkPtok 13 "]" 5 25 16))) (mkPtok 42 "uint8x" 5 27 17) (Some (mkPtok 43 "`{ , }`" 5 34 18)) (mkPtok 40 "," 5 41 19)))] (mkPtok 3 "}" 5 43 20))); (DPacket (mkPacketDef (mkSpan (mkPtok 35 "packet" 5 45 21) (mkPtok 3 "}" 14 10 48)) None (mkPtok 35 "packet" 5 45 21) (mkPtok 42 "A" 5 52 22) (mkPtok 2 "{" 6 0 23) [(mkFieldWithAttr (mkSpan (mkPtok 42 "T" 7 4 24) (mkPtok 40 "," 14 9 47)) [] (InerObjectField (mkSpan (mkPtok 42 "T" 7 4 24) (mkPtok 40 "," 14 9 47)) None (InerObjectDecl (mkSpan (mkPtok 42 "T" 7 4 24) (mkPtok 3 "}" 14 7 46)) (mkPtok 42 "T" 7 4 24) (mkPtok 2 "{" 7 6 25) [(LengthField (mkSpan (mkPtok 20 "uint8" 9 4 27) (mkPtok 40 "," 11 0 33)) (mkLengthFieldDecl (mkSpan (mkPtok 20 "uint8" 9 4 27) (mkPtok 40 "," 11 0 33)) (Some (TyBasic (mkSpan (mkPtok 20 "uint8" 9 4 27) (mkPtok 20 "uint8" 9 4 27)) (mkBasicType (mkSpan (mkPtok 20 "uint8" 9 4 27) (mkPtok 20 "uint8" 9 4 27)) (mkPtok 20 "uint8" 9 4 27)))) (mkPtok 42 "len" 9 10 28) (mkLengthOf (mkSpan (mkPtok 7 "@lengthOf(" 9 14 29) (mkPtok 6 ")" 10 4 31)) (mkPtok 7 "@lengthOf(" 9 14 29) (mkPtok 42 "packetx" 9 25 30) (mkPtok 6 ")" 10 4 31)) None (mkPtok 40 "," 11 0 33))); (ObjectField (mkSpan (mkPtok 42 "tag" 11 2 34) (mkPtok 40 "," 12 0 36)) None (mkPtok 42 "tag" 11 2 34) None (Some (mkPtok 43 "`u8 x,`" 11 6 35)) (mkPtok 40 "," 12 0 36)); (MetaField (mkSpan (mkPtok 28 "float32" 12 2 37) (mkPtok 40 "," 12 21 39)) None (mkMetaDecl (mkSpan (mkPtok 28 "float32" 12 2 37) (mkPtok 40 "," 12 21 39)) (TyBasic (mkSpan (mkPtok 28 "float32" 12 2 37) (mkPtok 28 "float32" 12 2 37)) (mkBasicType (mkSpan (mkPtok 28 "float32" 12 2 37) (mkPtok 28 "float32" 12 2 37)) (mkPtok 28 "float32" 12 2 37))) (mkPtok 42 "BodyLength" 12 10 38) None (mkPtok 40 "," 12 21 39))); (CheckSumField (mkSpan (mkPtok 42 "crc" 12 23 40) (mkPtok 40 "," 14 6 45)) (mkChecksumFieldDecl (mkSpan (mkPtok 42 "crc" 12 23 40) (mkPtok 40 "," 14 6 45)) None (mkPtok 42 "crc" 12 23 40) (mkCalculatedFrom (mkSpan (mkPtok 5 "@calculatedFrom(" 12 27 41) (mkPtok 6 ")" 14 4 44)) (mkPtok 5 "@calculatedFrom(" 12 27 41) (mkPtok 31 """""" 13 0 43) (mkPtok 6 ")" 14 4 44)) None (mkPtok 40 "," 14 6 45)))] (mkPtok 3 "}" 14 7 46)) (mkPtok 40 "," 14 9 47)))] (mkPtok 3 "}" 14 10 48)))])).
+Eval vm_compute in ("<<<M976>>>" ++ check (runes_of_ascii "MetaData uint8x {
+} // " ++ [27880; 37322]%N)).
+Eval vm_compute in ("<<<M1008>>>" ++ check (runes_of_ascii "packet asx
+{
+@calculatedFrom(
+""" ++ [28040; 24687]%N ++ runes_of_ascii """ )
+    u8 Packet @lengthOf(u128
+)/// triple
+,i64	lengthOf @calculatedFrom( ""it's"" )
+,
+@leftPad // packet A { u8 x, }
+( ) Foo
+    @lengthOf( msg_type ) ,
+@lengthOf(
+leftPad // c
+)tag`" ++ [233]%N ++ runes_of_ascii "`
+    ,
+} packet A {zchar[255] len @lengthOf(
+matchKey ) ,
+@calculatedFrom( ""CRC32"") Foo {	int8 /// triple
+asx @lengthOf( metadata ) `u8 x,` ,} , }
+MetaData len { // @lengthOf(
+} 	 ")).
+Eval vm_compute in ("<<<M1040>>>" ++ check (runes_of_ascii "
+root	packet
+chars
+{ match
+    u as tag { 1 :	u//x
+, [	10 ]
+    : A
+    , ""`tick`"":BodyLength , }// " ++ [27880; 37322]%N ++ runes_of_ascii "
+,repeat u8x
+{ i16 // a // b
+u
+@lengthOf(
+i64_ ) , string
+    /// triple
+    Packet , } ,
+}
+")).
+Eval vm_compute in ("<<<M1072>>>" ++ check (runes_of_ascii "root
+    // @lengthOf(
+    packet falsey
+{ @leftPad ( )repeat T
+    //	t
+    { x_y_z @calculatedFrom( ""\" ++ [233]%N ++ runes_of_ascii """)
+// a // b
+/// triple
+, }
+,
+} packet
+//	t
+// " ++ [128512]%N ++ runes_of_ascii " emoji
+matchKey{ @tag(7 )	leftPad @calculatedFrom( ""\" ++ [233]%N ++ runes_of_ascii """ ) `crlf
+line`,
+    @calculatedFrom( ""{,}""
+    ) leftPad u128 , // packet A { u8 x, }
+@calculatedFrom(""""  )@calculatedFrom(""a\\"" ) uint32 x`" ++ [28040; 24687; 31867; 22411]%N ++ runes_of_ascii "` ,
+    // packet A { u8 x, }
+    @tag(  0123456789 )// 50% %s
+@tag( 007) @rightPad( '0'
+) repeat trueish ,  stringy // packet A { u8 x, }
+@lengthOf( stringy ) `line1
+line2`,
+    @tag( 255)repeat int8
+repeatCount ,} //x
+MetaData
+repeatCount { // @lengthOf(
+char[ 0123456789] Foo
+`{ , }`, }
+")).
+Eval vm_compute in ("<<<M1104>>>" ++ check (runes_of_ascii "packet chars {	i8i8 @calculatedFrom(
+// " ++ [27880; 37322]%N ++ runes_of_ascii "
+// `tick` ""quote"" 'q'
+""a\""b""
+) `
+` , @lengthOf(Foo
+    ) @lengthOf( roots)@tag( 255 ) zchar[ 7
+] rootA@calculatedFrom(	"""")`" ++ [28040; 24687; 31867; 22411]%N ++ runes_of_ascii "` ,
+    }
+// packet A { u8 x, }
+//x
+packet u128 {
+match calculatedFrom as i64_ {	007
+    : // @lengthOf(
+charz 1	: u8x, 00 : // @lengthOf(
+stringy
+""1""	: roots 42
+    :
+Packet	, }
+    ,
+// " ++ [27880; 37322]%N ++ runes_of_ascii "
+//	t
+a1
+    , u``,
+    @calculatedFrom( ""`tick`"" ) @leftPad  (
+    /// triple
+    '0' )	repeat char[ 1]	x
+,
+    }
+    options {Z9_
+    =
+'0'	;
+    }
+")).
+Eval vm_compute in ("<<<M1136>>>" ++ check (runes_of_ascii "// @lengthOf(
+options {
+    T = ""{,}""
+    ; Logon	=
+    // packet A { u8 x, }
+    10 }	root packet chars { string A `crlf
+line` , }
+")).
+Eval vm_compute in ("<<<M1168>>>" ++ check (runes_of_ascii "options {}
+packet
+Pad  { }
+root	packet i64_ { repeat char[ 1	] Z9_
+, }
+")).
+Eval vm_compute in ("<<<T1168>>>" ++ terms [mkTok 1 "options" 1 0 false; mkTok 2 "{" 1 8 false; mkTok 3 "}" 1 9 false; mkTok 35 "packet" 2 0 false; mkTok 42 "Pad" 3 0 false; mkTok 2 "{" 3 5 false; mkTok 3 "}" 3 7 false; mkTok 34 "root" 4 0 false; mkTok 35 "packet" 4 5 false; mkTok 42 "i64_" 4 12 false; mkTok 2 "{" 4 17 false; mkTok 36 "repeat" 4 19 false; mkTok 12 "char[" 4 26 false; mkTok 30 "1" 4 32 false; mkTok 13 "]" 4 34 false; mkTok 42 "Z9_" 4 36 false; mkTok 40 "," 5 0 false; mkTok 3 "}" 5 2 false; mkTok 0 "<EOF>" 6 0 false] (mkPacket (mkPtok 1 "options" 1 0 0) (Some (mkPtok 3 "}" 5 2 17)) [(DOption (mkOptionDef (mkSpan (mkPtok 1 "options" 1 0 0) (mkPtok 3 "}" 1 9 2)) (mkPtok 1 "options" 1 0 0) (mkPtok 2 "{" 1 8 1) [] (mkPtok 3 "}" 1 9 2))); (DPacket (mkPacketDef (mkSpan (mkPtok 35 "packet" 2 0 3) (mkPtok 3 "}" 3 7 6)) None (mkPtok 35 "packet" 2 0 3) (mkPtok 42 "Pad" 3 0 4) (mkPtok 2 "{" 3 5 5) [] (mkPtok 3 "}" 3 7 6))); (DPacket (mkPacketDef (mkSpan (mkPtok 34 "root" 4 0 7) (mkPtok 3 "}" 5 2 17)) (Some (mkPtok 34 "root" 4 0 7)) (mkPtok 35 "packet" 4 5 8) (mkPtok 42 "i64_" 4 12 9) (mkPtok 2 "{" 4 17 10) [(mkFieldWithAttr (mkSpan (mkPtok 36 "repeat" 4 19 11) (mkPtok 40 "," 5 0 16)) [] (MetaField (mkSpan (mkPtok 36 "repeat" 4 19 11) (mkPtok 40 "," 5 0 16)) (Some (mkPtok 36 "repeat" 4 19 11)) (mkMetaDecl (mkSpan (mkPtok 12 "char[" 4 26 12) (mkPtok 40 "," 5 0 16)) (TyFixed (mkSpan (mkPtok 12 "char[" 4 26 12) (mkPtok 13 "]" 4 34 14)) (mkFixedString (mkSpan (mkPtok 12 "char[" 4 26 12) (mkPtok 13 "]" 4 34 14)) (mkPtok 12 "char[" 4 26 12) (mkPtok 30 "1" 4 32 13) (mkPtok 13 "]" 4 34 14))) (mkPtok 42 "Z9_" 4 36 15) None (mkPtok 40 "," 5 0 16))))] (mkPtok 3 "}" 5 2 17)))])).
+Eval vm_compute in ("<<<M1200>>>" ++ check (runes_of_ascii " // @lengthOf(")).
+Eval vm_compute in ("<<<M1232>>>" ++ check (runes_of_ascii "root
+packet T { @leftPad // " ++ [128512]%N ++ runes_of_ascii " emoji
+( '0' ) repeat leftPad
+    {  char[
+3	]
+    roots,}
+, }
+    packet _x
+    {
+    int32  int
+@calculatedFrom(""\n""  ) , }
+")).
+Eval vm_compute in ("<<<M1264>>>" ++ check (runes_of_ascii "
+options{ MetaDataX
+= 4294967296 } MetaData
+    body{zchar[ 00
+]Logon , //	t
+}
+")).
+Eval vm_compute in ("<<<M1296>>>" ++ check (runes_of_ascii "
+packet
+    falsey { }
+packet x { } packet repeatCount { @tag(
+    // 50% %s
+    007 ) @lengthOf( body
+) @lengthOf( Z9_  ) repeat T  {repeat
+    int {	char[] lengthOf @calculatedFrom( ""// no comment"" )
+    ,
+} ,
+i8 tag , repeat char packetx // packet A { u8 x, }
+`// not a comment`
+,
+} ,lengthOf @lengthOf(  T ), @calculatedFrom(
+""{,}"" )
+@calculatedFrom( ""`tick`"" )@tag(
+    65535 ) zchar[ 0123456789 ] Z9_
+@lengthOf(
+stringy )`tab	here`
+    , }
+//x
+")).
+Eval vm_compute in ("<<<M1328>>>" ++ check (runes_of_ascii "
+root packet x_y_z {
+    @leftPad ( )// @lengthOf(
+trueish
+a1 , repeat int64
+A , //	t
+@lengthOf(trueish)trueish @lengthOf(  falsey ) ``,i8i8 { match
+    x as// packet A { u8 x, }
+x{	""`tick`"" : Logon ,} ,
+// `tick` ""quote"" 'q'
+// packet A { u8 x, }
+uint16 o// " ++ [128512]%N ++ runes_of_ascii " emoji
+,
+i8i8 {_x {
+string
+    zchar ,uint8
+    matchKey
+`a\` , }	,
+    len
+    Pad , match u8x as
+    A { 3 :lengthOf
+, [ //
+65535 ,
+""""
+    ,
+// " ++ [27880; 37322]%N ++ runes_of_ascii "
+/// triple
+255 , ""x y""
+    ] : x  ,
+    ""packet"" : //
+x_y_z
+    42 : a1
+    [
+    ""a	b""	]: pack, } , f32 uint8x @calculatedFrom( ""`tick`"")
+    `" ++ [233]%N ++ runes_of_ascii "` , }	,// `tick` ""quote"" 'q'
+string i8i8@lengthOf(chars
+    )// " ++ [128512]%N ++ runes_of_ascii " emoji
+,} ,
+@leftPad ( ) repeat uint64 lengthOf ,	i8i8 { match crc as a1{""packet"" :int, } ,
+    trueish
+    {zchar[ // a // b
+255 ]
+float , len  {repeat Packet Pad `" ++ [233]%N ++ runes_of_ascii "` ,
+string_ msg_type, } , string Pad``
+,repeat char[ 0 ]float `it's`  ,
+} ,repeat string Header	`{ , }` ,repeat zchar[
+0123456789  ]o ,} , i64_ @calculatedFrom(// @lengthOf(
+""it's"" )`u8 x,`
+,@calculatedFrom(""// no comment""	)	rootA{ char[ 4294967296] repeatCount, } , } options { Pad =
+"""" ; body=// " ++ [128512]%N ++ runes_of_ascii " emoji
+uint8 ; packetx
+    = '0' // " ++ [128512]%N ++ runes_of_ascii " emoji
+; crc
+// @lengthOf(
+// @lengthOf(
+= ""x y"" ; }
+")).
+Eval vm_compute in ("<<<M1360>>>" ++ check (runes_of_ascii "// @lengthOf(
+packet x { }packet
+falsey {
+    repeat char[ //	t
+65535 ] roots `doc` , }
+")).
+Eval vm_compute in ("<<<M1392>>>" ++ check (runes_of_ascii "packet repeatCount //	t
+{@calculatedFrom( ""a\""b"" )
+int16
+A, }options{	u8x =
+' '	;
+}")).
+Eval vm_compute in ("<<<T1392>>>" ++ terms [mkTok 35 "packet" 1 0 false; mkTok 42 "repeatCount" 1 7 false; mkTok 44 (string_of_bytes [47; 47; 9; 116]%N) 1 19 true; mkTok 2 "{" 2 0 false; mkTok 5 "@calculatedFrom(" 2 1 false; mkTok 31 """a\""b""" 2 18 false; mkTok 6 ")" 2 25 false; mkTok 25 "int16" 3 0 false; mkTok 42 "A" 4 0 false; mkTok 40 "," 4 1 false; mkTok 3 "}" 4 3 false; mkTok 1 "options" 4 4 false; mkTok 2 "{" 4 11 false; mkTok 42 "u8x" 4 13 false; mkTok 4 "=" 4 17 false; mkTok 33 "' '" 5 0 false; mkTok 41 ";" 5 4 false; mkTok 3 "}" 6 0 false; mkTok 0 "<EOF>" 6 1 false] (mkPacket (mkPtok 35 "packet" 1 0 0) (Some (mkPtok 3 "}" 6 0 17)) [(DPacket (mkPacketDef (mkSpan (mkPtok 35 "packet" 1 0 0) (mkPtok 3 "}" 4 3 10)) None (mkPtok 35 "packet" 1 0 0) (mkPtok 42 "repeatCount" 1 7 1) (mkPtok 2 "{" 2 0 3) [(mkFieldWithAttr (mkSpan (mkPtok 5 "@calculatedFrom(" 2 1 4) (mkPtok 40 "," 4 1 9)) [(FACalculatedFrom (mkSpan (mkPtok 5 "@calculatedFrom(" 2 1 4) (mkPtok 6 ")" 2 25 6)) (mkCalculatedFrom (mkSpan (mkPtok 5 "@calculatedFrom(" 2 1 4) (mkPtok 6 ")" 2 25 6)) (mkPtok 5 "@calculatedFrom(" 2 1 4) (mkPtok 31 """a\""b""" 2 18 5) (mkPtok 6 ")" 2 25 6)))] (MetaField (mkSpan (mkPtok 25 "int16" 3 0 7) (mkPtok 40 "," 4 1 9)) None (mkMetaDecl (mkSpan (mkPtok 25 "int16" 3 0 7) (mkPtok 40 "," 4 1 9)) (TyBasic (mkSpan (mkPtok 25 "int16" 3 0 7) (mkPtok 25 "int16" 3 0 7)) (mkBasicType (mkSpan (mkPtok 25 "int16" 3 0 7) (mkPtok 25 "int16" 3 0 7)) (mkPtok 25 "int16" 3 0 7))) (mkPtok 42 "A" 4 0 8) None (mkPtok 40 "," 4 1 9))))] (mkPtok 3 "}" 4 3 10))); (DOption (mkOptionDef (mkSpan (mkPtok 1 "options" 4 4 11) (mkPtok 3 "}" 6 0 17)) (mkPtok 1 "options" 4 4 11) (mkPtok 2 "{" 4 11 12) [(mkOptionDecl (mkSpan (mkPtok 42 "u8x" 4 13 13) (mkPtok 41 ";" 5 4 16)) (mkPtok 42 "u8x" 4 13 13) (mkPtok 4 "=" 4 17 14) (VPaddingChar (mkSpan (mkPtok 33 "' '" 5 0 15) (mkPtok 33 "' '" 5 0 15)) (mkPtok 33 "' '" 5 0 15)) (Some (mkPtok 41 ";" 5 4 16)))] (mkPtok 3 "}" 6 0 17)))])).
+Eval vm_compute in ("<<<M1424>>>" ++ check (runes_of_ascii "packet	charz{
+    // a // b
+    @rightPad( )
+    @tag(007
+)
+@tag( 255)
+repeat
+_x {
+crc @lengthOf( u)
+    `doc`	,u16	x , }
+    , match
+    u128 as // " ++ [128512]%N ++ runes_of_ascii " emoji
+As // trailing space 
+{  10
+:
+x_y_z
+,	} , zchar[ 007
+]int @calculatedFrom( """ ++ [233]%N ++ runes_of_ascii "t" ++ [233]%N ++ runes_of_ascii """ ) ,
+match tag as//
+float { // c
+[""" ++ [28040; 24687]%N ++ runes_of_ascii """
+    // " ++ [27880; 37322]%N ++ runes_of_ascii "
+    ,
+""" ++ [28040; 24687]%N ++ runes_of_ascii """] : leftPad , """ ++ [128512]%N ++ runes_of_ascii """ : repeatCount ,
+    10 : stringy , // " ++ [27880; 37322]%N ++ runes_of_ascii "
+""\n"" :msg_type , 1
+    : float , [ ""{,}"" ]  : i64_,} ,
+    @lengthOf( u128 ) @tag( 007  )  match f32a as string_
+    {
+    // `tick` ""quote"" 'q'
+    0:	i8i8 ,} ,
+uint64 falsey ,
+} MetaData Foo
+{u16 T , crc tag
+    , A falsey
+    `{ , }` // `tick` ""quote"" 'q'
+,
+}	packet
+    float {
+}
+    MetaData
+    rootA{ _x x,char[ 10 //x
+]
+options1 , pack x_y_z
+//x
+// trailing space 
+,
+    char[] u128, uint32 Pad
+//x
+//x
+,
+}
+")).
+Eval vm_compute in ("<<<M1456>>>" ++ check (runes_of_ascii "
+packet
+x { packetx  @calculatedFrom(
+    // 50% %s
+    ""1"" ) `{ , }` ,
+repeat u8 packetx	, tag @calculatedFrom(
+""\n"" ) , @lengthOf( len )
+    u16 Header ,
+    } options {
+    u = """ ++ [128512]%N ++ runes_of_ascii """ }MetaData x_y_z{
+float64  lengthOf ,// a // b
+}	root// " ++ [128512]%N ++ runes_of_ascii " emoji
+packet // 50% %s
+BodyLength {  }
+")).
+Eval vm_compute in ("<<<M1488>>>" ++ check (runes_of_ascii "packet roots
+{ } options
+{	len
+= zchar[
+    //
+    42]
+    Packet
+    = // 50% %s
+007  ; pack  = ""a\\""
+;}
+")).
+Eval vm_compute in ("<<<M1520>>>" ++ check (runes_of_ascii "
+packet x {@calculatedFrom(""" ++ [128512]%N ++ runes_of_ascii """ )
+    pack
+    Packet
+,
+uint8x
+{ repeat
+u64
+    zchar , i16 Foo @lengthOf( string_) `doc` , },	}  root packet Foo { }  packet  tag	{
+}packet string_ {
+zchar[ 7 ]
+charz @lengthOf(  packetx ) , } packet matchKey{ }
+")).
+Eval vm_compute in ("<<<M1552>>>" ++ check (runes_of_ascii "  MetaData
+tag{
+    char[]//
+tag ,
+char[4294967296
+]	charz ,	char[
+    007 ]T , rootA o	, }//x
+options
+{Foo
+=
+    '\x00' ; i64_ =255 ; matchKey // `tick` ""quote"" 'q'
+= '\x00' // " ++ [27880; 37322]%N ++ runes_of_ascii "
+;	pack= // c
+""CRC32"";}
+")).
+Eval vm_compute in ("<<<M1584>>>" ++ check (runes_of_ascii "packet// " ++ [128512]%N ++ runes_of_ascii " emoji
+i64_ { matchKey
+//	t
+// c
+@lengthOf(
+string_ // 50% %s
+) , char[ 1
+]
+    int ,  repeat string leftPad // " ++ [128512]%N ++ runes_of_ascii " emoji
+,}options {//	t
+}
+    packet leftPad{ repeat stringy
+falsey `{ , }`	,repeat // " ++ [27880; 37322]%N ++ runes_of_ascii "
+i64
+    Foo , charz
+, i32
+    charz@lengthOf(
+    BodyLength ) , } 	 ")).
+Eval vm_compute in ("<<<M1616>>>" ++ check (runes_of_ascii "options// " ++ [128512]%N ++ runes_of_ascii " emoji
+{msg_type
+=
+u32 }")).
+Eval vm_compute in ("<<<T1616>>>" ++ terms [mkTok 1 "options" 1 0 false; mkTok 44 (string_of_bytes [47; 47; 32; 240; 159; 152; 128; 32; 101; 109; 111; 106; 105]%N) 1 7 true; mkTok 2 "{" 2 0 false; mkTok 42 "msg_type" 2 1 false; mkTok 4 "=" 3 0 false; mkTok 22 "u32" 4 0 false; mkTok 3 "}" 4 4 false; mkTok 0 "<EOF>" 4 5 false] (mkPacket (mkPtok 1 "options" 1 0 0) (Some (mkPtok 3 "}" 4 4 6)) [(DOption (mkOptionDef (mkSpan (mkPtok 1 "options" 1 0 0) (mkPtok 3 "}" 4 4 6)) (mkPtok 1 "options" 1 0 0) (mkPtok 2 "{" 2 0 2) [(mkOptionDecl (mkSpan (mkPtok 42 "msg_type" 2 1 3) (mkPtok 22 "u32" 4 0 5)) (mkPtok 42 "msg_type" 2 1 3) (mkPtok 4 "=" 3 0 4) (VType (mkSpan (mkPtok 22 "u32" 4 0 5) (mkPtok 22 "u32" 4 0 5)) (TyBasic (mkSpan (mkPtok 22 "u32" 4 0 5) (mkPtok 22 "u32" 4 0 5)) (mkBasicType (mkSpan (mkPtok 22 "u32" 4 0 5) (mkPtok 22 "u32" 4 0 5)) (mkPtok 22 "u32" 4 0 5)))) None)] (mkPtok 3 "}" 4 4 6)))])).
+Eval vm_compute in ("<<<M1648>>>" ++ check (runes_of_ascii "options
+    {} root packet
+    int
+    {
+    metadata	lengthOf `say ""hi""` ,
+// " ++ [27880; 37322]%N ++ runes_of_ascii "
+// trailing space 
+@calculatedFrom( ""abc""
+) lengthOf { metadata {
+    u16 matchKey  , match crc as metadata { 10:	Logon ,}
+    , trueish
+@lengthOf( i8i8
+    )	`a\` , repeat i64_ metadata `a\` ,} , repeat tag ,//x
+repeat matchKey
+{ repeat  crc// 50% %s
+falsey
+// `tick` ""quote"" 'q'
+//x
+, repeat T {
+    tag @calculatedFrom(
+""" ++ [128512]%N ++ runes_of_ascii """),
+    // `tick` ""quote"" 'q'
+    } ,
+}
+    , }
+    ,pack	@calculatedFrom(""it's"")
+`it's` //	t
+, }
+")).
+Eval vm_compute in ("<<<M1680>>>" ++ check (runes_of_ascii "
+packet	u { repeat As , @rightPad( '0' ) @rightPad
+(
+' ' ) @rightPad (
+    ' ' )
+    // 50% %s
+    repeat
+f32
+metadata , } packet	MetaDataX
+    { Z9_
+    asx
+,@tag( 3
+    )repeat f32a  Z9_  ,
+//
+// @lengthOf(
+@rightPad ()
+    // packet A { u8 x, }
+    @rightPad ( ' ') tag
+    // c
+    {	uint64 // " ++ [128512]%N ++ runes_of_ascii " emoji
+BodyLength	`
+`
+,},
+}	packet T{ match
+    i64_ as  uint8x {[ ""it's"" ,	7 ] :A , }
+    ,	}")).
+Eval vm_compute in ("<<<M1712>>>" ++ check (runes_of_ascii "MetaData a1 { _x Z9_ `tab	here`  ,
+    //
+    Z9_ string_
+    `u8 x,`  ,crc
+    stringy , string packetx	, }
+")).
+Eval vm_compute in ("<<<M1744>>>" ++ check (runes_of_ascii "root packet
+chars {	A `u8 x,`
+,repeat metadata
+    //	t
+    { zchar[ 10 ] Packet
+    `a\` , i32 MetaDataX , options1
+@lengthOf(
+Pad
+    //	t
+    ),} ,
+@leftPad (' ' ) options1 @lengthOf( Pad // trailing space 
+)
+, match msg_type
+    as u
+/// triple
+//x
+{ 3
+    : chars , }
+, @tag( 255  ) char[]
+calculatedFrom
+, string o @calculatedFrom( ""a\\"" )
+    , zchar[	0123456789
+    ]packetx
+@lengthOf(BodyLength ) , repeat packetx ,repeat zchar[ 0123456789 ]repeatCount ,
+    } root // " ++ [27880; 37322]%N ++ runes_of_ascii "
+packet MetaDataX {
+i16 // packet A { u8 x, }
+o ,} packet options1{ @tag(
+    // `tick` ""quote"" 'q'
+    10 ) @lengthOf(A // packet A { u8 x, }
+)u8 x_y_z , f64 uint8x , } MetaData metadata
+    {
+    string MetaDataX , f32a
+Pad
+    // `tick` ""quote"" 'q'
+    ,
+}
+")).
+Eval vm_compute in ("<<<M1776>>>" ++ check (runes_of_ascii "MetaData As
+    //x
+    {
+    char lengthOf `
+`, //
+zchar[
+    4294967296 ]	x_y_z , } options{
+asx =	' '; }	options
+    { }
+")).
+Eval vm_compute in ("<<<M1808>>>" ++ check (runes_of_ascii "root packet a1 {@calculatedFrom( ""it's"" ) As u128 , }
+// 50% %s
+")).
+Eval vm_compute in ("<<<M1840>>>" ++ check (runes_of_ascii "packet// 50% %s
+roots{ // " ++ [128512]%N ++ runes_of_ascii " emoji
+MetaDataX zchar`
+`	, @lengthOf( stringy
+    ) lengthOf {match Logon as
+    charz  { [ 0,
+    ""// no comment"" ]
+:// trailing space 
+Header	,
+    ""it's"":
+A // " ++ [27880; 37322]%N ++ runes_of_ascii "
+3	: leftPad  , ""a\""b""  :u8x //x
+,1
+    : As  , ""a\\"" : // a // b
+matchKey
+, }// a // b
+, len { i32 uint8x `crlf
+line` , i64_	, uint64
+    rootA`two words` , uint8 zchar,} ,
+repeat uint32 msg_type ,len
+    float  , }  , repeat string
+stringy ,@tag( 42)@tag( 0 )i8i8 T
+    `// not a comment` , tag
+@lengthOf(charz ) ,
+@calculatedFrom( ""a\\""  ) repeat body {x_y_z
+    {repeat  falsey { len `crlf
+line` , char[]
+Header ,
+    repeat i16 chars,} ,i64 asx
+    ,
+},
+    zchar[ 00 ]
+    // " ++ [27880; 37322]%N ++ runes_of_ascii "
+    Foo`line1
+line2`
+,//
+zchar[ 0123456789
+]matchKey @calculatedFrom( ""it's""
+) `say ""hi""` ,  } ,int64 // c
+trueish `100% of %d`
+,len zchar , As pack
+`it's` // trailing space 
+, }root
+packet x_y_z { } root packet	leftPad {
+/// triple
+// c
+repeat char[] crc`100% of %d`
+    ,
+    // c
+    @lengthOf( Header ) i8 Foo
+/// triple
+// " ++ [27880; 37322]%N ++ runes_of_ascii "
+@calculatedFrom(""CRC32""
+) `tab	here` , string
+    trueish,  @calculatedFrom(  """ ++ [28040; 24687]%N ++ runes_of_ascii """
+    ) char options1 @lengthOf(
+    // c
+    float  )`it's` , msg_type
+    // trailing space 
+    @lengthOf( pack
+    ) ,match len as asx {""" ++ [233]%N ++ runes_of_ascii "t" ++ [233]%N ++ runes_of_ascii """ : As ,
+} ,
+    @lengthOf( Z9_) A
+o , u64 Foo@lengthOf(
+lengthOf ) `doc`, float // " ++ [27880; 37322]%N ++ runes_of_ascii "
+BodyLength `{ , }`
+    // packet A { u8 x, }
+    , match falsey
+as float  { """ ++ [233]%N ++ runes_of_ascii "t" ++ [233]%N ++ runes_of_ascii """ :int, }
+,} options{
+x_y_z	=	7 BodyLength
+//x
+//
+= f64 i64_ = uint64 lengthOf
+    = f64 // a // b
+; // 50% %s
+}
+MetaData int  {
+    _x uint8x,
+}
+")).
+Eval vm_compute in ("<<<T1840>>>" ++ terms [mkTok 35 "packet" 1 0 false; mkTok 44 "// 50% %s" 1 6 true; mkTok 42 "roots" 2 0 false; mkTok 2 "{" 2 5 false; mkTok 44 (string_of_bytes [47; 47; 32; 240; 159; 152; 128; 32; 101; 109; 111; 106; 105]%N) 2 7 true; mkTok 42 "MetaDataX" 3 0 false; mkTok 42 "zchar" 3 10 false; mkTok 43 (string_of_bytes [96; 10; 96]%N) 3 15 false; mkTok 40 "," 4 2 false; mkTok 7 "@lengthOf(" 4 4 false; mkTok 42 "stringy" 4 15 false; mkTok 6 ")" 5 4 false; mkTok 42 "lengthOf" 5 6 false; mkTok 2 "{" 5 15 false; mkTok 38 "match" 5 16 false; mkTok 42 "Logon" 5 22 false; mkTok 17 "as" 5 28 false; mkTok 42 "charz" 6 4 false; mkTok 2 "{" 6 11 false; mkTok 18 "[" 6 13 false; mkTok 30 "0" 6 15 false; mkTok 40 "," 6 16 false; mkTok 31 """// no comment""" 7 4 false; mkTok 13 "]" 7 20 false; mkTok 39 ":" 8 0 false; mkTok 44 "// trailing space " 8 1 true; mkTok 42 "Header" 9 0 false; mkTok 40 "," 9 7 false; mkTok 31 """it's""" 10 4 false; mkTok 39 ":" 10 10 false; mkTok 42 "A" 11 0 false; mkTok 44 (string_of_bytes [47; 47; 32; 230; 179; 168; 233; 135; 138]%N) 11 2 true; mkTok 30 "3" 12 0 false; mkTok 39 ":" 12 2 false; mkTok 42 "leftPad" 12 4 false; mkTok 40 "," 12 13 false; mkTok 31 """a\""b""" 12 15 false; mkTok 39 ":" 12 23 false; mkTok 42 "u8x" 12 24 false; mkTok 44 "//x" 12 28 true; mkTok 40 "," 13 0 false; mkTok 30 "1" 13 1 false; mkTok 39 ":" 14 4 false; mkTok 42 "As" 14 6 false; mkTok 40 "," 14 10 false; mkTok 31 """a\\""" 14 12 false; mkTok 39 ":" 14 18 false; mkTok 44 "// a // b" 14 20 true; mkTok 42 "matchKey" 15 0 false; mkTok 40 "," 16 0 false; mkTok 3 "}" 16 2 false; mkTok 44 "// a // b" 16 3 true; mkTok 40 "," 17 0 false; mkTok 42 "len" 17 2 false; mkTok 2 "{" 17 6 false; mkTok 26 "i32" 17 8 false; mkTok 42 "uint8x" 17 12 false; mkTok 43 (string_of_bytes [96; 99; 114; 108; 102; 13; 10; 108; 105; 110; 101; 96]%N) 17 19 false; mkTok 40 "," 18 6 false; mkTok 42 "i64_" 18 8 false; mkTok 40 "," 18 13 false; mkTok 23 "uint64" 18 15 false; mkTok 42 "rootA" 19 4 false; mkTok 43 "`two words`" 19 9 false; mkTok 40 "," 19 21 false; mkTok 20 "uint8" 19 23 false; mkTok 42 "zchar" 19 29 false; mkTok 40 "," 19 34 false; mkTok 3 "}" 19 35 false; mkTok 40 "," 19 37 false; mkTok 36 "repeat" 20 0 false; mkTok 22 "uint32" 20 7 false; mkTok 42 "msg_type" 20 14 false; mkTok 40 "," 20 23 false; mkTok 42 "len" 20 24 false; mkTok 42 "float" 21 4 false; mkTok 40 "," 21 11 false; mkTok 3 "}" 21 13 false; mkTok 40 "," 21 16 false; mkTok 36 "repeat" 21 18 false; mkTok 15 "string" 21 25 false; mkTok 42 "stringy" 22 0 false; mkTok 40 "," 22 8 false; mkTok 9 "@tag(" 22 9 false; mkTok 30 "42" 22 15 false; mkTok 6 ")" 22 17 false; mkTok 9 "@tag(" 22 18 false; mkTok 30 "0" 22 24 false; mkTok 6 ")" 22 26 false; mkTok 42 "i8i8" 22 27 false; mkTok 42 "T" 22 32 false; mkTok 43 "`// not a comment`" 23 4 false; mkTok 40 "," 23 23 false; mkTok 42 "tag" 23 25 false; mkTok 7 "@lengthOf(" 24 0 false; mkTok 42 "charz" 24 10 false; mkTok 6 ")" 24 16 false; mkTok 40 "," 24 18 false; mkTok 5 "@calculatedFrom(" 25 0 false; mkTok 31 """a\\""" 25 17 false; mkTok 6 ")" 25 24 false; mkTok 36 "repeat" 25 26 false; mkTok 42 "body" 25 33 false; mkTok 2 "{" 25 38 false; mkTok 42 "x_y_z" 25 39 false; mkTok 2 "{" 26 4 false; mkTok 36 "repeat" 26 5 false; mkTok 42 "falsey" 26 13 false; mkTok 2 "{" 26 20 false; mkTok 42 "len" 26 22 false; mkTok 43 (string_of_bytes [96; 99; 114; 108; 102; 13; 10; 108; 105; 110; 101; 96]%N) 26 26 false; mkTok 40 "," 27 6 false; mkTok 16 "char[]" 27 8 false; mkTok 42 "Header" 28 0 false; mkTok 40 "," 28 7 false; mkTok 36 "repeat" 29 4 false; mkTok 25 "i16" 29 11 false; mkTok 42 "chars" 29 15 false; mkTok 40 "," 29 20 false; mkTok 3 "}" 29 21 false; mkTok 40 "," 29 23 false; mkTok 27 "i64" 29 24 false; mkTok 42 "asx" 29 28 false; mkTok 40 "," 30 4 false; mkTok 3 "}" 31 0 false; mkTok 40 "," 31 1 false; mkTok 14 "zchar[" 32 4 false; mkTok 30 "00" 32 11 false; mkTok 13 "]" 32 14 false; mkTok 44 (string_of_bytes [47; 47; 32; 230; 179; 168; 233; 135; 138]%N) 33 4 true; mkTok 42 "Foo" 34 4 false; mkTok 43 (string_of_bytes [96; 108; 105; 110; 101; 49; 10; 108; 105; 110; 101; 50; 96]%N) 34 7 false; mkTok 40 "," 36 0 false; mkTok 44 "//" 36 1 true; mkTok 14 "zchar[" 37 0 false; mkTok 30 "0123456789" 37 7 false; mkTok 13 "]" 38 0 false; mkTok 42 "matchKey" 38 1 false; mkTok 5 "@calculatedFrom(" 38 10 false; mkTok 31 """it's""" 38 27 false; mkTok 6 ")" 39 0 false; mkTok 43 "`say ""hi""`" 39 2 false; mkTok 40 "," 39 13 false; mkTok 3 "}" 39 16 false; mkTok 40 "," 39 18 false; mkTok 27 "int64" 39 19 false; mkTok 44 "// c" 39 25 true; mkTok 42 "trueish" 40 0 false; mkTok 43 "`100% of %d`" 40 8 false; mkTok 40 "," 41 0 false; mkTok 42 "len" 41 1 false; mkTok 42 "zchar" 41 5 false; mkTok 40 "," 41 11 false; mkTok 42 "As" 41 13 false; mkTok 42 "pack" 41 16 false; mkTok 43 "`it's`" 42 0 false; mkTok 44 "// trailing space " 42 7 true; mkTok 40 "," 43 0 false; mkTok 3 "}" 43 2 false; mkTok 34 "root" 43 3 false; mkTok 35 "packet" 44 0 false; mkTok 42 "x_y_z" 44 7 false; mkTok 2 "{" 44 13 false; mkTok 3 "}" 44 15 false; mkTok 34 "root" 44 17 false; mkTok 35 "packet" 44 22 false; mkTok 42 "leftPad" 44 29 false; mkTok 2 "{" 44 37 false; mkTok 44 "/// triple" 45 0 true; mkTok 44 "// c" 46 0 true; mkTok 36 "repeat" 47 0 false; mkTok 16 "char[]" 47 7 false; mkTok 42 "crc" 47 14 false; mkTok 43 "`100% of %d`" 47 17 false; mkTok 40 "," 48 4 false; mkTok 44 "// c" 49 4 true; mkTok 7 "@lengthOf(" 50 4 false; mkTok 42 "Header" 50 15 false; mkTok 6 ")" 50 22 false; mkTok 24 "i8" 50 24 false; mkTok 42 "Foo" 50 27 false; mkTok 44 "/// triple" 51 0 true; mkTok 44 (string_of_bytes [47; 47; 32; 230; 179; 168; 233; 135; 138]%N) 52 0 true; mkTok 5 "@calculatedFrom(" 53 0 false; mkTok 31 """CRC32""" 53 16 false; mkTok 6 ")" 54 0 false; mkTok 43 (string_of_bytes [96; 116; 97; 98; 9; 104; 101; 114; 101; 96]%N) 54 2 false; mkTok 40 "," 54 13 false; mkTok 15 "string" 54 15 false; mkTok 42 "trueish" 55 4 false; mkTok 40 "," 55 11 false; mkTok 5 "@calculatedFrom(" 55 14 false; mkTok 31 (string_of_bytes [34; 230; 182; 136; 230; 129; 175; 34]%N) 55 32 false; mkTok 6 ")" 56 4 false; mkTok 19 "char" 56 6 false; mkTok 42 "options1" 56 11 false; mkTok 7 "@lengthOf(" 56 20 false; mkTok 44 "// c" 57 4 true; mkTok 42 "float" 58 4 false; mkTok 6 ")" 58 11 false; mkTok 43 "`it's`" 58 12 false; mkTok 40 "," 58 19 false; mkTok 42 "msg_type" 58 21 false; mkTok 44 "// trailing space " 59 4 true; mkTok 7 "@lengthOf(" 60 4 false; mkTok 42 "pack" 60 15 false; mkTok 6 ")" 61 4 false; mkTok 40 "," 61 6 false; mkTok 38 "match" 61 7 false; mkTok 42 "len" 61 13 false; mkTok 17 "as" 61 17 false; mkTok 42 "asx" 61 20 false; mkTok 2 "{" 61 24 false; mkTok 31 (string_of_bytes [34; 195; 169; 116; 195; 169; 34]%N) 61 25 false; mkTok 39 ":" 61 31 false; mkTok 42 "As" 61 33 false; mkTok 40 "," 61 36 false; mkTok 3 "}" 62 0 false; mkTok 40 "," 62 2 false; mkTok 7 "@lengthOf(" 63 4 false; mkTok 42 "Z9_" 63 15 false; mkTok 6 ")" 63 18 false; mkTok 42 "A" 63 20 false; mkTok 42 "o" 64 0 false; mkTok 40 "," 64 2 false; mkTok 23 "u64" 64 4 false; mkTok 42 "Foo" 64 8 false; mkTok 7 "@lengthOf(" 64 11 false; mkTok 42 "lengthOf" 65 0 false; mkTok 6 ")" 65 9 false; mkTok 43 "`doc`" 65 11 false; mkTok 40 "," 65 16 false; mkTok 42 "float" 65 18 false; mkTok 44 (string_of_bytes [47; 47; 32; 230; 179; 168; 233; 135; 138]%N) 65 24 true; mkTok 42 "BodyLength" 66 0 false; mkTok 43 "`{ , }`" 66 11 false; mkTok 44 "// packet A { u8 x, }" 67 4 true; mkTok 40 "," 68 4 false; mkTok 38 "match" 68 6 false; mkTok 42 "falsey" 68 12 false; mkTok 17 "as" 69 0 false; mkTok 42 "float" 69 3 false; mkTok 2 "{" 69 10 false; mkTok 31 (string_of_bytes [34; 195; 169; 116; 195; 169; 34]%N) 69 12 false; mkTok 39 ":" 69 18 false; mkTok 42 "int" 69 19 false; mkTok 40 "," 69 22 false; mkTok 3 "}" 69 24 false; mkTok 40 "," 70 0 false; mkTok 3 "}" 70 1 false; mkTok 1 "options" 70 3 false; mkTok 2 "{" 70 10 false; mkTok 42 "x_y_z" 71 0 false; mkTok 4 "=" 71 6 false; mkTok 30 "7" 71 8 false; mkTok 42 "BodyLength" 71 10 false; mkTok 44 "//x" 72 0 true; mkTok 44 "//" 73 0 true; mkTok 4 "=" 74 0 false; mkTok 29 "f64" 74 2 false; mkTok 42 "i64_" 74 6 false; mkTok 4 "=" 74 11 false; mkTok 23 "uint64" 74 13 false; mkTok 42 "lengthOf" 74 20 false; mkTok 4 "=" 75 4 false; mkTok 29 "f64" 75 6 false; mkTok 44 "// a // b" 75 10 true; mkTok 41 ";" 76 0 false; mkTok 44 "// 50% %s" 76 2 true; mkTok 3 "}" 77 0 false; mkTok 37 "MetaData" 78 0 false; mkTok 42 "int" 78 9 false; mkTok 2 "{" 78 14 false; mkTok 42 "_x" 79 4 false; mkTok 42 "uint8x" 79 7 false; mkTok 40 "," 79 13 false; mkTok 3 "}" 80 0 false; mkTok 0 "<EOF>" 81 0 false] (mkPacket (mkPtok 35 "packet" 1 0 0) (Some (mkPtok 3 "}" 80 0 276)) [(DPacket (mkPacketDef (mkSpan (mkPtok 35 "packet" 1 0 0) (mkPtok 3 "}" 43 2 158)) None (mkPtok 35 "packet" 1 0 0) (mkPtok 42 "roots" 2 0 2) (mkPtok 2 "{" 2 5 3) [(mkFieldWithAttr (mkSpan (mkPtok 42 "MetaDataX" 3 0 5) (mkPtok 40 "," 4 2 8)) [] (ObjectField (mkSpan (mkPtok 42 "MetaDataX" 3 0 5) (mkPtok 40 "," 4 2 8)) None (mkPtok 42 "MetaDataX" 3 0 5) (Some (mkPtok 42 "zchar" 3 10 6)) (Some (mkPtok 43 (string_of_bytes [96; 10; 96]%N) 3 15 7)) (mkPtok 40 "," 4 2 8))); (mkFieldWithAttr (mkSpan (mkPtok 7 "@lengthOf(" 4 4 9) (mkPtok 40 "," 21 16 78)) [(FALengthOf (mkSpan (mkPtok 7 "@lengthOf(" 4 4 9) (mkPtok 6 ")" 5 4 11)) (mkLengthOf (mkSpan (mkPtok 7 "@lengthOf(" 4 4 9) (mkPtok 6 ")" 5 4 11)) (mkPtok 7 "@lengthOf(" 4 4 9) (mkPtok 42 "stringy" 4 15 10) (mkPtok 6 ")" 5 4 11)))] (InerObjectField (mkSpan (mkPtok 42 "lengthOf" 5 6 12) (mkPtok 40 "," 21 16 78)) None (InerObjectDecl (mkSpan (mkPtok 42 "lengthOf" 5 6 12) (mkPtok 3 "}" 21 13 77)) (mkPtok 42 "lengthOf" 5 6 12) (mkPtok 2 "{" 5 15 13) [(MatchField (mkSpan (mkPtok 38 "match" 5 16 14) (mkPtok 40 "," 17 0 52)) (mkMatchFieldDecl (mkSpan (mkPtok 38 "match" 5 16 14) (mkPtok 3 "}" 16 2 50)) (mkPtok 38 "match" 5 16 14) (mkPtok 42 "Logon" 5 22 15) (mkPtok 17 "as" 5 28 16) (mkPtok 42 "charz" 6 4 17) (mkPtok 2 "{" 6 11 18) [(mkMatchPair (mkSpan (mkPtok 18 "[" 6 13 19) (mkPtok 40 "," 9 7 27)) (MKList (mkKeyList (mkSpan (mkPtok 18 "[" 6 13 19) (mkPtok 13 "]" 7 20 23)) (mkPtok 18 "[" 6 13 19) (mkPtok 30 "0" 6 15 20) [((mkPtok 40 "," 6 16 21), (mkPtok 31 """// no comment""" 7 4 22))] (mkPtok 13 "]" 7 20 23))) (mkPtok 39 ":" 8 0 24) (mkPtok 42 "Header" 9 0 26) (Some (mkPtok 40 "," 9 7 27))); (mkMatchPair (mkSpan (mkPtok 31 """it's""" 10 4 28) (mkPtok 42 "A" 11 0 30)) (MKString (mkPtok 31 """it's""" 10 4 28)) (mkPtok 39 ":" 10 10 29) (mkPtok 42 "A" 11 0 30) None); (mkMatchPair (mkSpan (mkPtok 30 "3" 12 0 32) (mkPtok 40 "," 12 13 35)) (MKDigits (mkPtok 30 "3" 12 0 32)) (mkPtok 39 ":" 12 2 33) (mkPtok 42 "leftPad" 12 4 34) (Some (mkPtok 40 "," 12 13 35))); (mkMatchPair (mkSpan (mkPtok 31 """a\""b""" 12 15 36) (mkPtok 40 "," 13 0 40)) (MKString (mkPtok 31 """a\""b""" 12 15 36)) (mkPtok 39 ":" 12 23 37) (mkPtok 42 "u8x" 12 24 38) (Some (mkPtok 40 "," 13 0 40))); (mkMatchPair (mkSpan (mkPtok 30 "1" 13 1 41) (mkPtok 40 "," 14 10 44)) (MKDigits (mkPtok 30 "1" 13 1 41)) (mkPtok 39 ":" 14 4 42) (mkPtok 42 "As" 14 6 43) (Some (mkPtok 40 "," 14 10 44))); (mkMatchPair (mkSpan (mkPtok 31 """a\\""" 14 12 45) (mkPtok 40 "," 16 0 49)) (MKString (mkPtok 31 """a\\""" 14 12 45)) (mkPtok 39 ":" 14 18 46) (mkPtok 42 "matchKey" 15 0 48) (Some (mkPtok 40 "," 16 0 49)))] (mkPtok 3 "}" 16 2 50)) (mkPtok 40 "," 17 0 52)); (InerObjectField (mkSpan (mkPtok 42 "len" 17 2 53) (mkPtok 40 "," 19 37 69)) None (InerObjectDecl (mkSpan (mkPtok 42 "len" 17 2 53) (mkPtok 3 "}" 19 35 68)) (mkPtok 42 "len" 17 2 53) (mkPtok 2 "{" 17 6 54) [(MetaField (mkSpan (mkPtok 26 "i32" 17 8 55) (mkPtok 40 "," 18 6 58)) None (mkMetaDecl (mkSpan (mkPtok 26 "i32" 17 8 55) (mkPtok 40 "," 18 6 58)) (TyBasic (mkSpan (mkPtok 26 "i32" 17 8 55) (mkPtok 26 "i32" 17 8 55)) (mkBasicType (mkSpan (mkPtok 26 "i32" 17 8 55) (mkPtok 26 "i32" 17 8 55)) (mkPtok 26 "i32" 17 8 55))) (mkPtok 42 "uint8x" 17 12 56) (Some (mkPtok 43 (string_of_bytes [96; 99; 114; 108; 102; 13; 10; 108; 105; 110; 101; 96]%N) 17 19 57)) (mkPtok 40 "," 18 6 58))); (ObjectField (mkSpan (mkPtok 42 "i64_" 18 8 59) (mkPtok 40 "," 18 13 60)) None (mkPtok 42 "i64_" 18 8 59) None None (mkPtok 40 "," 18 13 60)); (MetaField (mkSpan (mkPtok 23 "uint64" 18 15 61) (mkPtok 40 "," 19 21 64)) None (mkMetaDecl (mkSpan (mkPtok 23 "uint64" 18 15 61) (mkPtok 40 "," 19 21 64)) (TyBasic (mkSpan (mkPtok 23 "uint64" 18 15 61) (mkPtok 23 "uint64" 18 15 61)) (mkBasicType (mkSpan (mkPtok 23 "uint64" 18 15 61) (mkPtok 23 "uint64" 18 15 61)) (mkPtok 23 "uint64" 18 15 61))) (mkPtok 42 "rootA" 19 4 62) (Some (mkPtok 43 "`two words`" 19 9 63)) (mkPtok 40 "," 19 21 64))); (MetaField (mkSpan (mkPtok 20 "uint8" 19 23 65) (mkPtok 40 "," 19 34 67)) None (mkMetaDecl (mkSpan (mkPtok 20 "uint8" 19 23 65) (mkPtok 40 "," 19 34 67)) (TyBasic (mkSpan (mkPtok 20 "uint8" 19 23 65) (mkPtok 20 "uint8" 19 23 65)) (mkBasicType (mkSpan (mkPtok 20 "uint8" 19 23 65) (mkPtok 20 "uint8" 19 23 65)) (mkPtok 20 "uint8" 19 23 65))) (mkPtok 42 "zchar" 19 29 66) None (mkPtok 40 "," 19 34 67)))] (mkPtok 3 "}" 19 35 68)) (mkPtok 40 "," 19 37 69)); (MetaField (mkSpan (mkPtok 36 "repeat" 20 0 70) (mkPtok 40 "," 20 23 73)) (Some (mkPtok 36 "repeat" 20 0 70)) (mkMetaDecl (mkSpan (mkPtok 22 "uint32" 20 7 71) (mkPtok 40 "," 20 23 73)) (TyBasic (mkSpan (mkPtok 22 "uint32" 20 7 71) (mkPtok 22 "uint32" 20 7 71)) (mkBasicType (mkSpan (mkPtok 22 "uint32" 20 7 71) (mkPtok 22 "uint32" 20 7 71)) (mkPtok 22 "uint32" 20 7 71))) (mkPtok 42 "msg_type" 20 14 72) None (mkPtok 40 "," 20 23 73))); (ObjectField (mkSpan (mkPtok 42 "len" 20 24 74) (mkPtok 40 "," 21 11 76)) None (mkPtok 42 "len" 20 24 74) (Some (mkPtok 42 "float" 21 4 75)) None (mkPtok 40 "," 21 11 76))] (mkPtok 3 "}" 21 13 77)) (mkPtok 40 "," 21 16 78))); (mkFieldWithAttr (mkSpan (mkPtok 36 "repeat" 21 18 79) (mkPtok 40 "," 22 8 82)) [] (MetaField (mkSpan (mkPtok 36 "repeat" 21 18 79) (mkPtok 40 "," 22 8 82)) (Some (mkPtok 36 "repeat" 21 18 79)) (mkMetaDecl (mkSpan (mkPtok 15 "string" 21 25 80) (mkPtok 40 "," 22 8 82)) (TyDynamic (mkSpan (mkPtok 15 "string" 21 25 80) (mkPtok 15 "string" 21 25 80)) (mkDynamicString (mkSpan (mkPtok 15 "string" 21 25 80) (mkPtok 15 "string" 21 25 80)) (mkPtok 15 "string" 21 25 80))) (mkPtok 42 "stringy" 22 0 81) None (mkPtok 40 "," 22 8 82)))); (mkFieldWithAttr (mkSpan (mkPtok 9 "@tag(" 22 9 83) (mkPtok 40 "," 23 23 92)) [(FATag (mkSpan (mkPtok 9 "@tag(" 22 9 83) (mkPtok 6 ")" 22 17 85)) (mkTagAttr (mkSpan (mkPtok 9 "@tag(" 22 9 83) (mkPtok 6 ")" 22 17 85)) (mkPtok 9 "@tag(" 22 9 83) (mkPtok 30 "42" 22 15 84) (mkPtok 6 ")" 22 17 85))); (FATag (mkSpan (mkPtok 9 "@tag(" 22 18 86) (mkPtok 6 ")" 22 26 88)) (mkTagAttr (mkSpan (mkPtok 9 "@tag(" 22 18 86) (mkPtok 6 ")" 22 26 88)) (mkPtok 9 "@tag(" 22 18 86) (mkPtok 30 "0" 22 24 87) (mkPtok 6 ")" 22 26 88)))] (ObjectField (mkSpan (mkPtok 42 "i8i8" 22 27 89) (mkPtok 40 "," 23 23 92)) None (mkPtok 42 "i8i8" 22 27 89) (Some (mkPtok 42 "T" 22 32 90)) (Some (mkPtok 43 "`// not a comment`" 23 4 91)) (mkPtok 40 "," 23 23 92))); (mkFieldWithAttr (mkSpan (mkPtok 42 "tag" 23 25 93) (mkPtok 40 "," 24 18 97)) [] (LengthField (mkSpan (mkPtok 42 "tag" 23 25 93) (mkPtok 40 "," 24 18 97)) (mkLengthFieldDecl (mkSpan (mkPtok 42 "tag" 23 25 93) (mkPtok 40 "," 24 18 97)) None (mkPtok 42 "tag" 23 25 93) (mkLengthOf (mkSpan (mkPtok 7 "@lengthOf(" 24 0 94) (mkPtok 6 ")" 24 16 96)) (mkPtok 7 "@lengthOf(" 24 0 94) (mkPtok 42 "charz" 24 10 95) (mkPtok 6 ")" 24 16 96)) None (mkPtok 40 "," 24 18 97)))); (mkFieldWithAttr (mkSpan (mkPtok 5 "@calculatedFrom(" 25 0 98) (mkPtok 40 "," 39 18 144)) [(FACalculatedFrom (mkSpan (mkPtok 5 "@calculatedFrom(" 25 0 98) (mkPtok 6 ")" 25 24 100)) (mkCalculatedFrom (mkSpan (mkPtok 5 "@calculatedFrom(" 25 0 98) (mkPtok 6 ")" 25 24 100)) (mkPtok 5 "@calculatedFrom(" 25 0 98) (mkPtok 31 """a\\""" 25 17 99) (mkPtok 6 ")" 25 24 100)))] (InerObjectField (mkSpan (mkPtok 36 "repeat" 25 26 101) (mkPtok 40 "," 39 18 144)) (Some (mkPtok 36 "repeat" 25 26 101)) (InerObjectDecl (mkSpan (mkPtok 42 "body" 25 33 102) (mkPtok 3 "}" 39 16 143)) (mkPtok 42 "body" 25 33 102) (mkPtok 2 "{" 25 38 103) [(InerObjectField (mkSpan (mkPtok 42 "x_y_z" 25 39 104) (mkPtok 40 "," 31 1 125)) None (InerObjectDecl (mkSpan (mkPtok 42 "x_y_z" 25 39 104) (mkPtok 3 "}" 31 0 124)) (mkPtok 42 "x_y_z" 25 39 104) (mkPtok 2 "{" 26 4 105) [(InerObjectField (mkSpan (mkPtok 36 "repeat" 26 5 106) (mkPtok 40 "," 29 23 120)) (Some (mkPtok 36 "repeat" 26 5 106)) (InerObjectDecl (mkSpan (mkPtok 42 "falsey" 26 13 107) (mkPtok 3 "}" 29 21 119)) (mkPtok 42 "falsey" 26 13 107) (mkPtok 2 "{" 26 20 108) [(ObjectField (mkSpan (mkPtok 42 "len" 26 22 109) (mkPtok 40 "," 27 6 111)) None (mkPtok 42 "len" 26 22 109) None (Some (mkPtok 43 (string_of_bytes [96; 99; 114; 108; 102; 13; 10; 108; 105; 110; 101; 96]%N) 26 26 110)) (mkPtok 40 "," 27 6 111)); (MetaField (mkSpan (mkPtok 16 "char[]" 27 8 112) (mkPtok 40 "," 28 7 114)) None (mkMetaDecl (mkSpan (mkPtok 16 "char[]" 27 8 112) (mkPtok 40 "," 28 7 114)) (TyDynamic (mkSpan (mkPtok 16 "char[]" 27 8 112) (mkPtok 16 "char[]" 27 8 112)) (mkDynamicString (mkSpan (mkPtok 16 "char[]" 27 8 112) (mkPtok 16 "char[]" 27 8 112)) (mkPtok 16 "char[]" 27 8 112))) (mkPtok 42 "Header" 28 0 113) None (mkPtok 40 "," 28 7 114))); (MetaField (mkSpan (mkPtok 36 "repeat" 29 4 115) (mkPtok 40 "," 29 20 118)) (Some (mkPtok 36 "repeat" 29 4 115)) (mkMetaDecl (mkSpan (mkPtok 25 "i16" 29 11 116) (mkPtok 40 "," 29 20 118)) (TyBasic (mkSpan (mkPtok 25 "i16" 29 11 116) (mkPtok 25 "i16" 29 11 116)) (mkBasicType (mkSpan (mkPtok 25 "i16" 29 11 116) (mkPtok 25 "i16" 29 11 116)) (mkPtok 25 "i16" 29 11 116))) (mkPtok 42 "chars" 29 15 117) None (mkPtok 40 "," 29 20 118)))] (mkPtok 3 "}" 29 21 119)) (mkPtok 40 "," 29 23 120)); (MetaField (mkSpan (mkPtok 27 "i64" 29 24 121) (mkPtok 40 "," 30 4 123)) None (mkMetaDecl (mkSpan (mkPtok 27 "i64" 29 24 121) (mkPtok 40 "," 30 4 123)) (TyBasic (mkSpan (mkPtok 27 "i64" 29 24 121) (mkPtok 27 "i64" 29 24 121)) (mkBasicType (mkSpan (mkPtok 27 "i64" 29 24 121) (mkPtok 27 "i64" 29 24 121)) (mkPtok 27 "i64" 29 24 121))) (mkPtok 42 "asx" 29 28 122) None (mkPtok 40 "," 30 4 123)))] (mkPtok 3 "}" 31 0 124)) (mkPtok 40 "," 31 1 125)); (MetaField (mkSpan (mkPtok 14 "zchar[" 32 4 126) (mkPtok 40 "," 36 0 132)) None (mkMetaDecl (mkSpan (mkPtok 14 "zchar[" 32 4 126) (mkPtok 40 "," 36 0 132)) (TyFixed (mkSpan (mkPtok 14 "zchar[" 32 4 126) (mkPtok 13 "]" 32 14 128)) (mkFixedString (mkSpan (mkPtok 14 "zchar[" 32 4 126) (mkPtok 13 "]" 32 14 128)) (mkPtok 14 "zchar[" 32 4 126) (mkPtok 30 "00" 32 11 127) (mkPtok 13 "]" 32 14 128))) (mkPtok 42 "Foo" 34 4 130) (Some (mkPtok 43 (string_of_bytes [96; 108; 105; 110; 101; 49; 10; 108; 105; 110; 101; 50; 96]%N) 34 7 131)) (mkPtok 40 "," 36 0 132))); (CheckSumField (mkSpan (mkPtok 14 "zchar[" 37 0 134) (mkPtok 40 "," 39 13 142)) (mkChecksumFieldDecl (mkSpan (mkPtok 14 "zchar[" 37 0 134) (mkPtok 40 "," 39 13 142)) (Some (TyFixed (mkSpan (mkPtok 14 "zchar[" 37 0 134) (mkPtok 13 "]" 38 0 136)) (mkFixedString (mkSpan (mkPtok 14 "zchar[" 37 0 134) (mkPtok 13 "]" 38 0 136)) (mkPtok 14 "zchar[" 37 0 134) (mkPtok 30 "0123456789" 37 7 135) (mkPtok 13 "]" 38 0 136)))) (mkPtok 42 "matchKey" 38 1 137) (mkCalculatedFrom (mkSpan (mkPtok 5 "@calculatedFrom(" 38 10 138) (mkPtok 6 ")" 39 0 140)) (mkPtok 5 "@calculatedFrom(" 38 10 138) (mkPtok 31 """it's""" 38 27 139) (mkPtok 6 ")" 39 0 140)) (Some (mkPtok 43 "`say ""hi""`" 39 2 141)) (mkPtok 40 "," 39 13 142)))] (mkPtok 3 "}" 39 16 143)) (mkPtok 40 "," 39 18 144))); (mkFieldWithAttr (mkSpan (mkPtok 27 "int64" 39 19 145) (mkPtok 40 "," 41 0 149)) [] (MetaField (mkSpan (mkPtok 27 "int64" 39 19 145) (mkPtok 40 "," 41 0 149)) None (mkMetaDecl (mkSpan (mkPtok 27 "int64" 39 19 145) (mkPtok 40 "," 41 0 149)) (TyBasic (mkSpan (mkPtok 27 "int64" 39 19 145) (mkPtok 27 "int64" 39 19 145)) (mkBasicType (mkSpan (mkPtok 27 "int64" 39 19 145) (mkPtok 27 "int64" 39 19 145)) (mkPtok 27 "int64" 39 19 145))) (mkPtok 42 "trueish" 40 0 147) (Some (mkPtok 43 "`100% of %d`" 40 8 148)) (mkPtok 40 "," 41 0 149)))); (mkFieldWithAttr (mkSpan (mkPtok 42 "len" 41 1 150) (mkPtok 40 "," 41 11 152)) [] (ObjectField (mkSpan (mkPtok 42 "len" 41 1 150) (mkPtok 40 "," 41 11 152)) None (mkPtok 42 "len" 41 1 150) (Some (mkPtok 42 "zchar" 41 5 151)) None (mkPtok 40 "," 41 11 152))); (mkFieldWithAttr (mkSpan (mkPtok 42 "As" 41 13 153) (mkPtok 40 "," 43 0 157)) [] (ObjectField (mkSpan (mkPtok 42 "As" 41 13 153) (mkPtok 40 "," 43 0 157)) None (mkPtok 42 "As" 41 13 153) (Some (mkPtok 42 "pack" 41 16 154)) (Some (mkPtok 43 "`it's`" 42 0 155)) (mkPtok 40 "," 43 0 157)))] (mkPtok 3 "}" 43 2 158))); (DPacket (mkPacketDef (mkSpan (mkPtok 34 "root" 43 3 159) (mkPtok 3 "}" 44 15 163)) (Some (mkPtok 34 "root" 43 3 159)) (mkPtok 35 "packet" 44 0 160) (mkPtok 42 "x_y_z" 44 7 161) (mkPtok 2 "{" 44 13 162) [] (mkPtok 3 "}" 44 15 163))); (DPacket (mkPacketDef (mkSpan (mkPtok 34 "root" 44 17 164) (mkPtok 3 "}" 70 1 249)) (Some (mkPtok 34 "root" 44 17 164)) (mkPtok 35 "packet" 44 22 165) (mkPtok 42 "leftPad" 44 29 166) (mkPtok 2 "{" 44 37 167) [(mkFieldWithAttr (mkSpan (mkPtok 36 "repeat" 47 0 170) (mkPtok 40 "," 48 4 174)) [] (MetaField (mkSpan (mkPtok 36 "repeat" 47 0 170) (mkPtok 40 "," 48 4 174)) (Some (mkPtok 36 "repeat" 47 0 170)) (mkMetaDecl (mkSpan (mkPtok 16 "char[]" 47 7 171) (mkPtok 40 "," 48 4 174)) (TyDynamic (mkSpan (mkPtok 16 "char[]" 47 7 171) (mkPtok 16 "char[]" 47 7 171)) (mkDynamicString (mkSpan (mkPtok 16 "char[]" 47 7 171) (mkPtok 16 "char[]" 47 7 171)) (mkPtok 16 "char[]" 47 7 171))) (mkPtok 42 "crc" 47 14 172) (Some (mkPtok 43 "`100% of %d`" 47 17 173)) (mkPtok 40 "," 48 4 174)))); (mkFieldWithAttr (mkSpan (mkPtok 7 "@lengthOf(" 50 4 176) (mkPtok 40 "," 54 13 187)) [(FALengthOf (mkSpan (mkPtok 7 "@lengthOf(" 50 4 176) (mkPtok 6 ")" 50 22 178)) (mkLengthOf (mkSpan (mkPtok 7 "@lengthOf(" 50 4 176) (mkPtok 6 ")" 50 22 178)) (mkPtok 7 "@lengthOf(" 50 4 176) (mkPtok 42 "Header" 50 15 177) (mkPtok 6 ")" 50 22 178)))] (CheckSumField (mkSpan (mkPtok 24 "i8" 50 24 179) (mkPtok 40 "," 54 13 187)) (mkChecksumFieldDecl (mkSpan (mkPtok 24 "i8" 50 24 179) (mkPtok 40 "," 54 13 187)) (Some (TyBasic (mkSpan (mkPtok 24 "i8" 50 24 179) (mkPtok 24 "i8" 50 24 179)) (mkBasicType (mkSpan (mkPtok 24 "i8" 50 24 179) (mkPtok 24 "i8" 50 24 179)) (mkPtok 24 "i8" 50 24 179)))) (mkPtok 42 "Foo" 50 27 180) (mkCalculatedFrom (mkSpan (mkPtok 5 "@calculatedFrom(" 53 0 183) (mkPtok 6 ")" 54 0 185)) (mkPtok 5 "@calculatedFrom(" 53 0 183) (mkPtok 31 """CRC32""" 53 16 184) (mkPtok 6 ")" 54 0 185)) (Some (mkPtok 43 (string_of_bytes [96; 116; 97; 98; 9; 104; 101; 114; 101; 96]%N) 54 2 186)) (mkPtok 40 "," 54 13 187)))); (mkFieldWithAttr (mkSpan (mkPtok 15 "string" 54 15 188) (mkPtok 40 "," 55 11 190)) [] (MetaField (mkSpan (mkPtok 15 "string" 54 15 188) (mkPtok 40 "," 55 11 190)) None (mkMetaDecl (mkSpan (mkPtok 15 "string" 54 15 188) (mkPtok 40 "," 55 11 190)) (TyDynamic (mkSpan (mkPtok 15 "string" 54 15 188) (mkPtok 15 "string" 54 15 188)) (mkDynamicString (mkSpan (mkPtok 15 "string" 54 15 188) (mkPtok 15 "string" 54 15 188)) (mkPtok 15 "string" 54 15 188))) (mkPtok 42 "trueish" 55 4 189) None (mkPtok 40 "," 55 11 190)))); (mkFieldWithAttr (mkSpan (mkPtok 5 "@calculatedFrom(" 55 14 191) (mkPtok 40 "," 58 19 201)) [(FACalculatedFrom (mkSpan (mkPtok 5 "@calculatedFrom(" 55 14 191) (mkPtok 6 ")" 56 4 193)) (mkCalculatedFrom (mkSpan (mkPtok 5 "@calculatedFrom(" 55 14 191) (mkPtok 6 ")" 56 4 193)) (mkPtok 5 "@calculatedFrom(" 55 14 191) (mkPtok 31 (string_of_bytes [34; 230; 182; 136; 230; 129; 175; 34]%N) 55 32 192) (mkPtok 6 ")" 56 4 193)))] (LengthField (mkSpan (mkPtok 19 "char" 56 6 194) (mkPtok 40 "," 58 19 201)) (mkLengthFieldDecl (mkSpan (mkPtok 19 "char" 56 6 194) (mkPtok 40 "," 58 19 201)) (Some (TyBasic (mkSpan (mkPtok 19 "char" 56 6 194) (mkPtok 19 "char" 56 6 194)) (mkBasicType (mkSpan (mkPtok 19 "char" 56 6 194) (mkPtok 19 "char" 56 6 194)) (mkPtok 19 "char" 56 6 194)))) (mkPtok 42 "options1" 56 11 195) (mkLengthOf (mkSpan (mkPtok 7 "@lengthOf(" 56 20 196) (mkPtok 6 ")" 58 11 199)) (mkPtok 7 "@lengthOf(" 56 20 196) (mkPtok 42 "float" 58 4 198) (mkPtok 6 ")" 58 11 199)) (Some (mkPtok 43 "`it's`" 58 12 200)) (mkPtok 40 "," 58 19 201)))); (mkFieldWithAttr (mkSpan (mkPtok 42 "msg_type" 58 21 202) (mkPtok 40 "," 61 6 207)) [] (LengthField (mkSpan (mkPtok 42 "msg_type" 58 21 202) (mkPtok 40 "," 61 6 207)) (mkLengthFieldDecl (mkSpan (mkPtok 42 "msg_type" 58 21 202) (mkPtok 40 "," 61 6 207)) None (mkPtok 42 "msg_type" 58 21 202) (mkLengthOf (mkSpan (mkPtok 7 "@lengthOf(" 60 4 204) (mkPtok 6 ")" 61 4 206)) (mkPtok 7 "@lengthOf(" 60 4 204) (mkPtok 42 "pack" 60 15 205) (mkPtok 6 ")" 61 4 206)) None (mkPtok 40 "," 61 6 207)))); (mkFieldWithAttr (mkSpan (mkPtok 38 "match" 61 7 208) (mkPtok 40 "," 62 2 218)) [] (MatchField (mkSpan (mkPtok 38 "match" 61 7 208) (mkPtok 40 "," 62 2 218)) (mkMatchFieldDecl (mkSpan (mkPtok 38 "match" 61 7 208) (mkPtok 3 "}" 62 0 217)) (mkPtok 38 "match" 61 7 208) (mkPtok 42 "len" 61 13 209) (mkPtok 17 "as" 61 17 210) (mkPtok 42 "asx" 61 20 211) (mkPtok 2 "{" 61 24 212) [(mkMatchPair (mkSpan (mkPtok 31 (string_of_bytes [34; 195; 169; 116; 195; 169; 34]%N) 61 25 213) (mkPtok 40 "," 61 36 216)) (MKString (mkPtok 31 (string_of_bytes [34; 195; 169; 116; 195; 169; 34]%N) 61 25 213)) (mkPtok 39 ":" 61 31 214) (mkPtok 42 "As" 61 33 215) (Some (mkPtok 40 "," 61 36 216)))] (mkPtok 3 "}" 62 0 217)) (mkPtok 40 "," 62 2 218))); (mkFieldWithAttr (mkSpan (mkPtok 7 "@lengthOf(" 63 4 219) (mkPtok 40 "," 64 2 224)) [(FALengthOf (mkSpan (mkPtok 7 "@lengthOf(" 63 4 219) (mkPtok 6 ")" 63 18 221)) (mkLengthOf (mkSpan (mkPtok 7 "@lengthOf(" 63 4 219) (mkPtok 6 ")" 63 18 221)) (mkPtok 7 "@lengthOf(" 63 4 219) (mkPtok 42 "Z9_" 63 15 220) (mkPtok 6 ")" 63 18 221)))] (ObjectField (mkSpan (mkPtok 42 "A" 63 20 222) (mkPtok 40 "," 64 2 224)) None (mkPtok 42 "A" 63 20 222) (Some (mkPtok 42 "o" 64 0 223)) None (mkPtok 40 "," 64 2 224))); (mkFieldWithAttr (mkSpan (mkPtok 23 "u64" 64 4 225) (mkPtok 40 "," 65 16 231)) [] (LengthField (mkSpan (mkPtok 23 "u64" 64 4 225) (mkPtok 40 "," 65 16 231)) (mkLengthFieldDecl (mkSpan (mkPtok 23 "u64" 64 4 225) (mkPtok 40 "," 65 16 231)) (Some (TyBasic (mkSpan (mkPtok 23 "u64" 64 4 225) (mkPtok 23 "u64" 64 4 225)) (mkBasicType (mkSpan (mkPtok 23 "u64" 64 4 225) (mkPtok 23 "u64" 64 4 225)) (mkPtok 23 "u64" 64 4 225)))) (mkPtok 42 "Foo" 64 8 226) (mkLengthOf (mkSpan (mkPtok 7 "@lengthOf(" 64 11 227) (mkPtok 6 ")" 65 9 229)) (mkPtok 7 "@lengthOf(" 64 11 227) (mkPtok 42 "lengthOf" 65 0 228) (mkPtok 6 ")" 65 9 229)) (Some (mkPtok 43 "`doc`" 65 11 230)) (mkPtok 40 "," 65 16 231)))); (mkFieldWithAttr (mkSpan (mkPtok 42 "float" 65 18 232) (mkPtok 40 "," 68 4 237)) [] (ObjectField (mkSpan (mkPtok 42 "float" 65 18 232) (mkPtok 40 "," 68 4 237)) None (mkPtok 42 "float" 65 18 232) (Some (mkPtok 42 "BodyLength" 66 0 234)) (Some (mkPtok 43 "`{ , }`" 66 11 235)) (mkPtok 40 "," 68 4 237))); (mkFieldWithAttr (mkSpan (mkPtok 38 "match" 68 6 238) (mkPtok 40 "," 70 0 248)) [] (MatchField (mkSpan (mkPtok 38 "match" 68 6 238) (mkPtok 40 "," 70 0 248)) (mkMatchFieldDecl (mkSpan (mkPtok 38 "match" 68 6 238) (mkPtok 3 "}" 69 24 247)) (mkPtok 38 "match" 68 6 238) (mkPtok 42 "falsey" 68 12 239) (mkPtok 17 "as" 69 0 240) (mkPtok 42 "float" 69 3 241) (mkPtok 2 "{" 69 10 242) [(mkMatchPair (mkSpan (mkPtok 31 (string_of_bytes [34; 195; 169; 116; 195; 169; 34]%N) 69 12 243) (mkPtok 40 "," 69 22 246)) (MKString (mkPtok 31 (string_of_bytes [34; 195; 169; 116; 195; 169; 34]%N) 69 12 243)) (mkPtok 39 ":" 69 18 244) (mkPtok 42 "int" 69 19 245) (Some (mkPtok 40 "," 69 22 246)))] (mkPtok 3 "}" 69 24 247)) (mkPtok 40 "," 70 0 248)))] (mkPtok 3 "}" 70 1 249))); (DOption (mkOptionDef (mkSpan (mkPtok 1 "options" 70 3 250) (mkPtok 3 "}" 77 0 269)) (mkPtok 1 "options" 70 3 250) (mkPtok 2 "{" 70 10 251) [(mkOptionDecl (mkSpan (mkPtok 42 "x_y_z" 71 0 252) (mkPtok 30 "7" 71 8 254)) (mkPtok 42 "x_y_z" 71 0 252) (mkPtok 4 "=" 71 6 253) (VDigits (mkSpan (mkPtok 30 "7" 71 8 254) (mkPtok 30 "7" 71 8 254)) (mkPtok 30 "7" 71 8 254)) None); (mkOptionDecl (mkSpan (mkPtok 42 "BodyLength" 71 10 255) (mkPtok 29 "f64" 74 2 259)) (mkPtok 42 "BodyLength" 71 10 255) (mkPtok 4 "=" 74 0 258) (VType (mkSpan (mkPtok 29 "f64" 74 2 259) (mkPtok 29 "f64" 74 2 259)) (TyBasic (mkSpan (mkPtok 29 "f64" 74 2 259) (mkPtok 29 "f64" 74 2 259)) (mkBasicType (mkSpan (mkPtok 29 "f64" 74 2 259) (mkPtok 29 "f64" 74 2 259)) (mkPtok 29 "f64" 74 2 259)))) None); (mkOptionDecl (mkSpan (mkPtok 42 "i64_" 74 6 260) (mkPtok 23 "uint64" 74 13 262)) (mkPtok 42 "i64_" 74 6 260) (mkPtok 4 "=" 74 11 261) (VType (mkSpan (mkPtok 23 "uint64" 74 13 262) (mkPtok 23 "uint64" 74 13 262)) (TyBasic (mkSpan (mkPtok 23 "uint64" 74 13 262) (mkPtok 23 "uint64" 74 13 262)) (mkBasicType (mkSpan (mkPtok 23 "uint64" 74 13 262) (mkPtok 23 "uint64" 74 13 262)) (mkPtok 23 "uint64" 74 13 262)))) None); (mkOptionDecl (mkSpan (mkPtok 42 "lengthOf" 74 20 263) (mkPtok 41 ";" 76 0 267)) (mkPtok 42 "lengthOf" 74 20 263) (mkPtok 4 "=" 75 4 264) (VType (mkSpan (mkPtok 29 "f64" 75 6 265) (mkPtok 29 "f64" 75 6 265)) (TyBasic (mkSpan (mkPtok 29 "f64" 75 6 265) (mkPtok 29 "f64" 75 6 265)) (mkBasicType (mkSpan (mkPtok 29 "f64" 75 6 265) (mkPtok 29 "f64" 75 6 265)) (mkPtok 29 "f64" 75 6 265)))) (Some (mkPtok 41 ";" 76 0 267)))] (mkPtok 3 "}" 77 0 269))); (DMeta (mkMetaDef (mkSpan (mkPtok 37 "MetaData" 78 0 270) (mkPtok 3 "}" 80 0 276)) (mkPtok 37 "MetaData" 78 0 270) (mkPtok 42 "int" 78 9 271) (mkPtok 2 "{" 78 14 272) [(MIRef (mkRefMetaDecl (mkSpan (mkPtok 42 "_x" 79 4 273) (mkPtok 40 "," 79 13 275)) (mkPtok 42 "_x" 79 4 273) (mkPtok 42 "uint8x" 79 7 274) None (mkPtok 40 "," 79 13 275)))] (mkPtok 3 "}" 80 0 276)))])).
+Eval vm_compute in ("<<<M1872>>>" ++ check (runes_of_ascii "packet Z9_  {
+    string
+T
+    @lengthOf(string_ )
+, }
+//
+")).
+Eval vm_compute in ("<<<M1904>>>" ++ check (runes_of_ascii "options { asx
+    =
+f32}
+packet a1
+    {
+    } root packet o { // packet A { u8 x, }
+@lengthOf( As
+    ) u8x
+    `u8 x,` , }
+")).
+Eval vm_compute in ("<<<M1936>>>" ++ check (runes_of_ascii "// " ++ [128512]%N ++ runes_of_ascii " emoji
+ // @lengthOf(")).
+Eval vm_compute in ("<<<M1968>>>" ++ check (runes_of_ascii "
+//	t
 ")).
 Eval vm_compute in ("<<<M2000>>>" ++ check (runes_of_ascii "options {
 	StringPrefixLenType = u16;
@@ -1297,437 +1448,413 @@ packet Detail {
     string RuleName `" ++ [35268; 21017; 21517; 31216]%N ++ runes_of_ascii "`,
     u16 Code `" ++ [21407; 22240; 20195; 30721]%N ++ runes_of_ascii "`,
 }")).
-Eval vm_compute in ("<<<M2032>>>" ++ check (runes_of_ascii "options{ i64_ = ""{,}"" ; trueish =
-    '\x00'
-    leftPad = ""a\\"" /// triple
-; crc
-    = 255; uint8x
-=
-""abc""
-    ;}")).
-Eval vm_compute in ("<<<M2064>>>" ++ check (runes_of_ascii "options{ i64_ = string ; trueish =
-    '\x00'
-    leftPad =  /// triple
-; crc
-    = 255; uint8x
-=
-""abc""
-    ;}")).
-Eval vm_compute in ("<<<M2096>>>" ++ check (runes_of_ascii "options{ i64_ = string ; trueish =
-    '\x00'
-    leftPad = ""a\\"" /// triple
-; crc
-    = 255; =
-uint8x
-""abc""
-    ;}")).
-Eval vm_compute in ("<<<M2128>>>" ++ check (runes_of_ascii "options{ i64_ = string ; trueish =
-    '\x00'
-    leftPad = ""a\\"" /// triple
-; crc
-    = 255; uint'\x01'8x
-=
-""abc""
-    ;}")).
-Eval vm_compute in ("<<<M2160>>>" ++ check (runes_of_ascii "  packet
-asx
-{
-/// triple
-// @lengthOf(
-u32 
-`" ++ [28040; 24687; 31867; 22411]%N ++ runes_of_ascii "` ,} MetaData
-    A {string  _x, zchar Header `a\`
-// @lengthOf(
+Eval vm_compute in ("<<<M2032>>>" ++ check (runes_of_ascii "MetaData repeatCount { float64 ;,
+} root packet  metadata {
+char _x @lengthOf( trueish ), @leftPad
+( ' '// " ++ [27880; 37322]%N ++ runes_of_ascii "
+)/// triple
+char[] len`doc` , // packet A { u8 x, }
+repeatCount , }
+")).
+Eval vm_compute in ("<<<M2064>>>" ++ check (runes_of_ascii "MetaData repeatCount { float64 packetx,
+} root packet  metadata {
+ _x @lengthOf( trueish ), @leftPad
+( ' '// " ++ [27880; 37322]%N ++ runes_of_ascii "
+)/// triple
+char[] len`doc` , // packet A { u8 x, }
+repeatCount , }
+")).
+Eval vm_compute in ("<<<M2096>>>" ++ check (runes_of_ascii "MetaData repeatCount { float64 packetx,
+} root packet  metadata {
+char _x @lengthOf( trueish ), (
+@leftPad ' '// " ++ [27880; 37322]%N ++ runes_of_ascii "
+)/// triple
+char[] len`doc` , // packet A { u8 x, }
+repeatCount , }
+")).
+Eval vm_compute in ("<<<M2128>>>" ++ check (runes_of_ascii "MetaData repeatCount { float64 packetx,
+} root packet  metadata {
+char _x @lengthOf( trueish ), @leftPad
+( ' '// " ++ [27880; 37322]%N ++ runes_of_ascii "
+)/// triple
+char[] len")).
+Eval vm_compute in ("<<<M2160>>>" ++ check (runes_of_ascii "MetaData repeatCount { float64 pac" ++ [8232]%N ++ runes_of_ascii "ketx,
+} root packet  metadata {
+char _x @lengthOf( trueish ), @leftPad
+( ' '// " ++ [27880; 37322]%N ++ runes_of_ascii "
+)/// triple
+char[] len`doc` , // packet A { u8 x, }
+repeatCount , }
+")).
+Eval vm_compute in ("<<<M2192>>>" ++ check (runes_of_ascii "options{
+leftPad
+    =;
+65535
+a1 = true ; packetx=  '\x00' ; packetx
+=  """ ++ [28040; 24687]%N ++ runes_of_ascii """MetaDataX= // " ++ [27880; 37322]%N ++ runes_of_ascii "
+false }root // c
+packet // packet A { u8 x, }
+Pad { repeat
+u8 Header
 // packet A { u8 x, }
-, char[] MetaDataX
-,zchar[ 1 ]
-    matchKey
-    , char[] //
-u,	char[0123456789 ]
-    matchKey
-    `{ , }`, }
+//	t
+`{ , }`
+// a // b
+//x
+, }
 ")).
-Eval vm_compute in ("<<<M2192>>>" ++ check (runes_of_ascii "  packet
-asx
-{
-/// triple
-// @lengthOf(
-u32 stringy
-`" ++ [28040; 24687; 31867; 22411]%N ++ runes_of_ascii "` ,} MetaData
-    A string{  _x, zchar Header `a\`
-// @lengthOf(
+Eval vm_compute in ("<<<M2224>>>" ++ check (runes_of_ascii "options{
+leftPad
+    =65535
+;
+a1 = true ;")).
+Eval vm_compute in ("<<<M2256>>>" ++ check (runes_of_ascii "options{
+leftPad
+    =65535
+;
+a1 = true ; packetx=  '\x00' ; packetx
+=  """ ++ [28040; 24687]%N ++ runes_of_ascii """MetaDataX MetaDataX= // " ++ [27880; 37322]%N ++ runes_of_ascii "
+false }root // c
+packet // packet A { u8 x, }
+Pad { repeat
+u8 Header
 // packet A { u8 x, }
-, char[] MetaDataX
-,zchar[ 1 ]
-    matchKey
-    , char[] //
-u,	char[0123456789 ]
-    matchKey
-    `{ , }`, }
+//	t
+`{ , }`
+// a // b
+//x
+, }
 ")).
-Eval vm_compute in ("<<<M2224>>>" ++ check (runes_of_ascii "  packet
-asx
-{
-/// triple
-// @lengthOf(
-u32 stringy
-`" ++ [28040; 24687; 31867; 22411]%N ++ runes_of_ascii "` ,} MetaData
-    A {string  _x, zchar Header")).
-Eval vm_compute in ("<<<M2256>>>" ++ check (runes_of_ascii "  packet
-asx
-{
-/// triple
-// @lengthOf(
-u32 stringy
-`" ++ [28040; 24687; 31867; 22411]%N ++ runes_of_ascii "` ,} MetaData
-    A {string  _x, zchar Header `a\`
-// @lengthOf(
+Eval vm_compute in ("<<<M2288>>>" ++ check (runes_of_ascii "options{
+leftPad
+    =65535
+;
+a1 = true ; packetx=  '\x00' ; packetx
+=  """ ++ [28040; 24687]%N ++ runes_of_ascii """MetaDataX= // " ++ [27880; 37322]%N ++ runes_of_ascii "
+false }root // c
+packet // packet A { u8 x, }
+'0' { repeat
+u8 Header
 // packet A { u8 x, }
-, char[] MetaDataX
-,zchar[ 1 ] ]
-    matchKey
-    , char[] //
-u,	char[0123456789 ]
-    matchKey
-    `{ , }`, }
+//	t
+`{ , }`
+// a // b
+//x
+, }
 ")).
-Eval vm_compute in ("<<<M2288>>>" ++ check (runes_of_ascii "  packet
-asx
-{
-/// triple
-// @lengthOf(
-u32 stringy
-`" ++ [28040; 24687; 31867; 22411]%N ++ runes_of_ascii "` ,} MetaData
-    A {string  _x, zchar Header `a\`
-// @lengthOf(
+Eval vm_compute in ("<<<M2320>>>" ++ check (runes_of_ascii "options{
+leftPad
+    =65535
+;
+a1 = true ; packetx=  '\x00' ; packetx
+=  """ ++ [28040; 24687]%N ++ runes_of_ascii """MetaDataX= // " ++ [27880; 37322]%N ++ runes_of_ascii "
+false }root // c
+packet // packet A { u8 x, }
+Pad { repeat
+u8 Header
 // packet A { u8 x, }
-, char[] MetaDataX
-,zchar[ 1 ]
-    matchKey
-    , char[] //
-u,	packet 0123456789 ]
-    matchKey
-    `{ , }`, }
+//	t
+`{ , }`
+// a // b
+//x
+, 
 ")).
-Eval vm_compute in ("<<<M2320>>>" ++ check (runes_of_ascii "  packet
-asx
-{
-/// triple
-// @lengthOf(
-u32 stringy
-`" ++ [28040; 24687; 31867; 22411]%N ++ runes_of_ascii "` ,} MetaData
-    A {string  _x, zchar Header `a\`
-// @lengthOf(
-// packet A { u8 x, }
-, char[] MetaDataX
-,zchar[ 1 ]
-    matchKey
-    , char[] //
-u,	char[0123456789 ]")).
-Eval vm_compute in ("<<<M2352>>>" ++ check (runes_of_ascii "root
-    packet
-Packet Packet
-{ // trailing space 
-matchKey `tab	here` ,}")).
-Eval vm_compute in ("<<<M2384>>>" ++ check (runes_of_ascii "root
-    packet
-Packet
-{ // trailing s")).
-Eval vm_compute in ("<<<M2416>>>" ++ check (runes_of_ascii "options{")).
-Eval vm_compute in ("<<<M2448>>>" ++ check (runes_of_ascii "options{ falsey // a // b
-=
-    '0' } options { repeatCount = =
-true ; string_// a // b
-=
-// c
-// " ++ [27880; 37322]%N ++ runes_of_ascii "
-int64
-// trailing space 
-/// triple
-; } // @lengthOf(")).
-Eval vm_compute in ("<<<M2480>>>" ++ check (runes_of_ascii "options{ falsey // a // b
-=
-    '0' } options { repeatCount =
-true ; string_// a // b
-=
-// c
-// " ++ [27880; 37322]%N ++ runes_of_ascii "
-int64
-// trailing space 
-/// triple
-zchar[ } // @lengthOf(")).
-Eval vm_compute in ("<<<M2512>>>" ++ check (@nil rune)).
-Eval vm_compute in ("<<<M2544>>>" ++ check (runes_of_ascii "options{}root packet
-metadata {
-@lengthOf( @lengthOf(x ) float32
-body ``, }
-    MetaData
-Z9_
-    {
-    string string_ , Logon x
-,
-uint32
-    // packet A { u8 x, }
-    Z9_,asx
-_x
-    `tab	here` , }
-")).
-Eval vm_compute in ("<<<M2576>>>" ++ check (runes_of_ascii "options{}root packet
-metadata {
-@lengthOf(x ) float32
-body ``] }
-    MetaData
-Z9_
-    {
-    string string_ , Logon x
-,
-uint32
-    // packet A { u8 x, }
-    Z9_,asx
-_x
-    `tab	here` , }
-")).
-Eval vm_compute in ("<<<M2608>>>" ++ check (runes_of_ascii "options{}root packet
-metadata {
-@lengthOf(x ) float32
-body ``, }
-    MetaData
-Z9_
-    {
-    string string_  Logon x
-,
-uint32
-    // packet A { u8 x, }
-    Z9_,asx
-_x
-    `tab	here` , }
-")).
-Eval vm_compute in ("<<<M2640>>>" ++ check (runes_of_ascii "options{}root packet
-metadata {
-@lengthOf(x ) float32
-body ``, }
-    MetaData
-Z9_
-    {
-    string string_ , Logon x
-,
-uint32
-    // packet A { u8 x, }
-    Z9_ asx,
-_x
-    `tab	here` , }
-")).
-Eval vm_compute in ("<<<M2672>>>" ++ check (runes_of_ascii "options{}root packet
-metadata {
-@lengthOf(x ) float32
-body ``, }
-    MetaData
-Z9_
-    {
-    string string_ , Logon x
-,
-# uint32
-    // packet A { u8 x, }
-    Z9_,asx
-_x
-    `tab	here` , }
-")).
-Eval vm_compute in ("<<<M2704>>>" ++ check (runes_of_ascii "options {
-    falsey
-""a\\"" ; }")).
-Eval vm_compute in ("<<<M2736>>>" ++ check (runes_of_ascii "options {
-    falsey=
-# ""a\\"" ; }")).
-Eval vm_compute in ("<<<M2768>>>" ++ check (runes_of_ascii "MetaData f32a
-{
-    //	t
-    }int16
-    packet tag  {
+Eval vm_compute in ("<<<M2352>>>" ++ check (runes_of_ascii "
+packet float float
+{	@calculatedFrom( """ ++ [233]%N ++ runes_of_ascii "t" ++ [233]%N ++ runes_of_ascii """ )
+@rightPad ( '\x00' )
+    @calculatedFrom( ""x y"" ) string chars  ,
+    // a // b
+    char[0 ]
+    u	@lengthOf( i8i8 ) `{ , }` ,repeat char[] o //x
+`// not a comment`, } // c")).
+Eval vm_compute in ("<<<M2384>>>" ++ check (runes_of_ascii "
+packet float
+{	@calculatedFrom( """ ++ [233]%N ++ runes_of_ascii "t" ++ [233]%N ++ runes_of_ascii """ )
+@rightPad @calculatedFrom( '\x00' )
+    @calculatedFrom( ""x y"" ) string chars  ,
+    // a // b
+    char[0 ]
+    u	@lengthOf( i8i8 ) `{ , }` ,repeat char[] o //x
+`// not a comment`, } // c")).
+Eval vm_compute in ("<<<M2416>>>" ++ check (runes_of_ascii "
+packet float
+{	@calculatedFrom( """ ++ [233]%N ++ runes_of_ascii "t" ++ [233]%N ++ runes_of_ascii """ )
+@rightPad ( '\x00' )
+    @calculatedFrom( ""x y"" ) string   ,
+    // a // b
+    char[0 ]
+    u	@lengthOf( i8i8 ) `{ , }` ,repeat char[] o //x
+`// not a comment`, } // c")).
+Eval vm_compute in ("<<<M2448>>>" ++ check (runes_of_ascii "
+packet float
+{	@calculatedFrom( """ ++ [233]%N ++ runes_of_ascii "t" ++ [233]%N ++ runes_of_ascii """ )
+@rightPad ( '\x00' )
+    @calculatedFrom( ""x y"" ) string chars  ,
+    // a // b
+    char[0 ]
+    u	i8i8 @lengthOf( ) `{ , }` ,repeat char[] o //x
+`// not a comment`, } // c")).
+Eval vm_compute in ("<<<M2480>>>" ++ check (runes_of_ascii "
+packet float
+{	@calculatedFrom( """ ++ [233]%N ++ runes_of_ascii "t" ++ [233]%N ++ runes_of_ascii """ )
+@rightPad ( '\x00' )
+    @calculatedFrom( ""x y"" ) string chars  ,
+    // a // b
+    char[0 ]
+    u	@lengthOf( i8i8 ) `{ , }` ,repeat")).
+Eval vm_compute in ("<<<M2512>>>" ++ check (runes_of_ascii "
+packet float
+{	@calculatedFrom( """ ++ [233]%N ++ runes_of_ascii "t" ++ [233]%N ++ runes_of_ascii """ )
+@rightPad ( '\x00' )
+    @calculatedFrom(@leftpad ""x y"" ) string chars  ,
+    // a // b
+    char[0 ]
+    u	@lengthOf( i8i8 ) `{ , }` ,repeat char[] o //x
+`// not a comment`, } // c")).
+Eval vm_compute in ("<<<M2544>>>" ++ check (runes_of_ascii "root packet u128{
+    zchar[
+    repeat 65535 ] u `" ++ [28040; 24687; 31867; 22411]%N ++ runes_of_ascii "` ,// `tick` ""quote"" 'q'
+} packet i64_ {repeatCount
+    `
+` ,	} // " ++ [128512]%N ++ runes_of_ascii " emoji")).
+Eval vm_compute in ("<<<M2576>>>" ++ check (runes_of_ascii "root packet u128{
+    repeat
+    zchar[ 65535 ] u `" ++ [28040; 24687; 31867; 22411]%N ++ runes_of_ascii "`")).
+Eval vm_compute in ("<<<M2608>>>" ++ check (runes_of_ascii "root packet u128{
+    repeat
+    zchar[ 65535 ] u `" ++ [28040; 24687; 31867; 22411]%N ++ runes_of_ascii "` ,// `tick` ""quote"" 'q'
+} packet i64_ {repeatCount
+    `
+` , ,	} // " ++ [128512]%N ++ runes_of_ascii " emoji")).
+Eval vm_compute in ("<<<M2640>>>" ++ check (runes_of_ascii "
+roots
+MetaData { int8
+    BodyLength ,//	t
 }
 ")).
-Eval vm_compute in ("<<<M2800>>>" ++ check (runes_of_ascii "MetaData f32a
-{
-    //	t
-    }root
-    @leftpad packet tag  {
-}
-")).
+Eval vm_compute in ("<<<M2672>>>" ++ check (runes_of_ascii "
+MetaData
+roots { int8
+    ")).
+Eval vm_compute in ("<<<M2704>>>" ++ check (runes_of_ascii "options { = ""CRC32""i8i8 = false; leftPad =
+    '\x00'
+    // `tick` ""quote"" 'q'
+    ; o=255  ;
+    // packet A { u8 x, }
+    }")).
+Eval vm_compute in ("<<<M2736>>>" ++ check (runes_of_ascii "options {Packet = ""CRC32""i8i8 = false leftPad ; =
+    '\x00'
+    // `tick` ""quote"" 'q'
+    ; o=255  ;
+    // packet A { u8 x, }
+    }")).
+Eval vm_compute in ("<<<M2768>>>" ++ check (runes_of_ascii "options {Packet = ""CRC32""i8i8 = false; leftPad =
+    '\x00'
+    // `tick` ""quote"" 'q'
+    ; o")).
+Eval vm_compute in ("<<<M2800>>>" ++ check (runes_of_ascii "options {Packet = ""CRC32""i8i8 = false; leftPad =
+    '\x00'
+    // `tick` ""quote"" 'q'
+    ; o=255  ;
+    // packet A { u8 x, }
+    \}")).
 Eval vm_compute in ("<<<M2832>>>" ++ check (runes_of_ascii "
-options
-    {msg_type =
-    float32 float32  }root
-packet Z9_{ char /// triple
-crc @lengthOf(
-options1 ) //
-,} MetaData a1{}
-")).
+packet metadata { @rightPad (
+    // packet A { u8 x, }
+    ) ' ' repeat u32	A
+,matchKey ,
+    @lengthOf( string_ ) @lengthOf( body )
+    // a // b
+    @lengthOf(float  )	repeat
+int32 u8x
+    // c
+    `tab	here`
+, } // a // b")).
 Eval vm_compute in ("<<<M2864>>>" ++ check (runes_of_ascii "
-options
-    {msg_type =
-    float32  }root
-packet Z9_{ [ /// triple
-crc @lengthOf(
-options1 ) //
-,} MetaData a1{}
-")).
+packet metadata { @rightPad (
+    // packet A { u8 x, }
+    ' ' ) repeat u32	A
+,")).
 Eval vm_compute in ("<<<M2896>>>" ++ check (runes_of_ascii "
-options
-    {msg_type =
-    float32  }root
-packet Z9_{ char /// triple
-crc @lengthOf(
-options1 ) //
-,}  a1{}
-")).
+packet metadata { @rightPad (
+    // packet A { u8 x, }
+    ' ' ) repeat u32	A
+,matchKey ,
+    @lengthOf( string_ ) @lengthOf( body ) )
+    // a // b
+    @lengthOf(float  )	repeat
+int32 u8x
+    // c
+    `tab	here`
+, } // a // b")).
 Eval vm_compute in ("<<<M2928>>>" ++ check (runes_of_ascii "
-options
-    {msg_type =
-    float32  }root
-packet Z9_{ char /// triple
-crc @lengthOf(
-options1 " ++ [8232]%N ++ runes_of_ascii " ) //
-,} MetaData a1{}
+packet metadata { @rightPad (
+    // packet A { u8 x, }
+    ' ' ) repeat u32	A
+,matchKey ,
+    @lengthOf( string_ ) @lengthOf( body )
+    // a // b
+    @lengthOf(float  )	repeat
+int32 true
+    // c
+    `tab	here`
+, } // a // b")).
+Eval vm_compute in ("<<<M2960>>>" ++ check (runes_of_ascii "
+packet metadata { @rightPad (
+    // packet A { u8 x, }
+    ' ' ) repeat u32	A
+,matchKey ,
+    @lengthOf( s" ++ [8232]%N ++ runes_of_ascii "tring_ ) @lengthOf( body )
+    // a // b
+    @lengthOf(float  )	repeat
+int32 u8x
+    // c
+    `tab	here`
+, } // a // b")).
+Eval vm_compute in ("<<<M2992>>>" ++ check (runes_of_ascii "packet x{
+string
+zchar , , //	t
+}
 ")).
-Eval vm_compute in ("<<<M2960>>>" ++ check (runes_of_ascii "packet crc{ // " ++ [128512]%N ++ runes_of_ascii " emoji
-repeat ( i8i8
-`a\`, }
-")).
-Eval vm_compute in ("<<<M2992>>>" ++ check (runes_of_ascii "packet crc{ // " ++ [128512]%N ++ runes_of_ascii " emoji
-?repeat string i8i8
-`a\`, }
-")).
-Eval vm_compute in ("<<<M3024>>>" ++ check (runes_of_ascii "packet BodyLength {} MetaData MetaData zchar{ zchar[// @lengthOf(
-42 ]
-    pack , string_
-A , char[]crc , _x trueish ,
-// " ++ [27880; 37322]%N ++ runes_of_ascii "
-// " ++ [128512]%N ++ runes_of_ascii " emoji
-zchar[
-    3 ]	T // trailing space 
-, } packet body
+Eval vm_compute in ("<<<M3024>>>" ++ check (runes_of_ascii "
+Logon MetaData
+{ // c
+}root packet
+    Pad {
+    } options
 {
-    }
-")).
-Eval vm_compute in ("<<<M3056>>>" ++ check (runes_of_ascii "packet BodyLength {} MetaData zchar{ zchar[// @lengthOf(
-42 ]
-    int8 , string_
-A , char[]crc , _x trueish ,
-// " ++ [27880; 37322]%N ++ runes_of_ascii "
-// " ++ [128512]%N ++ runes_of_ascii " emoji
-zchar[
-    3 ]	T // trailing space 
-, } packet body
+u
+    =
+    ""CRC32""
+    // " ++ [128512]%N ++ runes_of_ascii " emoji
+    i64_ = u16;
+T =65535 x = ' '
+    ; u128
+= true ; }")).
+Eval vm_compute in ("<<<M3056>>>" ++ check (runes_of_ascii "
+MetaData Logon
+{ // c
+}root packet")).
+Eval vm_compute in ("<<<M3088>>>" ++ check (runes_of_ascii "
+MetaData Logon
+{ // c
+}root packet
+    Pad {
+    } options
 {
-    }
-")).
-Eval vm_compute in ("<<<M3088>>>" ++ check (runes_of_ascii "packet BodyLength {} MetaData zchar{ zchar[// @lengthOf(
-42 ]
-    pack , string_
-A , char[]crc  _x trueish ,
-// " ++ [27880; 37322]%N ++ runes_of_ascii "
-// " ++ [128512]%N ++ runes_of_ascii " emoji
-zchar[
-    3 ]	T // trailing space 
-, } packet body
+u
+    =
+    ""CRC32"" ""CRC32""
+    // " ++ [128512]%N ++ runes_of_ascii " emoji
+    i64_ = u16;
+T =65535 x = ' '
+    ; u128
+= true ; }")).
+Eval vm_compute in ("<<<M3120>>>" ++ check (runes_of_ascii "
+MetaData Logon
+{ // c
+}root packet
+    Pad {
+    } options
 {
-    }
-")).
-Eval vm_compute in ("<<<M3120>>>" ++ check (runes_of_ascii "packet BodyLength {} MetaData zchar{ zchar[// @lengthOf(
-42 ]
-    pack , string_
-A , char[]crc , _x trueish ,
-// " ++ [27880; 37322]%N ++ runes_of_ascii "
-// " ++ [128512]%N ++ runes_of_ascii " emoji
-zchar[
-    3 T	] // trailing space 
-, } packet body
+u
+    =
+    ""CRC32""
+    // " ++ [128512]%N ++ runes_of_ascii " emoji
+    i64_ = u16;
+T string 65535 x = ' '
+    ; u128
+= true ; }")).
+Eval vm_compute in ("<<<M3152>>>" ++ check (runes_of_ascii "
+MetaData Logon
+{ // c
+}root packet
+    Pad {
+    } options
 {
-    }
+u
+    =
+    ""CRC32""
+    // " ++ [128512]%N ++ runes_of_ascii " emoji
+    i64_ = u16;
+T =65535 x = ' '
+    ; u128
+ true ; }")).
+Eval vm_compute in ("<<<M3184>>>" ++ check (runes_of_ascii "
+MetaData Logon
+{ // c
+}root packet
+    Pad {
+    } options
+{
+u
+    @x =
+    ""CRC32""
+    // " ++ [128512]%N ++ runes_of_ascii " emoji
+    i64_ = u16;
+T =65535 x = ' '
+    ; u128
+= true ; }")).
+Eval vm_compute in ("<<<M3216>>>" ++ check (runes_of_ascii "MetaData body{}
+u8	Packet { x_y_z @calculatedFrom(  ""a\\"")// `tick` ""quote"" 'q'
+, }
 ")).
-Eval vm_compute in ("<<<M3152>>>" ++ check (runes_of_ascii "packet BodyLength {} MetaData zchar{ zchar[// @lengthOf(
-42 ]
-    pack , string_
-A , char[]crc , _x trueish ,
-// " ++ [27880; 37322]%N ++ runes_of_ascii "
-// " ++ [128512]%N ++ runes_of_ascii " emoji
-zchar[
-    3 ]	T // trailing space 
-, } packet body")).
-Eval vm_compute in ("<<<M3184>>>" ++ check (runes_of_ascii "packet
- {@lengthOf( int ) match packetx as f32a {
-    1 :	calculatedFrom , }  ,
-    } packet len
-    //	t
-    { @calculatedFrom( """ ++ [233]%N ++ runes_of_ascii "t" ++ [233]%N ++ runes_of_ascii """ ) body Header , char[] lengthOf  `two words` ,chars{repeat string_ matchKey ,
-    } ,
-    }
+Eval vm_compute in ("<<<M3248>>>" ++ check (runes_of_ascii "MetaData body{}
+packet	Packet { x_y_z @calculatedFrom(  ""a\\"")// `tick` ""quote"" 'q'
+ }
 ")).
-Eval vm_compute in ("<<<M3216>>>" ++ check (runes_of_ascii "packet
-string_ {@lengthOf( int ) match as packetx f32a {
-    1 :	calculatedFrom , }  ,
-    } packet len
-    //	t
-    { @calculatedFrom( """ ++ [233]%N ++ runes_of_ascii "t" ++ [233]%N ++ runes_of_ascii """ ) body Header , char[] lengthOf  `two words` ,chars{repeat string_ matchKey ,
-    } ,
-    }
+Eval vm_compute in ("<<<M3280>>>" ++ check (runes_of_ascii "packet packet f32a {} root packet len {repeat u // " ++ [128512]%N ++ runes_of_ascii " emoji
+`{ , }` , }
 ")).
-Eval vm_compute in ("<<<M3248>>>" ++ check (runes_of_ascii "packet
-string_ {@lengthOf( int ) match packetx as f32a {
-    1 :")).
-Eval vm_compute in ("<<<M3280>>>" ++ check (runes_of_ascii "packet
-string_ {@lengthOf( int ) match packetx as f32a {
-    1 :	calculatedFrom , }  ,
-    } packet len
-    //	t
-    { { @calculatedFrom( """ ++ [233]%N ++ runes_of_ascii "t" ++ [233]%N ++ runes_of_ascii """ ) body Header , char[] lengthOf  `two words` ,chars{repeat string_ matchKey ,
-    } ,
-    }
+Eval vm_compute in ("<<<M3312>>>" ++ check (runes_of_ascii "packet f32a {} root packet as {repeat u // " ++ [128512]%N ++ runes_of_ascii " emoji
+`{ , }` , }
 ")).
-Eval vm_compute in ("<<<M3312>>>" ++ check (runes_of_ascii "packet
-string_ {@lengthOf( int ) match packetx as f32a {
-    1 :	calculatedFrom , }  ,
-    } packet len
-    //	t
-    { @calculatedFrom( """ ++ [233]%N ++ runes_of_ascii "t" ++ [233]%N ++ runes_of_ascii """ ) body Header zchar[ char[] lengthOf  `two words` ,chars{repeat string_ matchKey ,
-    } ,
-    }
-")).
-Eval vm_compute in ("<<<M3344>>>" ++ check (runes_of_ascii "packet
-string_ {@lengthOf( int ) match packetx as f32a {
-    1 :	calculatedFrom , }  ,
-    } packet len
-    //	t
-    { @calculatedFrom( """ ++ [233]%N ++ runes_of_ascii "t" ++ [233]%N ++ runes_of_ascii """ ) body Header , char[] lengthOf  `two words` ,chars{ string_ matchKey ,
-    } ,
-    }
-")).
-Eval vm_compute in ("<<<M3376>>>" ++ check (runes_of_ascii "packet
-string_ {@lengthOf( int ) match packetx as f32a {
-    1 :	calculatedFrom , }  ,
-    } packet len
-    //	t
-    { @calculatedFrom( """ ++ [233]%N ++ runes_of_ascii "t" ++ [233]%N ++ runes_of_ascii """ ) body Header , char[] lengthOf  `two words` ,chars{repeat string_ matchKey ,
-    } ,
-    @leftPad
-")).
-Eval vm_compute in ("<<<M3408>>>" ++ check (runes_of_ascii "/// triple
-root
-packet // packet A { u8 x, }
-chars {")).
-Eval vm_compute in ("<<<M3440>>>" ++ check (runes_of_ascii "/// triple
-root
-packet")).
-Eval vm_compute in ("<<<M3472>>>" ++ check (runes_of_ascii "/// triple
-root
-packet // packet A { u8 x, }
-chars { @lengthOf(charz )
-stringy,  @tag(  0 ) // a // b
-asx
-    As
-,
-// trailing space 
-// trailing space 
-x_y_z")).
+Eval vm_compute in ("<<<M3344>>>" ++ check (runes_of_ascii "packet f32a {} root packet len {repeat u // ")).
+Eval vm_compute in ("<<<M3376>>>" ++ check (runes_of_ascii "options{ _x=""\" ++ [233]%N ++ runes_of_ascii """;
+    Logon = 10	; Foo= 7;
+i64_= char[]} options {
+matchKey = ""// no comment"" // a // b
+falsey = string
+; trueish =
+    4294967296
+options1=
+    ""it's"" string_	= true } options {
+    /// triple
+    } }")).
+Eval vm_compute in ("<<<M3408>>>" ++ check (runes_of_ascii "options{ _x=""\" ++ [233]%N ++ runes_of_ascii """;
+    Logon 10 =	; Foo= 7;
+i64_= char[]} options {
+matchKey = ""// no comment"" // a // b
+falsey = string
+; trueish =
+    4294967296
+options1=
+    ""it's"" string_	= true } options {
+    /// triple
+    }")).
+Eval vm_compute in ("<<<M3440>>>" ++ check (runes_of_ascii "options{ _x=""\" ++ [233]%N ++ runes_of_ascii """; ;
+    Logon = 10	; Foo= 7;
+i64_= char[]} options {
+matchKey = ""// no comment"" // a // b
+falsey = string
+; trueish =
+    4294967296
+options1=
+    ""it's"" string_	= true } options {
+    /// triple
+    }")).
+Eval vm_compute in ("<<<M3472>>>" ++ check (runes_of_ascii "options{ _x=""\" ++ [233]%N ++ runes_of_ascii """;
+    Logon = 10	; char= 7;
+i64_= char[]} options {
+matchKey = ""// no comment"" // a // b
+falsey = string
+; trueish =
+    4294967296
+options1=
+    ""it's"" string_	= true } options {
+    /// triple
+    }")).
 Eval vm_compute in ("<<<M3504>>>" ++ check (runes_of_ascii "uint8")).
 Eval vm_compute in ("<<<M3536>>>" ++ check (runes_of_ascii "ROOT")).
 Eval vm_compute in ("<<<M3568>>>" ++ check (runes_of_ascii "//")).
@@ -1740,11 +1867,12 @@ Eval vm_compute in ("<<<M3760>>>" ++ check (runes_of_ascii "
 
 
 ")).
-Eval vm_compute in ("<<<T3760>>>" ++ terms [mkTok 0 "<EOF>" 4 0 false] (mkPacket (mkPtok 0 "<EOF>" 4 0 0) None [])).
-Eval vm_compute in ("<<<M3792>>>" ++ check (runes_of_ascii "f" ++ [65533; 65533]%N ++ runes_of_ascii "F" ++ [65533; 27]%N ++ runes_of_ascii "3""(y" ++ [65533]%N ++ runes_of_ascii ">vO" ++ [65533; 65533; 65533; 65533; 18; 65533]%N ++ runes_of_ascii "7" ++ [65533; 65533]%N ++ runes_of_ascii "Z" ++ [65533]%N ++ runes_of_ascii ">" ++ [65533; 65533; 65533]%N ++ runes_of_ascii "1r" ++ [65533]%N ++ runes_of_ascii "t" ++ [29; 30; 65533]%N ++ runes_of_ascii " x")).
-Eval vm_compute in ("<<<M3824>>>" ++ check (runes_of_ascii "F")).
-Eval vm_compute in ("<<<M3856>>>" ++ check ([65533]%N ++ runes_of_ascii "hF!" ++ [65533; 16; 65533]%N ++ runes_of_ascii "]" ++ [65533; 5; 65533]%N ++ runes_of_ascii "q" ++ [65533]%N ++ runes_of_ascii "q)" ++ [65533; 65533; 65533]%N ++ runes_of_ascii "na" ++ [65533; 65533; 28; 65533; 65533]%N ++ runes_of_ascii "Wo" ++ [26]%N)).
-Eval vm_compute in ("<<<M3888>>>" ++ check ([65533]%N ++ runes_of_ascii "RX@")).
-Eval vm_compute in ("<<<M3920>>>" ++ check (runes_of_ascii "h(" ++ [65533; 65533]%N ++ runes_of_ascii "*" ++ [65533]%N ++ runes_of_ascii "Ylxn" ++ [656; 24; 65533; 65533; 0]%N ++ runes_of_ascii "]C" ++ [65533; 65533]%N ++ runes_of_ascii "s" ++ [65533; 65533]%N ++ runes_of_ascii "-" ++ [21; 65533]%N ++ runes_of_ascii "<" ++ [65533]%N ++ runes_of_ascii "d")).
-Eval vm_compute in ("<<<M3952>>>" ++ check ([65533]%N)).
-Eval vm_compute in ("<<<M3984>>>" ++ check (runes_of_ascii "/" ++ [65533; 65533; 25; 65533; 28; 65533]%N ++ runes_of_ascii ";" ++ [65533]%N ++ runes_of_ascii "H'")).
+Eval vm_compute in ("<<<M3792>>>" ++ check ([65533; 65533]%N ++ runes_of_ascii "=" ++ [65533; 65533; 65533]%N ++ runes_of_ascii ">7" ++ [65533]%N ++ runes_of_ascii "%g" ++ [65533; 65533]%N ++ runes_of_ascii "2" ++ [65533; 65533]%N ++ runes_of_ascii "x" ++ [65533; 809; 1269; 65533; 65533; 65533; 65533]%N ++ runes_of_ascii "P" ++ [65533]%N ++ runes_of_ascii ",Y" ++ [65533; 1514; 30; 18]%N ++ runes_of_ascii "-")).
+Eval vm_compute in ("<<<M3824>>>" ++ check ([65533]%N ++ runes_of_ascii "^" ++ [65533]%N ++ runes_of_ascii "
+" ++ [65533; 65533; 1851]%N ++ runes_of_ascii "I" ++ [65533]%N ++ runes_of_ascii "R5-`" ++ [15]%N ++ runes_of_ascii "pZQ" ++ [65533]%N ++ runes_of_ascii "
+")).
+Eval vm_compute in ("<<<M3856>>>" ++ check (runes_of_ascii "U" ++ [65533; 65533; 65533]%N ++ runes_of_ascii "<" ++ [65533; 65533; 65533; 65533; 65533; 0; 2032; 65533; 65533]%N ++ runes_of_ascii "-" ++ [65533]%N ++ runes_of_ascii "S" ++ [65533; 7; 65533; 7; 65533]%N ++ runes_of_ascii ";l")).
+Eval vm_compute in ("<<<M3888>>>" ++ check (runes_of_ascii "R" ++ [65533]%N ++ runes_of_ascii "Tg" ++ [65533; 65533]%N ++ runes_of_ascii ".w" ++ [65533]%N ++ runes_of_ascii "U	" ++ [31]%N ++ runes_of_ascii "." ++ [949; 65533; 642]%N ++ runes_of_ascii "'" ++ [65533; 65533; 65533]%N ++ runes_of_ascii "X" ++ [15]%N ++ runes_of_ascii "|x" ++ [12; 65533; 65533]%N ++ runes_of_ascii "Y" ++ [65533; 65533; 65533; 1186; 65533; 65533]%N)).
+Eval vm_compute in ("<<<M3920>>>" ++ check ([1924; 65533; 65533; 18; 65533]%N ++ runes_of_ascii "}" ++ [65533]%N ++ runes_of_ascii "V" ++ [65533; 14; 12]%N)).
+Eval vm_compute in ("<<<M3952>>>" ++ check ([65533]%N ++ runes_of_ascii "Mg" ++ [25; 2]%N ++ runes_of_ascii "#" ++ [65533]%N ++ runes_of_ascii "O" ++ [65533; 65533]%N ++ runes_of_ascii "/!" ++ [65533; 65533; 65533]%N ++ runes_of_ascii "e" ++ [65533]%N ++ runes_of_ascii "4" ++ [65533; 586]%N ++ runes_of_ascii "J" ++ [5]%N ++ runes_of_ascii "|" ++ [65533; 65533; 6; 14; 65533; 65533; 65533; 26]%N ++ runes_of_ascii "v!")).
+Eval vm_compute in ("<<<M3984>>>" ++ check ([16; 65533; 65533]%N ++ runes_of_ascii "8^" ++ [65533; 65533; 65533; 65533; 65533]%N ++ runes_of_ascii "@" ++ [12; 65533]%N ++ runes_of_ascii "&" ++ [65533; 65533; 65533; 65533; 65533]%N ++ runes_of_ascii "F" ++ [65533]%N ++ runes_of_ascii "Nc" ++ [65533; 7; 65533; 23; 65533]%N ++ runes_of_ascii "@")).
